@@ -112,7 +112,15 @@ RULE = (
     "1e150 / 1e-12 .. 1e12), the regenerated from_preset (sampled (preset, Z) pairs incl. the defective and non-tabulated ones, rgrid "
     "given / None / omitted with the default radial grid, centre and rotate given or omitted) and the regenerated get_shell_grid "
     "(every construction: r_sq True / False / omitted, alternating on one index, first request with the non-default option), "
-    "arguments omitted by the caller run through the regenerated default values, centres 2^10 .. 2^20 from the origin"
+    "arguments omitted by the caller run through the regenerated default values, centres 2^10 .. 2^20 from the origin. Round 4 "
+    "(oracle, each scenario a self-contained replay source): arrays of every kind inside the radial grid object and the array arguments "
+    "(float32, narrow ints, uint8, bool weights, read-only, strided, negative stride, column of a Fortran array) against the float64 "
+    "computation through all constructors and get_shell_grid; every documented argument combination (both alternatives given, positional / "
+    "keyword, omitted / None / explicit default); one argument object (views into larger caller arrays, guard bytes) for several requests; "
+    "kinds of function values for integrate (complex, float32, int, bool, longdouble); 26 kinds of rejected calls leaving no trace on the object, "
+    "its radial grid and the process; radial grids from the library's transforms with trimmed ends / zero / negative / 1e14 weights and the "
+    "Lebedev grids with negative weights; one and two shells, 2-point spheres, all shell sizes different; r = 0, denormal and r^2-underflowing "
+    "shells with r_sq True / False / omitted in every run; corr and oracle run as independent parts"
 )
 TRUSTED_BASE = [
     "Lean 4.33 kernel; axioms propext, Classical.choice, Quot.sound only (audited per theorem)",
@@ -422,6 +430,46 @@ def _shellreqs(ctx, n):
 
 
 # ----------------------------------------------------------------------------
+# round 4: independent parts (an exception in one part must not hide what the others find)
+# ----------------------------------------------------------------------------
+class _Parts:
+    """Runs the parts of `corr` / `oracle` one after the other.  An exception raised *by the library* inside a part (its
+    inputs are inside the envelope the part documents) is recorded as a failure `<part>:raises` with the traceback as
+    witness; any other exception (harness, driver, translator) is kept and the first one is re-raised after every part
+    has run, so that the runner still sees it."""
+
+    def __init__(self, ctx: Ctx, stage: str, prefix: str):
+        self.ctx, self.stage, self.prefix, self.first = ctx, stage, prefix, None
+
+    def run(self, name, fn, *args):
+        import traceback
+        from ..common import DriverError
+
+        try:
+            fn(*args)
+        except DriverError as e:
+            self.first = self.first or e
+        except Exception as e:  # noqa: BLE001
+            frames = traceback.extract_tb(e.__traceback__)
+            in_lib = any(("/grid/" in f.filename or "site-packages" in f.filename) and "/harness/" not in f.filename for f in frames) \
+                and not isinstance(e, (NameError, UnboundLocalError))
+            if in_lib:
+                key = f"{self.prefix}:{_slug(name)}:raises"
+                self.ctx.fail(self.stage, key, f"{name}: the library raised {type(e).__name__}: {str(e)[:300]} on an input inside the documented envelope",
+                              witness="".join(traceback.format_exception(type(e), e, e.__traceback__))[-2500:])
+            else:
+                self.first = self.first or e
+
+    def finish(self):
+        if self.first is not None:
+            raise self.first
+
+
+def _slug(name):
+    return re.sub(r"[^a-z0-9]+", "-", name.lower()).strip("-")[:60]
+
+
+# ----------------------------------------------------------------------------
 # correspondence
 # ----------------------------------------------------------------------------
 def _preset_tables():
@@ -463,246 +511,264 @@ def corr(ctx: Ctx):
     AtomGrid = ag.AtomGrid
     rng = ctx.rng
 
+    parts = _Parts(ctx, 'corr', 'corr')
     # ---- 1. constructor on random inputs -------------------------------------------------
-    cases = []
-    for k in range(ctx.n(300, 5000)):
-        method = METHODS[k % 4] if k < 40 else rng.choice(METHODS)
-        pts, wts = _rand_rgrid(ctx, n=(1 + k % 3) if k < 24 else None)
-        n = len(pts)
-        pairs = _supported(ang, method)
-        dmax = MAXDEG[method] if rng.random() < 0.93 else 41
-        smax = max(s for d, s in pairs if d <= dmax)
-        shape = rng.choice(["const", "list", "list", "sizes", "sizes-const", "badlen", "toolarge"] if k >= 12 else ["const", "list", "sizes"])
-        kind = "size" if shape.startswith("sizes") else "deg"
-        if shape == "const":
-            reqs = [rng.randrange(0, dmax + 1)]
-        elif shape == "list":
-            pool = [rng.randrange(0, dmax + 1) for _ in range(rng.randrange(1, 4))]
-            reqs = [rng.choice(pool) for _ in range(n)]
-        elif shape == "sizes":
-            pool = [rng.randrange(0, smax + 1) for _ in range(rng.randrange(1, 4))]
-            reqs = [rng.choice(pool) for _ in range(n)]
-        elif shape == "sizes-const":
-            reqs = [rng.randrange(0, smax + 1)]
-        elif shape == "badlen":
-            L = rng.choice([x for x in (n + 1, n + 2, n - 1, 0) if x not in (1, n) and x >= 0])
-            reqs = [rng.randrange(0, 12) for _ in range(L)]
-        else:
-            kind = rng.choice(["deg", "size"])
-            big = (max(d for d, _ in pairs) if kind == "deg" else max(s for _, s in pairs)) + rng.randrange(1, 5)
-            reqs = [rng.randrange(0, 8) for _ in range(n)]
-            reqs[rng.randrange(n)] = big
-        center = _rand_center(ctx)
-        rotate = _rand_rotate(ctx, n)
-        if rng.random() < 0.04:
-            rotate = 2 ** 32 - n + rng.randrange(0, 3)  # rejected
-        sreq = _shellreqs(ctx, n)
-        cases.append((method, kind, reqs, rotate, center, pts, wts, sreq, shape))
-    lines = [_build_line(ang, m, kd, rq, rot, c, p, w, sr) for (m, kd, rq, rot, c, p, w, sr, _) in cases]
-    answers = driver_batch(lines)
-    for (m, kd, rq, rot, c, p, w, sr, shape), line in zip(cases, answers):
-        case = {"op": "AtomGrid", "method": m, ("degrees" if kd == "deg" else "sizes"): rq, "rotate": rot,
-                "center": None if c is None else c.tolist(), "rgrid_points": p.tolist(), "rgrid_weights": w.tolist()}
-        if line == "bad-op":
-            ctx.fail("corr", "AtomGrid.__init__", f"{case}: the model could not run (bad-op)", witness=case)
-            continue
-        a = Ans(line)
-
-        def impl(m=m, kd=kd, rq=rq, rot=rot, c=c, p=p, w=w):
-            rgrid = _onedgrid(bg, p, w)
-            if kd == "deg":
-                return AtomGrid(rgrid, degrees=list(rq), center=c, rotate=rot, method=m)
-            return AtomGrid(rgrid, None, sizes=list(rq), center=c, rotate=rot, method=m)
-
-        _compare_grid(ctx, "AtomGrid.__init__", case, impl, a, p, c, sr)
-        nontriv = a.tag != "ok" or len(set(a.degrees)) >= 2 or rot != 0 or (c is not None and np.any(c != 0))
-        ctx.count(case, nontrivial=nontriv,
-                  tag=f"init:{m}:{shape}:" + ("rot" if rot else "norot") + (":r0" if np.any(p == 0) else "") + (":" + a.tag if a.tag != "ok" else ""))
-
-    # ---- 2. sector lookup ------------------------------------------------------------------
-    sect_cases = []
-    for k in range(ctx.n(300, 6000)):
-        S = rng.randrange(0, 6)
-        bounds = sorted(rng.uniform(0, 10) for _ in range(S))
-        if rng.random() < 0.15:
-            rng.shuffle(bounds)
-        if S >= 2 and rng.random() < 0.1:
-            bounds[1] = bounds[0]
-        n = rng.randrange(1, 8)
-        rp = [rng.choice(bounds) if bounds and rng.random() < 0.35 else rng.uniform(0, 12) for _ in range(n)]
-        L = S + 1 if rng.random() < 0.85 else rng.randrange(1, S + 3)
-        ds = [rng.randrange(1, 60) for _ in range(L)]
-        sect_cases.append((rp, bounds, ds))
-    answers = driver_batch([f"C05.sectors {fvec(rp)} {fvec(b)} {vec(ds)}" for rp, b, ds in sect_cases])
-    for (rp, b, ds), line in zip(sect_cases, answers):
-        try:
-            v = AtomGrid._find_degrees_for_radial_points(np.array(rp), np.array(b, dtype=float), np.array(ds))
-            impl = "ok " + vec(int(x) for x in v)
-        except IndexError:
-            impl = "index-error"
-        case = {"op": "_find_degrees_for_radial_points", "radial_points": rp, "r_sectors": b, "d_sectors": ds}
-        ctx.count(case, nontrivial=len(b) >= 1, tag="sectors:" + ("ok" if impl.startswith("ok") else impl) + (":on-bound" if set(rp) & set(b) else ""))
-        if impl != line:
-            ctx.fail("corr", "AtomGrid._find_degrees_for_radial_points", f"{case}: implementation {impl}, model {line}", witness=case)
-
-    # ---- 3. from_pruned ----------------------------------------------------------------------
-    pr_cases = []
-    for k in range(ctx.n(120, 2400)):
-        method = rng.choice(METHODS)
-        pairs = _supported(ang, method)
-        pts, wts = _rand_rgrid(ctx)
-        S = rng.randrange(0, 5)
-        rsect = sorted(rng.uniform(0.05, 4) for _ in range(S))
-        radius = rng.choice([1.0, rng.uniform(0.3, 3.0)])
-        if S and rng.random() < 0.4:
-            pts[rng.randrange(len(pts))] = rsect[rng.randrange(S)] * radius
-        kind = rng.choice(["deg", "deg", "size"])
-        L = S + 1 if rng.random() < 0.85 else max(0, S + rng.choice([0, 2]))
-        dmax = MAXDEG[method]
-        smax = max(s for d, s in pairs if d <= dmax)
-        sect = [rng.randrange(0, (dmax if kind == "deg" else smax) + 1) for _ in range(L)]
-        if rng.random() < 0.06 and L:
-            sect[rng.randrange(L)] = (max(d for d, _ in pairs) if kind == "deg" else max(s for _, s in pairs)) + 1
-        pr_cases.append((method, kind, sect, radius, rsect, pts, wts, _rand_center(ctx), _rand_rotate(ctx, len(pts))))
-    answers = driver_batch([f"C05.pruned {m} {kd} {vec(s)} {f2b(rad)} {fvec(rs)} {fvec(p)}" for m, kd, s, rad, rs, p, w, c, rot in pr_cases])
-    follow = []
-    for (m, kd, s, rad, rs, p, w, c, rot), line in zip(pr_cases, answers):
-        case = {"op": "from_pruned", "method": m, ("d_sectors" if kd == "deg" else "s_sectors"): s, "radius": rad,
-                "r_sectors": rs, "rgrid_points": p.tolist(), "rgrid_weights": w.tolist(), "rotate": rot,
-                "center": None if c is None else c.tolist()}
-        try:
-            rgrid = _onedgrid(bg, p, w)
-            dsec = s if kd == "deg" else ang.AngularGrid.convert_angular_sizes_to_degrees(np.array(s, dtype=int), m)
-            v = AtomGrid._generate_degree_from_radius(rgrid, rad, rs, dsec, m)
-            impl = "ok " + vec(int(x) for x in v)
-        except (ValueError, IndexError) as e:
-            impl = _exc_tag(e)
-        ctx.count(case, nontrivial=True, tag=f"pruned:{m}:{kd}:" + ("ok" if impl.startswith("ok") else impl))
-        if impl != line:
-            ctx.fail("corr", "AtomGrid._generate_degree_from_radius", f"{case}: implementation {impl}, model {line}", witness=case)
-        elif impl.startswith("ok") and len(follow) < ctx.n(25, 300):
-            follow.append(((m, kd, s, rad, rs, p, w, c, rot), [int(x) for x in line.split()[2:]], case))
-    lines = [_gpruned_line(ang, m, s if kd == "deg" else None, s if kd == "size" else None, rad, rs, c, rot, p, w, degs, [(0, True)])
-             for (m, kd, s, rad, rs, p, w, c, rot), degs, _ in follow]
-    answers = driver_batch(lines)
-    for ((m, kd, s, rad, rs, p, w, c, rot), degs, case), line in zip(follow, answers):
-        if line == "bad-op":
-            ctx.fail("corr", "AtomGrid.from_pruned", f"{case}: the model could not run (bad-op)", witness=case)
-            continue
-
-        def impl(m=m, kd=kd, s=s, rad=rad, rs=rs, p=p, w=w, c=c, rot=rot):
-            rgrid = _onedgrid(bg, p, w)
-            if kd == "deg":
-                return AtomGrid.from_pruned(rgrid, rad, r_sectors=rs, d_sectors=s, center=c, rotate=rot, method=m)
-            return AtomGrid.from_pruned(rgrid, rad, r_sectors=rs, d_sectors=None, s_sectors=s, center=c, rotate=rot, method=m)
-
-        a = Ans(line)
-        _compare_grid(ctx, "AtomGrid.from_pruned", case, impl, a, p, c, [(0, True)])
-        ctx.count(dict(case, full=True), nontrivial=True, tag="pruned:full-grid")
-
-    # ---- 4. presets: every (preset, element) through the table reader ---------------------------
-    tabs = _preset_tables()
-    pairs_pz = [(p, z) for p in sorted(tabs) for z in sorted(tabs[p][0])]
-    defective = [("sg_3", 14), ("sg_0", 7), ("sg_0", 15)]
-    pcases = []
-    for p, z in pairs_pz:
-        rad, npt, nshell = tabs[p][0][z]
-        for method in (METHODS if ctx.thorough else [rng.choice(METHODS) if rng.random() < 0.3 else "lebedev"]):
-            exact = rng.random() < 0.93
-            pcases.append((p, z, method, _preset_rgrid_points(ctx, rad, nshell, exact)))
-    # a name / element that is not tabulated
-    pcases.append(("sg_1", 85, "lebedev", np.linspace(0.1, 5, 50)))
-    answers = driver_batch([f"C05.preset {p} {z} {m} {fvec(rp)}" for p, z, m, rp in pcases]
-                           + [f"C05.branch {p} {z}" for p, z, m, rp in pcases]
-                           + [f"C05.prescribed {p} {z}" for p, z, m, rp in pcases]
-                           + [f"C05.entry {p} {z}" for p, z, m, rp in pcases])
-    npc = len(pcases)
-    full = []
-    for k, (p, z, m, rp) in enumerate(pcases):
-        line, branch, presc, entry = answers[k], answers[npc + k], answers[2 * npc + k], answers[3 * npc + k]
-        case = {"op": "from_preset", "preset": p, "atnum": z, "method": m, "rgrid_points": rp.tolist()}
-        rgrid = _onedgrid(bg, rp, np.ones(len(rp)))
-        try:
-            g = AtomGrid.from_preset(z, p, rgrid, method=m)
-            impl = "ok"
-        except (ValueError, IndexError, TypeError, KeyError) as e:
-            g, impl = None, _exc_tag(e)
-        ctx.count(case, nontrivial=True, tag=f"preset:{p}:" + (branch.split()[-1] if branch.startswith("ok") else branch) + (":" + impl if impl != "ok" else ""))
-        # the table as the translator carried it
-        if p in tabs and z in tabs[p][0]:
-            rad, npt, nshell = tabs[p][0][z]
-            et = entry.split()
-            want = ["ok", str(len(rad)), str(len(npt)), "1" if rad.dtype.kind == "i" else "0",
-                    str(int(rad.sum()) if rad.dtype.kind == "i" else 0)] + vec(int(x) for x in npt).split() + fvec(rad.astype(float)).split()
-            if et != want:
-                ctx.fail("corr", f"prune_grid:{p}:table", f"Gen/Presets entry of ({p}, Z={z}) differs from the data file", witness={"entry": entry[:300]})
-            # prescribed radial size = _get_rgrid_size
-            try:
-                ps = "ok " + str(int(ag._get_rgrid_size(p, z)[0]))
-            except ValueError:
-                ps = "ok none"
-            if ps != presc:
-                ctx.fail("corr", "atomgrid._get_rgrid_size", f"_get_rgrid_size({p!r}, {z}) = {ps}, model {presc}", witness=case)
-        mtag = line.split()[0] if line != "bad-op" else "bad-op"
-        if mtag == "ok":
-            req_kind, req = line.split()[1], [int(x) for x in line.split()[3:]]
-            # the model's request goes through the model constructor: degrees only here
-            full.append((p, z, m, rp, req_kind, req, g, impl, case))
-        elif mtag != impl:
-            ctx.fail("corr", "AtomGrid.from_preset", f"{case}: implementation {impl}, model {mtag}", witness=case)
-    # model constructor on the requests the table reader produced; full grids compared for small
-    # ones, degrees/indices for all (the angular data is only needed for the sizes of the shells)
-    nfull = ctx.n(10, 120)
-    order = sorted(range(len(full)), key=lambda i: (len(full[i][5]) * max(full[i][5] + [1]), i))
-    pick = set(order[:nfull // 2]) | set(rng.sample(range(len(full)), min(len(full), nfull - nfull // 2)))
-    lines, meta = [], []
-    for i, (p, z, m, rp, rk, req, g, impl, case) in enumerate(full):
-        kind = "deg" if rk == "degrees" else "size"
-        big = sum(req) if kind == "size" else 0
-        if i in pick and big < 15000 and (g is None or g.size < 15000):
-            lines.append(_build_line(ang, m, kind, req, 0, None, rp, np.ones(len(rp)), [(0, True)]))
-            meta.append((i, True))
-        else:
-            meta.append((i, False))
-    answers = driver_batch(lines)
-    ai = 0
-    for (i, isfull) in meta:
-        p, z, m, rp, rk, req, g, impl, case = full[i]
-        if isfull:
-            line = answers[ai]
-            ai += 1
+    def _part0():
+        cases = []
+        for k in range(ctx.n(300, 5000)):
+            method = METHODS[k % 4] if k < 40 else rng.choice(METHODS)
+            pts, wts = _rand_rgrid(ctx, n=(1 + k % 3) if k < 24 else None)
+            if k % 10 == 9:  # r = 0, denormal, r^2 underflowing / denormal, huge nodes (each with r_sq False / omitted / True shell requests)
+                pts, wts = _extreme_rgrid(ctx)
+            n = len(pts)
+            pairs = _supported(ang, method)
+            dmax = MAXDEG[method] if rng.random() < 0.93 else 41
+            smax = max(s for d, s in pairs if d <= dmax)
+            shape = rng.choice(["const", "list", "list", "sizes", "sizes-const", "badlen", "toolarge"] if k >= 12 else ["const", "list", "sizes"])
+            kind = "size" if shape.startswith("sizes") else "deg"
+            if shape == "const":
+                reqs = [rng.randrange(0, dmax + 1)]
+            elif shape == "list":
+                pool = [rng.randrange(0, dmax + 1) for _ in range(rng.randrange(1, 4))]
+                reqs = [rng.choice(pool) for _ in range(n)]
+            elif shape == "sizes":
+                pool = [rng.randrange(0, smax + 1) for _ in range(rng.randrange(1, 4))]
+                reqs = [rng.choice(pool) for _ in range(n)]
+            elif shape == "sizes-const":
+                reqs = [rng.randrange(0, smax + 1)]
+            elif shape == "badlen":
+                L = rng.choice([x for x in (n + 1, n + 2, n - 1, 0) if x not in (1, n) and x >= 0])
+                reqs = [rng.randrange(0, 12) for _ in range(L)]
+            else:
+                kind = rng.choice(["deg", "size"])
+                big = (max(d for d, _ in pairs) if kind == "deg" else max(s for _, s in pairs)) + rng.randrange(1, 5)
+                reqs = [rng.randrange(0, 8) for _ in range(n)]
+                reqs[rng.randrange(n)] = big
+            center = _rand_center(ctx)
+            rotate = _rand_rotate(ctx, n)
+            if rng.random() < 0.04:
+                rotate = 2 ** 32 - n + rng.randrange(0, 3)  # rejected
+            sreq = _shellreqs(ctx, n)
+            cases.append((method, kind, reqs, rotate, center, pts, wts, sreq, shape))
+        lines = [_build_line(ang, m, kd, rq, rot, c, p, w, sr) for (m, kd, rq, rot, c, p, w, sr, _) in cases]
+        answers = driver_batch(lines)
+        for (m, kd, rq, rot, c, p, w, sr, shape), line in zip(cases, answers):
+            case = {"op": "AtomGrid", "method": m, ("degrees" if kd == "deg" else "sizes"): rq, "rotate": rot,
+                    "center": None if c is None else c.tolist(), "rgrid_points": p.tolist(), "rgrid_weights": w.tolist()}
             if line == "bad-op":
-                ctx.fail("corr", "AtomGrid.from_preset", f"{case}: the model could not run (bad-op)", witness=case)
+                ctx.fail("corr", "AtomGrid.__init__", f"{case}: the model could not run (bad-op)", witness=case)
                 continue
             a = Ans(line)
-            _compare_grid(ctx, "AtomGrid.from_preset", case, (lambda g=g, impl=impl: g if g is not None else _raise(impl)), a, rp, None, [(0, True)])
-            ctx.count(dict(case, full=True), nontrivial=True, tag="preset:full-grid")
-        else:
-            # degrees through the brute-force resolution of the model's request
-            pairs = _supported(ang, m)
-            if rk == "sizes":
-                res = [_least_size(pairs, s) for s in req]
-            else:
-                res = [_least_degree(pairs, d) for d in req]
-            if len(req) == 1:
-                res = res * len(rp)
-            if any(r is None for r in res) or len(res) != len(rp):
-                mt = "value-error"
-            else:
-                mt = "ok"
-            if mt != impl:
-                ctx.fail("corr", "AtomGrid.from_preset", f"{case}: implementation {impl}, model request {rk} gives {mt}", witness=case)
-            elif g is not None:
-                if [int(d) for d in g.degrees] != [r[0] for r in res]:
-                    ctx.fail("corr", "AtomGrid.from_preset", f"{case}: degrees differ from the model's table reading", witness=case)
-                if [int(x) for x in np.diff(g.indices)] != [r[1] for r in res]:
-                    ctx.fail("corr", "AtomGrid.from_preset", f"{case}: shell sizes differ from the model's table reading", witness=case)
-    ctx.extra["presets_pairs_checked"] = len(pairs_pz)
-    # ---- 5. argument kinds, radial orders, repeated constructions (round 2)
-    _corr_kinds(ctx, ag, ang, bg)
-    # ---- 6. the regenerated static method / from_preset / default values (round 3)
-    _corr_round3(ctx, ag, ang, bg)
 
+            def impl(m=m, kd=kd, rq=rq, rot=rot, c=c, p=p, w=w):
+                rgrid = _onedgrid(bg, p, w)
+                if kd == "deg":
+                    return AtomGrid(rgrid, degrees=list(rq), center=c, rotate=rot, method=m)
+                return AtomGrid(rgrid, None, sizes=list(rq), center=c, rotate=rot, method=m)
+
+            _compare_grid(ctx, "AtomGrid.__init__", case, impl, a, p, c, sr)
+            nontriv = a.tag != "ok" or len(set(a.degrees)) >= 2 or rot != 0 or (c is not None and np.any(c != 0))
+            ctx.count(case, nontrivial=nontriv,
+                      tag=f"init:{m}:{shape}:" + ("rot" if rot else "norot") + (":r0" if np.any(p == 0) else "") + (":" + a.tag if a.tag != "ok" else ""))
+    parts.run('constructor on random inputs', _part0)
+
+    # ---- 2. sector lookup ------------------------------------------------------------------
+    def _part1():
+        sect_cases = []
+        for k in range(ctx.n(300, 6000)):
+            S = rng.randrange(0, 6)
+            bounds = sorted(rng.uniform(0, 10) for _ in range(S))
+            if rng.random() < 0.15:
+                rng.shuffle(bounds)
+            if S >= 2 and rng.random() < 0.1:
+                bounds[1] = bounds[0]
+            n = rng.randrange(1, 8)
+            rp = [rng.choice(bounds) if bounds and rng.random() < 0.35 else rng.uniform(0, 12) for _ in range(n)]
+            L = S + 1 if rng.random() < 0.85 else rng.randrange(1, S + 3)
+            ds = [rng.randrange(1, 60) for _ in range(L)]
+            sect_cases.append((rp, bounds, ds))
+        answers = driver_batch([f"C05.sectors {fvec(rp)} {fvec(b)} {vec(ds)}" for rp, b, ds in sect_cases])
+        for (rp, b, ds), line in zip(sect_cases, answers):
+            try:
+                v = AtomGrid._find_degrees_for_radial_points(np.array(rp), np.array(b, dtype=float), np.array(ds))
+                impl = "ok " + vec(int(x) for x in v)
+            except IndexError:
+                impl = "index-error"
+            case = {"op": "_find_degrees_for_radial_points", "radial_points": rp, "r_sectors": b, "d_sectors": ds}
+            ctx.count(case, nontrivial=len(b) >= 1, tag="sectors:" + ("ok" if impl.startswith("ok") else impl) + (":on-bound" if set(rp) & set(b) else ""))
+            if impl != line:
+                ctx.fail("corr", "AtomGrid._find_degrees_for_radial_points", f"{case}: implementation {impl}, model {line}", witness=case)
+    parts.run('sector lookup', _part1)
+
+    # ---- 3. from_pruned ----------------------------------------------------------------------
+    def _part2():
+        pr_cases = []
+        for k in range(ctx.n(120, 2400)):
+            method = rng.choice(METHODS)
+            pairs = _supported(ang, method)
+            pts, wts = _rand_rgrid(ctx)
+            S = rng.randrange(0, 5)
+            rsect = sorted(rng.uniform(0.05, 4) for _ in range(S))
+            radius = rng.choice([1.0, rng.uniform(0.3, 3.0)])
+            if S and rng.random() < 0.4:
+                pts[rng.randrange(len(pts))] = rsect[rng.randrange(S)] * radius
+            kind = rng.choice(["deg", "deg", "size"])
+            L = S + 1 if rng.random() < 0.85 else max(0, S + rng.choice([0, 2]))
+            dmax = MAXDEG[method]
+            smax = max(s for d, s in pairs if d <= dmax)
+            sect = [rng.randrange(0, (dmax if kind == "deg" else smax) + 1) for _ in range(L)]
+            if rng.random() < 0.06 and L:
+                sect[rng.randrange(L)] = (max(d for d, _ in pairs) if kind == "deg" else max(s for _, s in pairs)) + 1
+            pr_cases.append((method, kind, sect, radius, rsect, pts, wts, _rand_center(ctx), _rand_rotate(ctx, len(pts))))
+        answers = driver_batch([f"C05.pruned {m} {kd} {vec(s)} {f2b(rad)} {fvec(rs)} {fvec(p)}" for m, kd, s, rad, rs, p, w, c, rot in pr_cases])
+        follow = []
+        for (m, kd, s, rad, rs, p, w, c, rot), line in zip(pr_cases, answers):
+            case = {"op": "from_pruned", "method": m, ("d_sectors" if kd == "deg" else "s_sectors"): s, "radius": rad,
+                    "r_sectors": rs, "rgrid_points": p.tolist(), "rgrid_weights": w.tolist(), "rotate": rot,
+                    "center": None if c is None else c.tolist()}
+            try:
+                rgrid = _onedgrid(bg, p, w)
+                dsec = s if kd == "deg" else ang.AngularGrid.convert_angular_sizes_to_degrees(np.array(s, dtype=int), m)
+                v = AtomGrid._generate_degree_from_radius(rgrid, rad, rs, dsec, m)
+                impl = "ok " + vec(int(x) for x in v)
+            except (ValueError, IndexError) as e:
+                impl = _exc_tag(e)
+            ctx.count(case, nontrivial=True, tag=f"pruned:{m}:{kd}:" + ("ok" if impl.startswith("ok") else impl))
+            if impl != line:
+                ctx.fail("corr", "AtomGrid._generate_degree_from_radius", f"{case}: implementation {impl}, model {line}", witness=case)
+            elif impl.startswith("ok") and len(follow) < ctx.n(25, 300):
+                follow.append(((m, kd, s, rad, rs, p, w, c, rot), [int(x) for x in line.split()[2:]], case))
+        lines = [_gpruned_line(ang, m, s if kd == "deg" else None, s if kd == "size" else None, rad, rs, c, rot, p, w, degs, [(0, True)])
+                 for (m, kd, s, rad, rs, p, w, c, rot), degs, _ in follow]
+        answers = driver_batch(lines)
+        for ((m, kd, s, rad, rs, p, w, c, rot), degs, case), line in zip(follow, answers):
+            if line == "bad-op":
+                ctx.fail("corr", "AtomGrid.from_pruned", f"{case}: the model could not run (bad-op)", witness=case)
+                continue
+
+            def impl(m=m, kd=kd, s=s, rad=rad, rs=rs, p=p, w=w, c=c, rot=rot):
+                rgrid = _onedgrid(bg, p, w)
+                if kd == "deg":
+                    return AtomGrid.from_pruned(rgrid, rad, r_sectors=rs, d_sectors=s, center=c, rotate=rot, method=m)
+                return AtomGrid.from_pruned(rgrid, rad, r_sectors=rs, d_sectors=None, s_sectors=s, center=c, rotate=rot, method=m)
+
+            a = Ans(line)
+            _compare_grid(ctx, "AtomGrid.from_pruned", case, impl, a, p, c, [(0, True)])
+            ctx.count(dict(case, full=True), nontrivial=True, tag="pruned:full-grid")
+    parts.run('from_pruned', _part2)
+
+    # ---- 4. presets: every (preset, element) through the table reader ---------------------------
+    def _part3():
+        tabs = _preset_tables()
+        pairs_pz = [(p, z) for p in sorted(tabs) for z in sorted(tabs[p][0])]
+        defective = [("sg_3", 14), ("sg_0", 7), ("sg_0", 15)]
+        pcases = []
+        for p, z in pairs_pz:
+            rad, npt, nshell = tabs[p][0][z]
+            for method in (METHODS if ctx.thorough else [rng.choice(METHODS) if rng.random() < 0.3 else "lebedev"]):
+                exact = rng.random() < 0.93
+                pcases.append((p, z, method, _preset_rgrid_points(ctx, rad, nshell, exact)))
+        # a name / element that is not tabulated
+        pcases.append(("sg_1", 85, "lebedev", np.linspace(0.1, 5, 50)))
+        answers = driver_batch([f"C05.preset {p} {z} {m} {fvec(rp)}" for p, z, m, rp in pcases]
+                               + [f"C05.branch {p} {z}" for p, z, m, rp in pcases]
+                               + [f"C05.prescribed {p} {z}" for p, z, m, rp in pcases]
+                               + [f"C05.entry {p} {z}" for p, z, m, rp in pcases])
+        npc = len(pcases)
+        full = []
+        for k, (p, z, m, rp) in enumerate(pcases):
+            line, branch, presc, entry = answers[k], answers[npc + k], answers[2 * npc + k], answers[3 * npc + k]
+            case = {"op": "from_preset", "preset": p, "atnum": z, "method": m, "rgrid_points": rp.tolist()}
+            rgrid = _onedgrid(bg, rp, np.ones(len(rp)))
+            try:
+                g = AtomGrid.from_preset(z, p, rgrid, method=m)
+                impl = "ok"
+            except (ValueError, IndexError, TypeError, KeyError) as e:
+                g, impl = None, _exc_tag(e)
+            ctx.count(case, nontrivial=True, tag=f"preset:{p}:" + (branch.split()[-1] if branch.startswith("ok") else branch) + (":" + impl if impl != "ok" else ""))
+            # the table as the translator carried it
+            if p in tabs and z in tabs[p][0]:
+                rad, npt, nshell = tabs[p][0][z]
+                et = entry.split()
+                want = ["ok", str(len(rad)), str(len(npt)), "1" if rad.dtype.kind == "i" else "0",
+                        str(int(rad.sum()) if rad.dtype.kind == "i" else 0)] + vec(int(x) for x in npt).split() + fvec(rad.astype(float)).split()
+                if et != want:
+                    ctx.fail("corr", f"prune_grid:{p}:table", f"Gen/Presets entry of ({p}, Z={z}) differs from the data file", witness={"entry": entry[:300]})
+                # prescribed radial size = _get_rgrid_size
+                try:
+                    ps = "ok " + str(int(ag._get_rgrid_size(p, z)[0]))
+                except ValueError:
+                    ps = "ok none"
+                if ps != presc:
+                    ctx.fail("corr", "atomgrid._get_rgrid_size", f"_get_rgrid_size({p!r}, {z}) = {ps}, model {presc}", witness=case)
+            mtag = line.split()[0] if line != "bad-op" else "bad-op"
+            if mtag == "ok":
+                req_kind, req = line.split()[1], [int(x) for x in line.split()[3:]]
+                # the model's request goes through the model constructor: degrees only here
+                full.append((p, z, m, rp, req_kind, req, g, impl, case))
+            elif mtag != impl:
+                ctx.fail("corr", "AtomGrid.from_preset", f"{case}: implementation {impl}, model {mtag}", witness=case)
+        # model constructor on the requests the table reader produced; full grids compared for small
+        # ones, degrees/indices for all (the angular data is only needed for the sizes of the shells)
+        nfull = ctx.n(10, 120)
+        order = sorted(range(len(full)), key=lambda i: (len(full[i][5]) * max(full[i][5] + [1]), i))
+        pick = set(order[:nfull // 2]) | set(rng.sample(range(len(full)), min(len(full), nfull - nfull // 2)))
+        lines, meta = [], []
+        for i, (p, z, m, rp, rk, req, g, impl, case) in enumerate(full):
+            kind = "deg" if rk == "degrees" else "size"
+            big = sum(req) if kind == "size" else 0
+            if i in pick and big < 15000 and (g is None or g.size < 15000):
+                lines.append(_build_line(ang, m, kind, req, 0, None, rp, np.ones(len(rp)), [(0, True)]))
+                meta.append((i, True))
+            else:
+                meta.append((i, False))
+        answers = driver_batch(lines)
+        ai = 0
+        for (i, isfull) in meta:
+            p, z, m, rp, rk, req, g, impl, case = full[i]
+            if isfull:
+                line = answers[ai]
+                ai += 1
+                if line == "bad-op":
+                    ctx.fail("corr", "AtomGrid.from_preset", f"{case}: the model could not run (bad-op)", witness=case)
+                    continue
+                a = Ans(line)
+                _compare_grid(ctx, "AtomGrid.from_preset", case, (lambda g=g, impl=impl: g if g is not None else _raise(impl)), a, rp, None, [(0, True)])
+                ctx.count(dict(case, full=True), nontrivial=True, tag="preset:full-grid")
+            else:
+                # degrees through the brute-force resolution of the model's request
+                pairs = _supported(ang, m)
+                if rk == "sizes":
+                    res = [_least_size(pairs, s) for s in req]
+                else:
+                    res = [_least_degree(pairs, d) for d in req]
+                if len(req) == 1:
+                    res = res * len(rp)
+                if any(r is None for r in res) or len(res) != len(rp):
+                    mt = "value-error"
+                else:
+                    mt = "ok"
+                if mt != impl:
+                    ctx.fail("corr", "AtomGrid.from_preset", f"{case}: implementation {impl}, model request {rk} gives {mt}", witness=case)
+                elif g is not None:
+                    if [int(d) for d in g.degrees] != [r[0] for r in res]:
+                        ctx.fail("corr", "AtomGrid.from_preset", f"{case}: degrees differ from the model's table reading", witness=case)
+                    if [int(x) for x in np.diff(g.indices)] != [r[1] for r in res]:
+                        ctx.fail("corr", "AtomGrid.from_preset", f"{case}: shell sizes differ from the model's table reading", witness=case)
+        ctx.extra["presets_pairs_checked"] = len(pairs_pz)
+    parts.run('presets: every (preset, element) through the table reader', _part3)
+
+    # ---- 5. argument kinds, radial orders, repeated constructions (round 2)
+    def _part4():
+        _corr_kinds(ctx, ag, ang, bg)
+    parts.run('argument kinds, radial orders, repeated constructions (round 2)', _part4)
+
+    # ---- 6. the regenerated static method / from_preset / default values (round 3)
+    def _part5():
+        _corr_round3(ctx, ag, ang, bg)
+    parts.run('the regenerated static method / from_preset / default values (round 3)', _part5)
+
+    parts.finish()
 
 # ----------------------------------------------------------------------------
 # round 2: argument kinds, radial orders, repeated constructions
@@ -756,6 +822,8 @@ def _py_rgrid(ctx: Ctx, bg, pts, wts, dkind, domain):
         P, W = np.repeat(np.array(pts, dtype=float), 2)[::2], np.repeat(np.array(wts, dtype=float), 3)[::3]
     elif dkind == "readonly":
         P, W = _readonly(np.array(pts, dtype=float)), _readonly(np.array(wts, dtype=float))
+    elif dkind == "negstride":  # views with a negative stride
+        P, W = np.array(pts, dtype=float)[::-1].copy()[::-1], np.array(wts, dtype=float)[::-1].copy()[::-1]
     else:
         P, W = np.array(pts, dtype=float), np.array(wts, dtype=float)
     return bg.OneDGrid(P, W, domain)
@@ -766,230 +834,239 @@ def _corr_kinds(ctx: Ctx, ag, ang, bg):
     constructor and from_pruned: the model is the *regenerated* code run on the same Python-level arguments."""
     AtomGrid = ag.AtomGrid
     rng = ctx.rng
-    cases = []
-    for k in range(ctx.n(220, 3000)):
-        method = METHODS[k % 4] if k < 16 else rng.choice(METHODS)
-        pairs = _supported(ang, method)
-        order = ORDERS[k % len(ORDERS)] if k < 40 else rng.choice(ORDERS)
-        pts, wts = _ordered_rgrid(ctx, order)
-        dkind = rng.choice(["float64", "float64", "float32", "int64", "noncontig", "readonly"])
-        if dkind in ("float32", "int64"):
-            q = 1 if dkind == "int64" else 64
-            pts = np.array([round(v * q) / q for v in pts])
-            wts = np.array([max(1, round(v * q)) / q for v in wts])
-        n = len(pts)
-        # domain / acceptance of the radial grid
-        rk = rng.random()
-        is_one, domain, rkind = True, (0.0, np.inf), "dom0inf"
-        if rk < 0.12:
-            domain, rkind = None, "nodom"
-        elif rk < 0.22:
-            domain, rkind = (0.0, float(np.max(pts)) + 1.0), "dom0max"
-        elif rk < 0.25:
-            domain, rkind = (-1.0, float(np.max(pts)) + 1.0), "domneg"
-        elif rk < 0.28:
-            domain, rkind = None, "negnode"
-            pts = pts.copy()
-            pts[rng.randrange(n)] = -float(rng.randrange(1, 3)) if dkind == "int64" else rng.choice([-0.015625, -0.5, -1.0, -float(_exact32(ctx, 0.1, 2.0))])
-        elif rk < 0.30:
-            is_one, rkind = False, "notonedgrid"
-        dmax = MAXDEG[method]
-        smax = max(s for d, s in pairs if d <= dmax)
-        # request
-        form = rng.choice(["deg", "deg", "deg", "deg1", "size", "size", "size1", "both", "both", "default+size"] + (["none", "empty"] if rng.random() < 0.2 else [])
-                          + (["default"] if rng.random() < 0.08 and n <= 3 and method == "lebedev" else []))
-        degrees = sizes = None
-        if form == "deg":
-            degrees = [rng.randrange(0, dmax + 1) for _ in range(n)]
-        elif form == "deg1":
-            degrees = [rng.randrange(0, dmax + 1)]
-        elif form == "size":
-            sizes = [rng.randrange(0, smax + 1) for _ in range(n)]
-        elif form == "size1":
-            sizes = [rng.randrange(0, smax + 1)]
-        elif form == "both":  # sizes win, whatever the degrees are (even of a wrong length)
-            degrees = [rng.randrange(0, dmax + 1) for _ in range(rng.choice([n, 1, n + 1]))]
-            sizes = [rng.randrange(0, smax + 1) for _ in range(rng.choice([n, n, 1]))]
-        elif form == "default+size":
-            degrees, sizes = "default", [rng.randrange(0, smax + 1) for _ in range(n)]
-        elif form == "empty":
-            degrees = []
-        elif form == "default":  # neither degrees nor sizes given
-            degrees = "default"
-        dk = rng.choice(["list", "list", "int64", "int64", "int32", "int32", "readonly", "readonly", "tuple"])
-        sk = rng.choice(["list", "list", "int64", "int64", "int32", "int32", "readonly", "readonly", "tuple"])
-        # rotate
-        rot_kind = rng.choice(["int"] * 7 + ["bool", "bool", "bool", "npint", "other", "default", "default"])
-        if rot_kind == "bool":
-            rot_val = rng.random() < 0.6
-        elif rot_kind == "other":
-            rot_val = 3.0
-        elif rot_kind == "default":  # rotate omitted
-            rot_val = None
-        else:
-            rot_val = rng.choice([0, 0, rng.randrange(1, 100000), rng.randrange(1, 100000), 2 ** 32 - n - 1, 2 ** 32 - n])
-        # centre
-        ck = rng.choice(["none", "omitted", "list", "intlist", "tuple", "intarray", "float32", "array", "readonly"] * 3 + ["short", "long"])
-        cvals = [float(_exact32(ctx, -4, 4)) for _ in range(3)]
-        if ck in ("intlist", "intarray"):
-            cvals = [float(rng.randrange(-4, 5)) for _ in range(3)]
-        if ck == "short":
-            cvals = cvals[:2]
-        if ck == "long":
-            cvals = cvals + [1.0]
-        center = None if ck == "none" else "omitted" if ck == "omitted" else cvals
-        cases.append(dict(method=method, order=order, pts=pts, wts=wts, dkind=dkind, is_one=is_one, domain=domain, rkind=rkind,
-                          form=form, degrees=degrees, sizes=sizes, dk=dk, sk=sk, rot_kind=rot_kind, rot_val=rot_val, ck=ck,
-                          center=center, sreq=_shellreqs(ctx, n)))
-
-    def tok_seq(x, kind):
-        if x is None:
-            return None
-        if x == "default":
-            return "default"
-        return "tuple" if kind == "tuple" else list(x)
-
-    lines = [_ginit_line(ang, c["method"], tok_seq(c["degrees"], c["dk"]), tok_seq(c["sizes"], c["sk"]), c["rot_kind"], c["rot_val"],
-                         c["center"], c["pts"], c["wts"], c["sreq"], c["is_one"], c["domain"]) for c in cases]
-    answers = driver_batch(lines)
-    rebuilt = []
-    for c, line in zip(cases, answers):
-        case = {"op": "AtomGrid", "method": c["method"], "radial_order": c["order"], "rgrid_dtype": c["dkind"], "rgrid_kind": c["rkind"],
-                "rgrid_points": c["pts"].tolist(), "rgrid_weights": c["wts"].tolist(), "degrees": c["degrees"], "degrees_as": c["dk"],
-                "sizes": c["sizes"], "sizes_as": c["sk"], "rotate": [c["rot_kind"], c["rot_val"]], "center": c["center"], "center_as": c["ck"]}
-        if line == "bad-op":
-            ctx.fail("corr", "AtomGrid.__init__:kinds", f"{case}: the model could not run (bad-op)", witness=case)
-            continue
-        a = Ans(line)
-
-        def impl(c=c):
-            if not c["is_one"]:
-                rgrid = bg.Grid(np.array(c["pts"], dtype=float), np.array(c["wts"], dtype=float))
+    parts = _Parts(ctx, 'corr', 'corr-kinds')
+    # ---- the constructor on every argument kind, then every successful construction again ---------------------------
+    def _part0():
+        cases = []
+        for k in range(ctx.n(220, 3000)):
+            method = METHODS[k % 4] if k < 16 else rng.choice(METHODS)
+            pairs = _supported(ang, method)
+            order = ORDERS[k % len(ORDERS)] if k < 40 else rng.choice(ORDERS)
+            pts, wts = _ordered_rgrid(ctx, order)
+            dkind = rng.choice(["float64", "float64", "float32", "int64", "noncontig", "readonly", "negstride"])
+            if dkind in ("float32", "int64"):
+                q = 1 if dkind == "int64" else 64
+                pts = np.array([round(v * q) / q for v in pts])
+                wts = np.array([max(1, round(v * q)) / q for v in wts])
+            n = len(pts)
+            # domain / acceptance of the radial grid
+            rk = rng.random()
+            is_one, domain, rkind = True, (0.0, np.inf), "dom0inf"
+            if rk < 0.12:
+                domain, rkind = None, "nodom"
+            elif rk < 0.22:
+                domain, rkind = (0.0, float(np.max(pts)) + 1.0), "dom0max"
+            elif rk < 0.25:
+                domain, rkind = (-1.0, float(np.max(pts)) + 1.0), "domneg"
+            elif rk < 0.28:
+                domain, rkind = None, "negnode"
+                pts = pts.copy()
+                pts[rng.randrange(n)] = -float(rng.randrange(1, 3)) if dkind == "int64" else rng.choice([-0.015625, -0.5, -1.0, -float(_exact32(ctx, 0.1, 2.0))])
+            elif rk < 0.30:
+                is_one, rkind = False, "notonedgrid"
+            dmax = MAXDEG[method]
+            smax = max(s for d, s in pairs if d <= dmax)
+            # request
+            form = rng.choice(["deg", "deg", "deg", "deg1", "size", "size", "size1", "both", "both", "default+size"] + (["none", "empty"] if rng.random() < 0.2 else [])
+                              + (["default"] if rng.random() < 0.08 and n <= 3 and method == "lebedev" else []))
+            degrees = sizes = None
+            if form == "deg":
+                degrees = [rng.randrange(0, dmax + 1) for _ in range(n)]
+            elif form == "deg1":
+                degrees = [rng.randrange(0, dmax + 1)]
+            elif form == "size":
+                sizes = [rng.randrange(0, smax + 1) for _ in range(n)]
+            elif form == "size1":
+                sizes = [rng.randrange(0, smax + 1)]
+            elif form == "both":  # sizes win, whatever the degrees are (even of a wrong length)
+                degrees = [rng.randrange(0, dmax + 1) for _ in range(rng.choice([n, 1, n + 1]))]
+                sizes = [rng.randrange(0, smax + 1) for _ in range(rng.choice([n, n, 1]))]
+            elif form == "default+size":
+                degrees, sizes = "default", [rng.randrange(0, smax + 1) for _ in range(n)]
+            elif form == "empty":
+                degrees = []
+            elif form == "default":  # neither degrees nor sizes given
+                degrees = "default"
+            dk = rng.choice(["list", "list", "int64", "int64", "int32", "int32", "readonly", "readonly", "tuple"])
+            sk = rng.choice(["list", "list", "int64", "int64", "int32", "int32", "readonly", "readonly", "tuple"])
+            # rotate
+            rot_kind = rng.choice(["int"] * 7 + ["bool", "bool", "bool", "npint", "other", "default", "default"])
+            if rot_kind == "bool":
+                rot_val = rng.random() < 0.6
+            elif rot_kind == "other":
+                rot_val = 3.0
+            elif rot_kind == "default":  # rotate omitted
+                rot_val = None
             else:
-                rgrid = _py_rgrid(ctx, bg, c["pts"], c["wts"], c["dkind"], c["domain"])
-            kw = {}
-            if c["degrees"] != "default":
-                kw["degrees"] = None if c["degrees"] is None else _py_seq(ctx, c["degrees"], c["dk"])
-            if c["sizes"] is not None:
-                kw["sizes"] = _py_seq(ctx, c["sizes"], c["sk"])
-            cen = c["center"]
-            if c["ck"] == "omitted":
-                cen = None
-            elif cen is not None:
-                cen = {"list": list(cen), "intlist": [int(v) for v in cen], "tuple": tuple(cen), "intarray": np.array(cen, dtype=np.int64),
-                       "float32": np.array(cen, dtype=np.float32), "array": np.array(cen), "short": list(cen), "long": list(cen),
-                       "readonly": _readonly(np.array(cen))}[c["ck"]]
-            if c["ck"] != "omitted":
-                kw["center"] = cen
-            if c["rot_kind"] != "default":
-                kw["rotate"] = {"int": lambda v: int(v), "npint": np.int64, "bool": bool, "other": lambda v: v}[c["rot_kind"]](c["rot_val"])
-            return AtomGrid(rgrid, method=c["method"], **kw)
+                rot_val = rng.choice([0, 0, rng.randrange(1, 100000), rng.randrange(1, 100000), 2 ** 32 - n - 1, 2 ** 32 - n])
+            # centre
+            ck = rng.choice(["none", "omitted", "list", "intlist", "tuple", "intarray", "float32", "array", "readonly"] * 3 + ["short", "long"])
+            cvals = [float(_exact32(ctx, -4, 4)) for _ in range(3)]
+            if ck in ("intlist", "intarray"):
+                cvals = [float(rng.randrange(-4, 5)) for _ in range(3)]
+            if ck == "short":
+                cvals = cvals[:2]
+            if ck == "long":
+                cvals = cvals + [1.0]
+            center = None if ck == "none" else "omitted" if ck == "omitted" else cvals
+            cases.append(dict(method=method, order=order, pts=pts, wts=wts, dkind=dkind, is_one=is_one, domain=domain, rkind=rkind,
+                              form=form, degrees=degrees, sizes=sizes, dk=dk, sk=sk, rot_kind=rot_kind, rot_val=rot_val, ck=ck,
+                              center=center, sreq=_shellreqs(ctx, n)))
 
-        cen_arr = None if c["center"] is None or isinstance(c["center"], str) or len(c["center"]) != 3 else np.array(c["center"])
-        g = _compare_grid(ctx, "AtomGrid.__init__:kinds", case, impl, a, np.abs(c["pts"]), cen_arr, c["sreq"])
-        tag = (f"kinds:{c['order']}:{c['dkind']}:{c['rkind']}:{c['form']}:deg-{c['dk']}:size-{c['sk']}:rot-{c['rot_kind']}:center-{c['ck']}"
-               + (":" + a.tag if a.tag != "ok" else ""))
-        ctx.count(case, nontrivial=True, tag=tag)
-        if g is not None:
-            if g.points.dtype != np.float64 or g.weights.dtype != np.float64:
-                ctx.fail("corr", "AtomGrid.__init__:dtype", f"{case}: points / weights are {g.points.dtype} / {g.weights.dtype}, not float64", witness=case)
-            rebuilt.append((impl, g, case))
-    # class 1 (state carried between calls): every successful construction again, in reverse order, after all the
-    # others (same degrees under other methods / seeds / centres in between): bit for bit the same grid
-    for impl, g, case in reversed(rebuilt):
-        try:
-            g2 = impl()
-        except Exception as e:  # noqa: BLE001
-            ctx.fail("corr", "AtomGrid.__init__:rebuild", f"{case}: the second construction raises {type(e).__name__}: {e}", witness=case)
-            continue
-        same = (np.array_equal(g2.points, g.points) and np.array_equal(g2.weights, g.weights)
-                and list(map(int, g2.indices)) == list(map(int, g.indices)) and list(map(int, g2.degrees)) == list(map(int, g.degrees)))
-        ctx.count(dict(case, rebuild=True), nontrivial=True, tag="kinds:rebuild")
-        if not same:
-            ctx.fail("corr", "AtomGrid.__init__:rebuild", f"{case}: the same construction repeated later in the process gives another grid", witness=case)
+        def tok_seq(x, kind):
+            if x is None:
+                return None
+            if x == "default":
+                return "default"
+            return "tuple" if kind == "tuple" else list(x)
+
+        lines = [_ginit_line(ang, c["method"], tok_seq(c["degrees"], c["dk"]), tok_seq(c["sizes"], c["sk"]), c["rot_kind"], c["rot_val"],
+                             c["center"], c["pts"], c["wts"], c["sreq"], c["is_one"], c["domain"]) for c in cases]
+        answers = driver_batch(lines)
+        rebuilt = []
+        for c, line in zip(cases, answers):
+            case = {"op": "AtomGrid", "method": c["method"], "radial_order": c["order"], "rgrid_dtype": c["dkind"], "rgrid_kind": c["rkind"],
+                    "rgrid_points": c["pts"].tolist(), "rgrid_weights": c["wts"].tolist(), "degrees": c["degrees"], "degrees_as": c["dk"],
+                    "sizes": c["sizes"], "sizes_as": c["sk"], "rotate": [c["rot_kind"], c["rot_val"]], "center": c["center"], "center_as": c["ck"]}
+            if line == "bad-op":
+                ctx.fail("corr", "AtomGrid.__init__:kinds", f"{case}: the model could not run (bad-op)", witness=case)
+                continue
+            a = Ans(line)
+
+            def impl(c=c):
+                if not c["is_one"]:
+                    rgrid = bg.Grid(np.array(c["pts"], dtype=float), np.array(c["wts"], dtype=float))
+                else:
+                    rgrid = _py_rgrid(ctx, bg, c["pts"], c["wts"], c["dkind"], c["domain"])
+                kw = {}
+                if c["degrees"] != "default":
+                    kw["degrees"] = None if c["degrees"] is None else _py_seq(ctx, c["degrees"], c["dk"])
+                if c["sizes"] is not None:
+                    kw["sizes"] = _py_seq(ctx, c["sizes"], c["sk"])
+                cen = c["center"]
+                if c["ck"] == "omitted":
+                    cen = None
+                elif cen is not None:
+                    cen = {"list": list(cen), "intlist": [int(v) for v in cen], "tuple": tuple(cen), "intarray": np.array(cen, dtype=np.int64),
+                           "float32": np.array(cen, dtype=np.float32), "array": np.array(cen), "short": list(cen), "long": list(cen),
+                           "readonly": _readonly(np.array(cen))}[c["ck"]]
+                if c["ck"] != "omitted":
+                    kw["center"] = cen
+                if c["rot_kind"] != "default":
+                    kw["rotate"] = {"int": lambda v: int(v), "npint": np.int64, "bool": bool, "other": lambda v: v}[c["rot_kind"]](c["rot_val"])
+                return AtomGrid(rgrid, method=c["method"], **kw)
+
+            cen_arr = None if c["center"] is None or isinstance(c["center"], str) or len(c["center"]) != 3 else np.array(c["center"])
+            g = _compare_grid(ctx, "AtomGrid.__init__:kinds", case, impl, a, np.abs(c["pts"]), cen_arr, c["sreq"])
+            tag = (f"kinds:{c['order']}:{c['dkind']}:{c['rkind']}:{c['form']}:deg-{c['dk']}:size-{c['sk']}:rot-{c['rot_kind']}:center-{c['ck']}"
+                   + (":" + a.tag if a.tag != "ok" else ""))
+            ctx.count(case, nontrivial=True, tag=tag)
+            if g is not None:
+                if g.points.dtype != np.float64 or g.weights.dtype != np.float64:
+                    ctx.fail("corr", "AtomGrid.__init__:dtype", f"{case}: points / weights are {g.points.dtype} / {g.weights.dtype}, not float64", witness=case)
+                rebuilt.append((impl, g, case))
+        # class 1 (state carried between calls): every successful construction again, in reverse order, after all the
+        # others (same degrees under other methods / seeds / centres in between): bit for bit the same grid
+        for impl, g, case in reversed(rebuilt):
+            try:
+                g2 = impl()
+            except Exception as e:  # noqa: BLE001
+                ctx.fail("corr", "AtomGrid.__init__:rebuild", f"{case}: the second construction raises {type(e).__name__}: {e}", witness=case)
+                continue
+            same = (np.array_equal(g2.points, g.points) and np.array_equal(g2.weights, g.weights)
+                    and list(map(int, g2.indices)) == list(map(int, g.indices)) and list(map(int, g2.degrees)) == list(map(int, g.degrees)))
+            ctx.count(dict(case, rebuild=True), nontrivial=True, tag="kinds:rebuild")
+            if not same:
+                ctx.fail("corr", "AtomGrid.__init__:rebuild", f"{case}: the same construction repeated later in the process gives another grid", witness=case)
+    parts.run('the constructor on every argument kind, then every successful construction again', _part0)
 
     # ---- from_pruned on explicit radial orders and argument kinds --------------------------------------------
-    pr = []
-    for k in range(ctx.n(100, 1500)):
-        method = rng.choice(METHODS)
-        pairs = _supported(ang, method)
-        order = ORDERS[k % len(ORDERS)]
-        pts, wts = _ordered_rgrid(ctx, order)
-        S = rng.randrange(1, 4)
-        rsect = sorted(rng.uniform(0.05, 4) for _ in range(S))
-        radius = rng.choice([1.0, rng.uniform(0.3, 3.0)])
-        if rng.random() < 0.5:
-            pts[rng.randrange(len(pts))] = rsect[rng.randrange(S)] * radius  # a node on a bound
-        dmax = MAXDEG[method]
-        smax = max(s for d, s in pairs if d <= dmax)
-        form = rng.choice(["d", "d", "d", "s", "both", "neither"])
-        dsec = [rng.randrange(0, dmax + 1) for _ in range(S + 1)] if form in ("d", "both") else None
-        ssec = [rng.randrange(0, smax + 1) for _ in range(S + 1)] if form in ("s", "both") else None
-        ckind = rng.choice(["list", "int64", "tuple"])
-        rot = rng.choice([0, rng.randrange(1, 10 ** 5)])
-        cen = rng.choice([None, [float(_exact32(ctx, -3, 3)) for _ in range(3)]])
-        pr.append((method, order, pts, wts, rsect, radius, form, dsec, ssec, ckind, rot, cen))
-    # the degrees the shells can get (for the angular data handed to the model)
-    lines = []
-    for (m, order, pts, wts, rsect, radius, form, dsec, ssec, ckind, rot, cen) in pr:
-        pairs = _supported(ang, m)
-        if ssec is not None:
-            poss = [(_least_size(pairs, x) or (0, 0))[0] for x in ssec]
-        elif dsec is not None:
-            poss = list(dsec)
-        else:
-            poss = []
-        lines.append(_gpruned_line(ang, m, dsec, ssec, radius, rsect, cen, rot, pts, wts, poss, [(len(pts) - 1, True)]))
-    answers = driver_batch(lines)
-    for (m, order, pts, wts, rsect, radius, form, dsec, ssec, ckind, rot, cen), line in zip(pr, answers):
-        case = {"op": "from_pruned", "method": m, "radial_order": order, "rgrid_points": pts.tolist(), "rgrid_weights": wts.tolist(),
-                "radius": radius, "r_sectors": rsect, "d_sectors": dsec, "s_sectors": ssec, "sectors_as": ckind, "rotate": rot, "center": cen}
-        if line == "bad-op":
-            ctx.fail("corr", "AtomGrid.from_pruned:kinds", f"{case}: the model could not run (bad-op)", witness=case)
-            continue
+    def _part1():
+        pr = []
+        for k in range(ctx.n(100, 1500)):
+            method = rng.choice(METHODS)
+            pairs = _supported(ang, method)
+            order = ORDERS[k % len(ORDERS)]
+            pts, wts = _ordered_rgrid(ctx, order)
+            S = rng.randrange(1, 4)
+            rsect = sorted(rng.uniform(0.05, 4) for _ in range(S))
+            radius = rng.choice([1.0, rng.uniform(0.3, 3.0)])
+            if rng.random() < 0.5:
+                pts[rng.randrange(len(pts))] = rsect[rng.randrange(S)] * radius  # a node on a bound
+            dmax = MAXDEG[method]
+            smax = max(s for d, s in pairs if d <= dmax)
+            form = rng.choice(["d", "d", "d", "s", "both", "neither"])
+            dsec = [rng.randrange(0, dmax + 1) for _ in range(S + 1)] if form in ("d", "both") else None
+            ssec = [rng.randrange(0, smax + 1) for _ in range(S + 1)] if form in ("s", "both") else None
+            ckind = rng.choice(["list", "int64", "tuple"])
+            rot = rng.choice([0, rng.randrange(1, 10 ** 5)])
+            cen = rng.choice([None, [float(_exact32(ctx, -3, 3)) for _ in range(3)]])
+            pr.append((method, order, pts, wts, rsect, radius, form, dsec, ssec, ckind, rot, cen))
+        # the degrees the shells can get (for the angular data handed to the model)
+        lines = []
+        for (m, order, pts, wts, rsect, radius, form, dsec, ssec, ckind, rot, cen) in pr:
+            pairs = _supported(ang, m)
+            if ssec is not None:
+                poss = [(_least_size(pairs, x) or (0, 0))[0] for x in ssec]
+            elif dsec is not None:
+                poss = list(dsec)
+            else:
+                poss = []
+            lines.append(_gpruned_line(ang, m, dsec, ssec, radius, rsect, cen, rot, pts, wts, poss, [(len(pts) - 1, True)]))
+        answers = driver_batch(lines)
+        for (m, order, pts, wts, rsect, radius, form, dsec, ssec, ckind, rot, cen), line in zip(pr, answers):
+            case = {"op": "from_pruned", "method": m, "radial_order": order, "rgrid_points": pts.tolist(), "rgrid_weights": wts.tolist(),
+                    "radius": radius, "r_sectors": rsect, "d_sectors": dsec, "s_sectors": ssec, "sectors_as": ckind, "rotate": rot, "center": cen}
+            if line == "bad-op":
+                ctx.fail("corr", "AtomGrid.from_pruned:kinds", f"{case}: the model could not run (bad-op)", witness=case)
+                continue
 
-        def impl(m=m, pts=pts, wts=wts, rsect=rsect, radius=radius, dsec=dsec, ssec=ssec, ckind=ckind, rot=rot, cen=cen):
-            conv = {"list": list, "int64": lambda x: np.array(x, dtype=np.int64), "tuple": tuple}[ckind]
-            rconv = {"list": list, "int64": np.array, "tuple": tuple}[ckind]
-            if rot % 2:  # r_sectors / d_sectors positionally
-                return AtomGrid.from_pruned(_onedgrid(bg, pts, wts), radius, rconv(rsect), None if dsec is None else conv(dsec),
+            def impl(m=m, pts=pts, wts=wts, rsect=rsect, radius=radius, dsec=dsec, ssec=ssec, ckind=ckind, rot=rot, cen=cen):
+                conv = {"list": list, "int64": lambda x: np.array(x, dtype=np.int64), "tuple": tuple}[ckind]
+                rconv = {"list": list, "int64": np.array, "tuple": tuple}[ckind]
+                if rot % 2:  # r_sectors / d_sectors positionally
+                    return AtomGrid.from_pruned(_onedgrid(bg, pts, wts), radius, rconv(rsect), None if dsec is None else conv(dsec),
+                                                s_sectors=None if ssec is None else conv(ssec), center=cen, rotate=rot, method=m)
+                return AtomGrid.from_pruned(_onedgrid(bg, pts, wts), radius, r_sectors=rconv(rsect), d_sectors=None if dsec is None else conv(dsec),
                                             s_sectors=None if ssec is None else conv(ssec), center=cen, rotate=rot, method=m)
-            return AtomGrid.from_pruned(_onedgrid(bg, pts, wts), radius, r_sectors=rconv(rsect), d_sectors=None if dsec is None else conv(dsec),
-                                        s_sectors=None if ssec is None else conv(ssec), center=cen, rotate=rot, method=m)
 
-        a = Ans(line)
-        _compare_grid(ctx, "AtomGrid.from_pruned:kinds", case, impl, a, pts, None if cen is None else np.array(cen), [(len(pts) - 1, True)])
-        ctx.count(case, nontrivial=True, tag=f"pruned-kinds:{order}:{form}:{ckind}" + (":" + a.tag if a.tag != "ok" else ""))
+            a = Ans(line)
+            _compare_grid(ctx, "AtomGrid.from_pruned:kinds", case, impl, a, pts, None if cen is None else np.array(cen), [(len(pts) - 1, True)])
+            ctx.count(case, nontrivial=True, tag=f"pruned-kinds:{order}:{form}:{ckind}" + (":" + a.tag if a.tag != "ok" else ""))
+    parts.run('from_pruned on explicit radial orders and argument kinds', _part1)
 
     # ---- _input_type_check on its own ------------------------------------------------------------------------
-    chk = []
-    NEG = [-1e-300, -1e-9, -0.5, -1.0, -1.5, -2.0]  # just below the threshold 0.0 and further away
-    for k in range(ctx.n(120, 1200)):
-        n = rng.randrange(0, 4) if k >= 12 else 1 + k % 3
-        pts = [rng.choice([0.0, 1e-300, rng.uniform(0, 5)]) if rng.random() < 0.3 else rng.uniform(0, 5) for _ in range(n)]
-        if n and (k < 12 or rng.random() < 0.4):
-            pts[rng.randrange(n)] = NEG[k % len(NEG)]
-        dom = rng.choice([None, None, (0.0, np.inf), (-1.0, 10.0), (-1e-300, 10.0), (0.0, 10.0)])
-        cl = [0.0] * rng.choice([3, 3, 3, 2, 4, 0])
-        chk.append((pts, dom, cl))
-    answers = driver_batch([f"C05.gcheck {_rgrid_tok(p, [1.0] * len(p), True, d)} {fvec(c)}" for p, d, c in chk])
-    for (p, d, c), line in zip(chk, answers):
-        case = {"op": "_input_type_check", "rgrid_points": p, "domain": d, "center_len": len(c)}
-        try:
-            if d is not None and d[0] >= 0 and any(v < 0 or v > d[1] for v in p):
-                continue  # OneDGrid itself rejects nodes outside the domain
-            rg = bg.OneDGrid(np.array(p, dtype=float), np.ones(len(p)), d)
-        except Exception:  # noqa: BLE001
-            continue
-        try:
-            AtomGrid._input_type_check(rg, np.array(c, dtype=float))
-            impl = "ok"
-        except (TypeError, ValueError) as e:
-            impl = _exc_tag(e)
-        ctx.count(case, nontrivial=True, tag="input-type-check:" + impl)
-        if impl != line:
-            ctx.fail("corr", "AtomGrid._input_type_check", f"{case}: implementation {impl}, model {line}", witness=case)
+    def _part2():
+        chk = []
+        NEG = [-1e-300, -1e-9, -0.5, -1.0, -1.5, -2.0]  # just below the threshold 0.0 and further away
+        for k in range(ctx.n(120, 1200)):
+            n = rng.randrange(0, 4) if k >= 12 else 1 + k % 3
+            pts = [rng.choice([0.0, 1e-300, rng.uniform(0, 5)]) if rng.random() < 0.3 else rng.uniform(0, 5) for _ in range(n)]
+            if n and (k < 12 or rng.random() < 0.4):
+                pts[rng.randrange(n)] = NEG[k % len(NEG)]
+            dom = rng.choice([None, None, (0.0, np.inf), (-1.0, 10.0), (-1e-300, 10.0), (0.0, 10.0)])
+            cl = [0.0] * rng.choice([3, 3, 3, 2, 4, 0])
+            chk.append((pts, dom, cl))
+        answers = driver_batch([f"C05.gcheck {_rgrid_tok(p, [1.0] * len(p), True, d)} {fvec(c)}" for p, d, c in chk])
+        for (p, d, c), line in zip(chk, answers):
+            case = {"op": "_input_type_check", "rgrid_points": p, "domain": d, "center_len": len(c)}
+            try:
+                if d is not None and d[0] >= 0 and any(v < 0 or v > d[1] for v in p):
+                    continue  # OneDGrid itself rejects nodes outside the domain
+                rg = bg.OneDGrid(np.array(p, dtype=float), np.ones(len(p)), d)
+            except Exception:  # noqa: BLE001
+                continue
+            try:
+                AtomGrid._input_type_check(rg, np.array(c, dtype=float))
+                impl = "ok"
+            except (TypeError, ValueError) as e:
+                impl = _exc_tag(e)
+            ctx.count(case, nontrivial=True, tag="input-type-check:" + impl)
+            if impl != line:
+                ctx.fail("corr", "AtomGrid._input_type_check", f"{case}: implementation {impl}, model {line}", witness=case)
+    parts.run('_input_type_check on its own', _part2)
 
+    parts.finish()
 
 # ----------------------------------------------------------------------------
 # round 3: the regenerated `_generate_atomic_grid`, `from_preset`, default values
@@ -998,7 +1075,8 @@ def _extreme_rgrid(ctx: Ctx):
     """class 8: radial nodes / weights of extreme but legal magnitude (squares stay finite; r**2 may be denormal)"""
     rng = ctx.rng
     n = rng.choice([1, 2, 3, 4])
-    pts = [rng.choice([10.0 ** rng.uniform(-160, -20), 10.0 ** rng.uniform(-12, 12), 10.0 ** rng.uniform(20, 150), 0.0, rng.uniform(0, 3)]) for _ in range(n)]
+    pts = [rng.choice([10.0 ** rng.uniform(-160, -20), 10.0 ** rng.uniform(-12, 12), 10.0 ** rng.uniform(20, 150), 0.0, rng.uniform(0, 3),
+                       10.0 ** rng.uniform(-300, -170), rng.choice([5e-324, 1e-310, 2.2250738585072014e-308])]) for _ in range(n)]
     scale = 10.0 ** rng.choice([-12, -6, 0, 6, 12])
     wts = [scale * rng.uniform(0.1, 2.0) * rng.choice([1, 1, -1]) for _ in range(n)]
     return np.array(pts, dtype=float), np.array(wts, dtype=float)
@@ -1010,179 +1088,187 @@ def _corr_round3(ctx: Ctx, ag, ang, bg):
     utils = importlib.import_module("grid.utils")
     import scipy.constants as sc
 
+    parts = _Parts(ctx, 'corr', 'corr-round3')
     # ---- the regenerated static method `_generate_atomic_grid(rgrid, degrees, rotate=…, method=…)` (loop included) ----
-    cases = []
-    for k in range(ctx.n(70, 900)):
-        method = METHODS[k % 4]
-        pts, wts = _extreme_rgrid(ctx) if k % 5 == 4 else _rand_rgrid(ctx, n=(1 + k % 3) if k < 12 else None)
-        n = len(pts)
-        pairs = _supported(ang, method)
-        dmax = MAXDEG[method]
-        shape = rng.choice(["ok"] * 8 + ["badlen", "toolarge", "one-for-many"]) if k >= 8 else "ok"
-        degs = [rng.randrange(0, dmax + 1) for _ in range(n)]
-        if shape == "badlen":
-            degs = [rng.randrange(0, 12) for _ in range(rng.choice([x for x in (n + 1, n - 1, 0, n + 2) if x >= 0 and x != n]))]
-        elif shape == "toolarge":
-            degs[rng.randrange(n)] = max(d for d, _ in pairs) + rng.randrange(1, 4)
-        elif shape == "one-for-many":  # the static method does not broadcast a single degree
-            degs = degs[:1]
-        dkind = rng.choice(["list", "int64", "int32"])
-        rot_kind = rng.choice(["default", "default", "int", "int", "int", "int", "int", "int", "bool", "bool", "npint", "other"])
-        if rot_kind == "int":
-            rot_val = rng.choice([0, 1, 1, rng.randrange(2, 10 ** 5), rng.randrange(2, 10 ** 5), rng.randrange(2, 10 ** 5), 2 ** 32 - n - 1,
-                                  2 ** 32 - n, 2 ** 32 - 1, -1, -rng.randrange(2, 50)])
-        elif rot_kind == "bool":
-            rot_val = rng.random() < 0.6
-        elif rot_kind == "npint":
-            rot_val = rng.choice([0, 3])
-        else:
-            rot_val = None if rot_kind == "default" else 2.0
-        cases.append((method, pts, wts, degs, dkind, rot_kind, rot_val, shape))
-    lines = []
-    for (m, p, w, degs, dkind, rk, rv, shape) in cases:
-        seed = int(rv) if rk in ("int", "bool", "npint") else int(_sig_default("_generate_atomic_grid", "rotate")) if rk == "default" else 0
-        lines.append(" ".join(["C05.ggen", m, vec(degs), _rot_tok(rk, rv), _rgrid_tok(p, w), _world(ang, m, "deg", degs, seed, len(degs), [])]))
-    answers = driver_batch(lines)
-    for (m, p, w, degs, dkind, rk, rv, shape), line in zip(cases, answers):
-        case = {"op": "_generate_atomic_grid", "method": m, "degrees": degs, "degrees_as": dkind, "rotate": [rk, rv],
-                "rgrid_points": p.tolist(), "rgrid_weights": w.tolist()}
-        if line == "bad-op":
-            ctx.fail("corr", "AtomGrid._generate_atomic_grid", f"{case}: the model could not run (bad-op)", witness=case)
-            continue
-        kw = {}
-        if rk != "default":
-            kw["rotate"] = {"int": int, "bool": bool, "npint": np.int64, "other": float}[rk](rv)
-        if not (m == "lebedev" and rng.random() < 0.5):
-            kw["method"] = m  # otherwise the method is left at its default
-        dd = {"list": list, "int64": lambda x: np.array(x, dtype=np.int64), "int32": lambda x: np.array(x, dtype=np.int32)}[dkind](degs)
-        try:
-            P, W, I, D = AtomGrid._generate_atomic_grid(_onedgrid(bg, p, w), dd, **kw)
-            impl = "ok"
-        except (ValueError, IndexError, TypeError) as e:
-            impl = _exc_tag(e)
-        t = line.split()
-        ctx.count(case, nontrivial=True, tag=f"ggen:{m}:{shape}:rot-{rk}" + (":extreme" if np.any((p > 1e15) | ((p < 1e-15) & (p > 0))) else "") + (":" + impl if impl != "ok" else ""))
-        if impl != t[0]:
-            ctx.fail("corr", "AtomGrid._generate_atomic_grid", f"{case}: implementation {impl}, regenerated code {t[0]}", witness=case)
-            continue
-        if impl != "ok":
-            continue
-        a = Ans.__new__(Ans)
-        a.t, a.i = t, 1
-        mp = a._mat()
-        mw = a._floats()
-        mi = a._nats()
-        md = a._nats()
-        bad = []
-        pscale = max(float(np.max(np.abs(p))), 1e-300)
-        if not _arr_close(P, mp, pscale):
-            bad.append("points differ" + _first_diff(P, mp))
-        if not _arr_close(W, mw, np.maximum(np.abs(mw), np.abs(W)) if np.shape(W) == np.shape(mw) else 1.0):
-            bad.append("weights differ" + _first_diff(W, mw))
-        if [int(x) for x in I] != mi:
-            bad.append(f"indices {list(map(int, I))[:8]} vs {mi[:8]}")
-        if [int(x) for x in D] != md:
-            bad.append(f"actual degrees {list(map(int, D))[:8]} vs {md[:8]}")
-        for b in bad[:2]:
-            ctx.fail("corr", "AtomGrid._generate_atomic_grid", f"{case}: {b}", witness=case)
+    def _part0():
+        cases = []
+        for k in range(ctx.n(70, 900)):
+            method = METHODS[k % 4]
+            pts, wts = _extreme_rgrid(ctx) if k % 5 == 4 else _rand_rgrid(ctx, n=(1 + k % 3) if k < 12 else None)
+            n = len(pts)
+            pairs = _supported(ang, method)
+            dmax = MAXDEG[method]
+            shape = rng.choice(["ok"] * 8 + ["badlen", "toolarge", "one-for-many"]) if k >= 8 else "ok"
+            degs = [rng.randrange(0, dmax + 1) for _ in range(n)]
+            if shape == "badlen":
+                degs = [rng.randrange(0, 12) for _ in range(rng.choice([x for x in (n + 1, n - 1, 0, n + 2) if x >= 0 and x != n]))]
+            elif shape == "toolarge":
+                degs[rng.randrange(n)] = max(d for d, _ in pairs) + rng.randrange(1, 4)
+            elif shape == "one-for-many":  # the static method does not broadcast a single degree
+                degs = degs[:1]
+            dkind = rng.choice(["list", "int64", "int32"])
+            rot_kind = rng.choice(["default", "default", "int", "int", "int", "int", "int", "int", "bool", "bool", "npint", "other"])
+            if rot_kind == "int":
+                rot_val = rng.choice([0, 1, 1, rng.randrange(2, 10 ** 5), rng.randrange(2, 10 ** 5), rng.randrange(2, 10 ** 5), 2 ** 32 - n - 1,
+                                      2 ** 32 - n, 2 ** 32 - 1, -1, -rng.randrange(2, 50)])
+            elif rot_kind == "bool":
+                rot_val = rng.random() < 0.6
+            elif rot_kind == "npint":
+                rot_val = rng.choice([0, 3])
+            else:
+                rot_val = None if rot_kind == "default" else 2.0
+            cases.append((method, pts, wts, degs, dkind, rot_kind, rot_val, shape))
+        lines = []
+        for (m, p, w, degs, dkind, rk, rv, shape) in cases:
+            seed = int(rv) if rk in ("int", "bool", "npint") else int(_sig_default("_generate_atomic_grid", "rotate")) if rk == "default" else 0
+            lines.append(" ".join(["C05.ggen", m, vec(degs), _rot_tok(rk, rv), _rgrid_tok(p, w), _world(ang, m, "deg", degs, seed, len(degs), [])]))
+        answers = driver_batch(lines)
+        for (m, p, w, degs, dkind, rk, rv, shape), line in zip(cases, answers):
+            case = {"op": "_generate_atomic_grid", "method": m, "degrees": degs, "degrees_as": dkind, "rotate": [rk, rv],
+                    "rgrid_points": p.tolist(), "rgrid_weights": w.tolist()}
+            if line == "bad-op":
+                ctx.fail("corr", "AtomGrid._generate_atomic_grid", f"{case}: the model could not run (bad-op)", witness=case)
+                continue
+            kw = {}
+            if rk != "default":
+                kw["rotate"] = {"int": int, "bool": bool, "npint": np.int64, "other": float}[rk](rv)
+            if not (m == "lebedev" and rng.random() < 0.5):
+                kw["method"] = m  # otherwise the method is left at its default
+            dd = {"list": list, "int64": lambda x: np.array(x, dtype=np.int64), "int32": lambda x: np.array(x, dtype=np.int32)}[dkind](degs)
+            try:
+                P, W, I, D = AtomGrid._generate_atomic_grid(_onedgrid(bg, p, w), dd, **kw)
+                impl = "ok"
+            except (ValueError, IndexError, TypeError) as e:
+                impl = _exc_tag(e)
+            t = line.split()
+            ctx.count(case, nontrivial=True, tag=f"ggen:{m}:{shape}:rot-{rk}" + (":extreme" if np.any((p > 1e15) | ((p < 1e-15) & (p > 0))) else "") + (":" + impl if impl != "ok" else ""))
+            if impl != t[0]:
+                ctx.fail("corr", "AtomGrid._generate_atomic_grid", f"{case}: implementation {impl}, regenerated code {t[0]}", witness=case)
+                continue
+            if impl != "ok":
+                continue
+            a = Ans.__new__(Ans)
+            a.t, a.i = t, 1
+            mp = a._mat()
+            mw = a._floats()
+            mi = a._nats()
+            md = a._nats()
+            bad = []
+            pscale = max(float(np.max(np.abs(p))), 1e-300)
+            if not _arr_close(P, mp, pscale):
+                bad.append("points differ" + _first_diff(P, mp))
+            if not _arr_close(W, mw, np.maximum(np.abs(mw), np.abs(W)) if np.shape(W) == np.shape(mw) else 1.0):
+                bad.append("weights differ" + _first_diff(W, mw))
+            if [int(x) for x in I] != mi:
+                bad.append(f"indices {list(map(int, I))[:8]} vs {mi[:8]}")
+            if [int(x) for x in D] != md:
+                bad.append(f"actual degrees {list(map(int, D))[:8]} vs {md[:8]}")
+            for b in bad[:2]:
+                ctx.fail("corr", "AtomGrid._generate_atomic_grid", f"{case}: {b}", witness=case)
+    parts.run('the regenerated static method `_generate_atomic_grid(rgrid, degrees, rotate=…, method=…)` ', _part0)
 
     # ---- the regenerated `from_preset` ---------------------------------------------------------------------------------
-    tabs = _preset_tables()
-    allpairs = [(p, z) for p in sorted(tabs) for z in sorted(tabs[p][0])]
-    npick = ctx.n(40, 500)
-    pick = [("sg_3", 14), ("sg_0", 7), ("sg_0", 15), ("sg_1", 18), ("sg_1", 19), ("coarse", 1), ("sg_1", 85), ("g1", 1)]
-    pick += rng.sample(allpairs, min(len(allpairs), npick))
-    ang2bohr = sc.angstrom / sc.value("atomic unit of length")
-    defaults = utils._DEFAULT_POWER_RTRANSFORM_PARAMS
-    rt = importlib.import_module("grid.rtransform")
-    od = importlib.import_module("grid.onedgrid")
-    pc = []
-    for k, (p, z) in enumerate(pick):
-        method = rng.choice(METHODS) if rng.random() < 0.35 else "lebedev"
-        pairs = _supported(ang, method)
-        tab = tabs.get(p, ({}, {}))[0]
-        rk = rng.choice(["given"] * 6 + ["none", "omitted"]) if k >= 8 else ("given" if k != 5 else "omitted")
-        if z not in tab:
-            rad = npt = None
-        else:
-            rad, npt, nshell = tab[z]
-        zz = z
-        if rk != "given" and rng.random() < 0.25:
-            zz = rng.choice([z, 83, 90, 104])  # an element without default radial parameters (ValueError before anything else)
-            if zz not in tab:
+    def _part1():
+        tabs = _preset_tables()
+        allpairs = [(p, z) for p in sorted(tabs) for z in sorted(tabs[p][0])]
+        npick = ctx.n(40, 500)
+        pick = [("sg_3", 14), ("sg_0", 7), ("sg_0", 15), ("sg_1", 18), ("sg_1", 19), ("coarse", 1), ("sg_1", 85), ("g1", 1)]
+        pick += rng.sample(allpairs, min(len(allpairs), npick))
+        ang2bohr = sc.angstrom / sc.value("atomic unit of length")
+        defaults = utils._DEFAULT_POWER_RTRANSFORM_PARAMS
+        rt = importlib.import_module("grid.rtransform")
+        od = importlib.import_module("grid.onedgrid")
+        pc = []
+        for k, (p, z) in enumerate(pick):
+            method = rng.choice(METHODS) if rng.random() < 0.35 else "lebedev"
+            pairs = _supported(ang, method)
+            tab = tabs.get(p, ({}, {}))[0]
+            rk = rng.choice(["given"] * 6 + ["none", "omitted"]) if k >= 8 else ("given" if k != 5 else "omitted")
+            if z not in tab:
                 rad = npt = None
-        if rk == "given":
-            if rad is None:
-                rp = np.linspace(0.1, 5, 12)
             else:
-                rp = _preset_rgrid_points(ctx, rad, nshell, rng.random() < 0.93)
-            rw = np.array([rng.uniform(0.1, 1.0) for _ in rp])
-            dom = (0.0, np.inf)
-            rg_tok, wgrid = "some " + _rgrid_tok(rp, rw, True, dom), "nogrid"
-        else:
-            rg_tok = "none" if rk == "none" else "default"
-            if zz in defaults:
-                rmin, rmax, n0 = defaults[zz]
-                x, y = rmin * ang2bohr, rmax * ang2bohr
-                dg = rt.PowerRTransform(x, y).transform_1d_grid(od.UniformInteger(n0))
-                rp, rw, dom = dg.points, dg.weights, dg.domain
-                wgrid = f"grid {f2b(x)} {f2b(y)} {n0} " + _rgrid_tok(rp, rw, True, dom)
-            else:
-                rp, rw, dom, wgrid = np.array([1.0]), np.array([1.0]), None, "nogrid"
-        entry = f"entry {zz} {f2b(defaults[zz][0])} {f2b(defaults[zz][1])} {defaults[zz][2]}" if zz in defaults else "none"
-        # expected size of the grid (brute force over the table) to keep the lines small
-        total = 0
-        if npt is not None:
-            if rad.dtype.kind == "i":
-                total = sum(int(c) * ((_least_size(pairs, int(s)) or (0, 0))[1]) for c, s in zip(rad, npt))
-            else:
-                total = len(rp) * max((_least_size(pairs, int(s)) or (0, 0))[1] for s in npt)
-        if total > 30000:
-            continue
-        ck = rng.choice(["omitted", "none", "vec", "vec"])
-        cen = None if ck != "vec" else _rand_center(ctx)
-        rot_kind = rng.choice(["default", "int", "int", "bool"])
-        rot_val = None if rot_kind == "default" else (rng.random() < 0.5) if rot_kind == "bool" else rng.choice([0, rng.randrange(1, 10 ** 5)])
-        seed = int(rot_val) if rot_kind != "default" else int(_sig_default("from_preset", "rotate"))
-        sreq = [(0, None), (len(rp) - 1, True)]
-        world = _world(ang, method, "size", [int(s) for s in npt] if npt is not None else [], seed, len(rp), sreq)
-        line = " ".join(["C05.gpreset", method, str(zz), p, rg_tok, _center_tok("omitted" if ck == "omitted" else cen), _rot_tok(rot_kind, rot_val),
-                         entry, f2b(sc.angstrom), f2b(sc.value("atomic unit of length")), wgrid, world])
-        pc.append((p, zz, method, rk, rp, rw, dom, ck, cen, rot_kind, rot_val, sreq, line))
-    answers = driver_batch([c[-1] for c in pc])
-    for (p, z, m, rk, rp, rw, dom, ck, cen, rot_kind, rot_val, sreq, _), line in zip(pc, answers):
-        case = {"op": "from_preset", "preset": p, "atnum": z, "method": m, "rgrid": rk, "rgrid_points": rp.tolist() if rk == "given" else None,
-                "rgrid_weights": rw.tolist() if rk == "given" else None, "center": None if cen is None else cen.tolist(), "center_as": ck,
-                "rotate": [rot_kind, rot_val]}
-        if line == "bad-op":
-            ctx.fail("corr", "AtomGrid.from_preset:gen", f"{case}: the model could not run (bad-op)", witness=case)
-            continue
-
-        def impl(p=p, z=z, m=m, rk=rk, rp=rp, rw=rw, dom=dom, ck=ck, cen=cen, rot_kind=rot_kind, rot_val=rot_val):
-            kw = {"method": m}
+                rad, npt, nshell = tab[z]
+            zz = z
+            if rk != "given" and rng.random() < 0.25:
+                zz = rng.choice([z, 83, 90, 104])  # an element without default radial parameters (ValueError before anything else)
+                if zz not in tab:
+                    rad = npt = None
             if rk == "given":
-                kw["rgrid"] = bg.OneDGrid(np.array(rp), np.array(rw), dom)
-            elif rk == "none":
-                kw["rgrid"] = None
-            if ck != "omitted":
-                kw["center"] = cen
-            if rot_kind != "default":
-                kw["rotate"] = bool(rot_val) if rot_kind == "bool" else int(rot_val)
-            if set(kw) == {"method", "rgrid", "center", "rotate"} and (z + len(p)) % 2:  # every argument positionally (method included)
-                return AtomGrid.from_preset(z, p, kw["rgrid"], kw["center"], kw["rotate"], kw["method"])
-            return AtomGrid.from_preset(z, p, **kw)
+                if rad is None:
+                    rp = np.linspace(0.1, 5, 12)
+                else:
+                    rp = _preset_rgrid_points(ctx, rad, nshell, rng.random() < 0.93)
+                rw = np.array([rng.uniform(0.1, 1.0) for _ in rp])
+                dom = (0.0, np.inf)
+                rg_tok, wgrid = "some " + _rgrid_tok(rp, rw, True, dom), "nogrid"
+            else:
+                rg_tok = "none" if rk == "none" else "default"
+                if zz in defaults:
+                    rmin, rmax, n0 = defaults[zz]
+                    x, y = rmin * ang2bohr, rmax * ang2bohr
+                    dg = rt.PowerRTransform(x, y).transform_1d_grid(od.UniformInteger(n0))
+                    rp, rw, dom = dg.points, dg.weights, dg.domain
+                    wgrid = f"grid {f2b(x)} {f2b(y)} {n0} " + _rgrid_tok(rp, rw, True, dom)
+                else:
+                    rp, rw, dom, wgrid = np.array([1.0]), np.array([1.0]), None, "nogrid"
+            entry = f"entry {zz} {f2b(defaults[zz][0])} {f2b(defaults[zz][1])} {defaults[zz][2]}" if zz in defaults else "none"
+            # expected size of the grid (brute force over the table) to keep the lines small
+            total = 0
+            if npt is not None:
+                if rad.dtype.kind == "i":
+                    total = sum(int(c) * ((_least_size(pairs, int(s)) or (0, 0))[1]) for c, s in zip(rad, npt))
+                else:
+                    total = len(rp) * max((_least_size(pairs, int(s)) or (0, 0))[1] for s in npt)
+            if total > 30000:
+                continue
+            ck = rng.choice(["omitted", "none", "vec", "vec"])
+            cen = None if ck != "vec" else _rand_center(ctx)
+            rot_kind = rng.choice(["default", "int", "int", "bool"])
+            rot_val = None if rot_kind == "default" else (rng.random() < 0.5) if rot_kind == "bool" else rng.choice([0, rng.randrange(1, 10 ** 5)])
+            seed = int(rot_val) if rot_kind != "default" else int(_sig_default("from_preset", "rotate"))
+            sreq = [(0, None), (len(rp) - 1, True)]
+            world = _world(ang, method, "size", [int(s) for s in npt] if npt is not None else [], seed, len(rp), sreq)
+            line = " ".join(["C05.gpreset", method, str(zz), p, rg_tok, _center_tok("omitted" if ck == "omitted" else cen), _rot_tok(rot_kind, rot_val),
+                             entry, f2b(sc.angstrom), f2b(sc.value("atomic unit of length")), wgrid, world])
+            pc.append((p, zz, method, rk, rp, rw, dom, ck, cen, rot_kind, rot_val, sreq, line))
+        answers = driver_batch([c[-1] for c in pc])
+        for (p, z, m, rk, rp, rw, dom, ck, cen, rot_kind, rot_val, sreq, _), line in zip(pc, answers):
+            case = {"op": "from_preset", "preset": p, "atnum": z, "method": m, "rgrid": rk, "rgrid_points": rp.tolist() if rk == "given" else None,
+                    "rgrid_weights": rw.tolist() if rk == "given" else None, "center": None if cen is None else cen.tolist(), "center_as": ck,
+                    "rotate": [rot_kind, rot_val]}
+            if line == "bad-op":
+                ctx.fail("corr", "AtomGrid.from_preset:gen", f"{case}: the model could not run (bad-op)", witness=case)
+                continue
 
-        a = Ans(line)
-        _compare_grid(ctx, "AtomGrid.from_preset:gen", case, impl, a, rp, cen, sreq)
-        ctx.count(case, nontrivial=True, tag=f"gpreset:{p}:rgrid-{rk}:center-{ck}:rot-{rot_kind}" + (":" + a.tag if a.tag != "ok" else ""))
+            def impl(p=p, z=z, m=m, rk=rk, rp=rp, rw=rw, dom=dom, ck=ck, cen=cen, rot_kind=rot_kind, rot_val=rot_val):
+                kw = {"method": m}
+                if rk == "given":
+                    kw["rgrid"] = bg.OneDGrid(np.array(rp), np.array(rw), dom)
+                elif rk == "none":
+                    kw["rgrid"] = None
+                if ck != "omitted":
+                    kw["center"] = cen
+                if rot_kind != "default":
+                    kw["rotate"] = bool(rot_val) if rot_kind == "bool" else int(rot_val)
+                if set(kw) == {"method", "rgrid", "center", "rotate"} and (z + len(p)) % 2:  # every argument positionally (method included)
+                    return AtomGrid.from_preset(z, p, kw["rgrid"], kw["center"], kw["rotate"], kw["method"])
+                return AtomGrid.from_preset(z, p, **kw)
+
+            a = Ans(line)
+            _compare_grid(ctx, "AtomGrid.from_preset:gen", case, impl, a, rp, cen, sreq)
+            ctx.count(case, nontrivial=True, tag=f"gpreset:{p}:rgrid-{rk}:center-{ck}:rot-{rot_kind}" + (":" + a.tag if a.tag != "ok" else ""))
+    parts.run('the regenerated `from_preset`', _part1)
 
     # ---- the default angular method of every translated function ---------------------------------------------------------
-    ans = driver_batch(["C05.default-method"])[0].split()
-    want = ["ok"] + [str(_sig_default(f, "method")) for f in ("__init__", "from_pruned", "from_preset", "_generate_atomic_grid", "_generate_degree_from_radius")]
-    ctx.count(["default-method", want], nontrivial=True, tag="defaults:method")
-    if ans != want:
-        ctx.fail("corr", "AtomGrid:default-method", f"default methods: implementation {want[1:]}, regenerated {ans[1:]}")
+    def _part2():
+        ans = driver_batch(["C05.default-method"])[0].split()
+        want = ["ok"] + [str(_sig_default(f, "method")) for f in ("__init__", "from_pruned", "from_preset", "_generate_atomic_grid", "_generate_degree_from_radius")]
+        ctx.count(["default-method", want], nontrivial=True, tag="defaults:method")
+        if ans != want:
+            ctx.fail("corr", "AtomGrid:default-method", f"default methods: implementation {want[1:]}, regenerated {ans[1:]}")
+    parts.run('the default angular method of every translated function', _part2)
 
+    parts.finish()
 
 def _raise(tag):
     raise {"value-error": ValueError, "index-error": IndexError, "type-error": TypeError}.get(tag, RuntimeError)(tag)
@@ -1251,7 +1337,7 @@ def _sphere_monomial_integral(a, b, c):
     return 2 * math.gamma((a + 1) / 2) * math.gamma((b + 1) / 2) * math.gamma((c + 1) / 2) / math.gamma((a + b + c + 3) / 2)
 
 
-def _oracle_grid(ctx, ag, ang, bg, method, pts, wts, degs, rotate, center, key):
+def _oracle_grid(ctx, ag, ang, bg, method, pts, wts, degs, rotate, center, key, mk_rgrid=None):
     """All clauses of the property on one constructed grid; reference = the statement itself evaluated
     with exact rationals (weights), Gram matrices / least squares (orthogonal image), SciPy (seed)."""
     AtomGrid = ag.AtomGrid
@@ -1263,7 +1349,8 @@ def _oracle_grid(ctx, ag, ang, bg, method, pts, wts, degs, rotate, center, key):
     def fail(what):
         ctx.fail("oracle", key, f"{what} [method={method}, degrees={list(degs)}, rotate={rotate}, n={len(pts)}]", witness=wit, snippet=snip)
 
-    rgrid = _onedgrid(bg, pts, wts)
+    _mk = (lambda: _onedgrid(bg, pts, wts)) if mk_rgrid is None else mk_rgrid  # the radial grid *object* handed in
+    rgrid = _mk()
     g = AtomGrid(rgrid, degrees=list(degs), center=center, rotate=rotate, method=method)
     n = len(pts)
     idx = [int(x) for x in g.indices]
@@ -1342,12 +1429,12 @@ def _oracle_grid(ctx, ag, ang, bg, method, pts, wts, degs, rotate, center, key):
             if not (np.array_equal(g.points, P) and np.array_equal(g.weights, W)):
                 return fail(f"modifying the grid returned by get_shell_grid({i}, r_sq={rsq}) changed the atomic grid itself")
     # reproducible from the seed
-    g2 = AtomGrid(_onedgrid(bg, pts, wts), degrees=list(degs), center=center, rotate=rotate, method=method)
+    g2 = AtomGrid(_mk(), degrees=list(degs), center=center, rotate=rotate, method=method)
     if not (np.array_equal(g2.points, P) and np.array_equal(g2.weights, W)):
         return fail("two constructions with the same seed differ")
     # another seed: radii and weights unchanged
     rot2 = rotate + 1 + ctx.rng.randrange(1000)
-    g3 = AtomGrid(_onedgrid(bg, pts, wts), degrees=list(degs), center=center, rotate=rot2, method=method)
+    g3 = AtomGrid(_mk(), degrees=list(degs), center=center, rotate=rot2, method=method)
     if not np.array_equal(g3.weights, W) or [int(x) for x in g3.indices] != idx or \
             not np.all(np.abs(np.linalg.norm(g3.points - c, axis=1) - np.linalg.norm(P - c, axis=1)) <= 1e-11 * scale):
         return fail(f"rotation seed {rot2} instead of {rotate} changed radii, weights or the index table")
@@ -1355,7 +1442,7 @@ def _oracle_grid(ctx, ag, ang, bg, method, pts, wts, degs, rotate, center, key):
     t = np.array([ctx.rng.uniform(-3, 3) for _ in range(3)])
     if ctx.rng.random() < 0.4:  # class 8: a far, exactly representable shift (2^10 .. 2^20)
         t = np.array([float(ctx.rng.choice([-1, 1]) * 2 ** ctx.rng.randrange(10, 21)) for _ in range(3)])
-    g4 = AtomGrid(_onedgrid(bg, pts, wts), degrees=list(degs), center=c + t, rotate=rotate, method=method)
+    g4 = AtomGrid(_mk(), degrees=list(degs), center=c + t, rotate=rotate, method=method)
     if not np.array_equal(g4.weights, W) or [int(x) for x in g4.indices] != idx or \
             not np.all(np.abs(g4.points - P - t) <= 1e-11 * (scale + np.max(np.abs(t)))):
         return fail("moving the centre does more than translate the points")
@@ -1403,128 +1490,139 @@ def oracle(ctx: Ctx, budget: str):
     ag, ang, bg = _mods()
     AtomGrid = ag.AtomGrid
     rng = ctx.rng
-    _oracle_kinds(ctx, ag, ang, bg, budget)
-    _oracle_round3(ctx, ag, ang, bg, budget)
-    _oracle_combinations(ctx, ag, ang, bg, budget)
+    parts = _Parts(ctx, 'oracle', 'atomgrid.oracle')
+    parts.run("argument kinds", _oracle_kinds, ctx, ag, ang, bg, budget)
+    parts.run("round 3 parts", _oracle_round3, ctx, ag, ang, bg, budget)
+    parts.run("argument combinations", _oracle_combinations, ctx, ag, ang, bg, budget)
+    parts.run("round 4 parts", _oracle_round4, ctx, ag, ang, bg, budget)
     # ---- random grids -----------------------------------------------------------------------
-    for k in range(24 if budget == "small" else 400):
-        method = METHODS[k % 4]
-        pts, wts = _rand_rgrid(ctx, n=(1 + k % 4) if k < 8 else None)
-        n = len(pts)
-        dmax = MAXDEG[method]
-        if rng.random() < 0.3:
-            degs = [rng.randrange(0, dmax + 1)]
-        else:
-            pool = [rng.randrange(0, dmax + 1) for _ in range(rng.randrange(1, 4))]
-            degs = [rng.choice(pool) for _ in range(n)]
-        rotate = 0 if rng.random() < 0.3 else rng.randrange(1, 10 ** 6)
-        center = _rand_center(ctx)
-        try:
-            _oracle_grid(ctx, ag, ang, bg, method, pts, wts, degs, rotate, center, "atomgrid.AtomGrid")
-        except Exception as e:
-            ctx.fail("oracle", "atomgrid.AtomGrid", f"construction raised {type(e).__name__}: {e} [method={method}, degrees={degs}, rotate={rotate}]",
-                     witness={"rgrid_points": pts.tolist(), "degrees": degs, "rotate": rotate, "method": method})
-    # ---- pruned sectors: degree of each shell is the one of its sector, never below the request -----
-    for k in range(30 if budget == "small" else 400):
-        method = rng.choice(METHODS)
-        pairs = _supported(ang, method)
-        # radial nodes in every order the API admits: the first ten runs walk through the explicit orders
-        # (ascending, reversed, two rules back to back, unsorted, repeated nodes), then random grids
-        pts, wts = _ordered_rgrid(ctx, ORDERS[k % len(ORDERS)]) if k < 10 or rng.random() < 0.5 else _rand_rgrid(ctx)
-        S = rng.randrange(1, 5)
-        rsect = sorted(rng.uniform(0.05, 4) for _ in range(S))
-        radius = rng.uniform(0.3, 3.0)
-        if rng.random() < 0.4:
-            pts[rng.randrange(len(pts))] = rsect[rng.randrange(S)] * radius
-        dsec = [rng.randrange(0, MAXDEG[method] + 1) for _ in range(S + 1)]
-        g = AtomGrid.from_pruned(_onedgrid(bg, pts, wts), radius, r_sectors=rsect, d_sectors=dsec, method=method)
-        bounds = np.array(rsect) * radius  # same product as documented: radius * r_sectors
-        for i, r in enumerate(pts):
-            ksec = sum(1 for b in bounds if b < r)  # sectors are (b_{k-1}, b_k]
-            want = _least_degree(pairs, dsec[ksec])
-            if int(g.degrees[i]) != want[0] or int(g.degrees[i]) < dsec[ksec]:
-                ctx.fail("oracle", "atomgrid.AtomGrid.from_pruned",
-                         f"r={r!r} lies in sector {ksec} of bounds {bounds.tolist()} (requested degree {dsec[ksec]}) but the shell has degree {g.degrees[i]}",
-                         witness={"rgrid_points": pts.tolist(), "radius": radius, "r_sectors": rsect, "d_sectors": dsec, "method": method},
-                         snippet=SNIP_PRUNED.format(pts=pts.tolist(), wts=wts.tolist(), radius=radius, rsect=rsect, dsec=dsec, method=method))
-                break
-    # ---- every shipped preset x every element it tabulates ---------------------------------------
-    tabs = _preset_tables()
-    meths = ["lebedev"] if budget == "small" and not ctx.thorough else METHODS
-    built = 0
-    for p in sorted(tabs):
-        tab, extra = tabs[p]
-        for z in sorted(tab):
-            rad, npt, nshell = tab[z]
-            shell_count = rad.dtype.kind == "i"
-            key = f"prune_grid:{p}:Z={z}"
-            snip = SNIP_PRESET.format(preset=p, atnum=z)
-            fits = len(npt) == (len(rad) if shell_count else len(rad) + 1)
-            if shell_count:
-                npts_r = int(rad.sum())
+    def _part0():
+        for k in range(24 if budget == "small" else 400):
+            method = METHODS[k % 4]
+            pts, wts = _rand_rgrid(ctx, n=(1 + k % 4) if k < 8 else None)
+            n = len(pts)
+            dmax = MAXDEG[method]
+            if rng.random() < 0.3:
+                degs = [rng.randrange(0, dmax + 1)]
             else:
-                npts_r = nshell if nshell else 30
-            if "r_points" in extra and shell_count and int(extra["r_points"].sum()) != npts_r:
-                ctx.fail("oracle", key, f"stored r_points {extra['r_points'].tolist()} differs from the sum of the shell counts {npts_r}", snippet=snip)
-            hi = rng.choice([12.0, 90.0]) if shell_count else float(rad.max()) * 1.3
-            rp = np.sort(np.array([rng.uniform(0, hi) for _ in range(npts_r)]))
-            if shell_count:
-                rp[-1] = max(rp[-1], 1.5 * float(rad.max()))  # beyond every shell count, should one be read as a radius
-            if not shell_count and npts_r > 2:
-                rp[rng.randrange(npts_r)] = float(rad[rng.randrange(len(rad))])
-                rp = np.sort(rp)
-                # sector form assigns by radius, not by position: any node order must do
-                od = rng.choice(ORDERS)
-                if od == "reversed":
-                    rp = rp[::-1].copy()
-                elif od == "two-rules":
-                    kk = rng.randrange(1, npts_r)
-                    rp = np.concatenate([rp[kk:], rp[:kk]])
-                elif od in ("unsorted", "repeated"):
-                    rp = np.array(rng.sample(rp.tolist(), npts_r))
-            for m in meths:
-                pairs = _supported(ang, m)
-                try:
-                    g = AtomGrid.from_preset(z, p, _onedgrid(bg, rp, np.ones(npts_r)), method=m)
-                except Exception as e:
-                    ctx.fail("oracle", key, f"from_preset({z}, {p!r}) with the prescribed {npts_r} radial points raises {type(e).__name__} ({e}): "
-                             f"the table has {len(rad)} " + ("shell counts" if shell_count else "sector bounds") + f" but {len(npt)} sizes",
-                             witness={"preset": p, "atnum": z, "rad": rad.tolist(), "npt": npt.tolist(), "method": m}, snippet=snip)
-                    continue
-                built += 1
-                sizes = np.diff(g.indices)
-                if len(sizes) != npts_r:
-                    ctx.fail("oracle", key, f"from_preset({z}, {p!r}) built {len(sizes)} shells on {npts_r} radial points", snippet=snip)
-                    continue
-                tabsz = _tabulated_sizes(rad, npt, rp)
-                coarse = [(i, int(s), t) for i, (s, t) in enumerate(zip(sizes, tabsz)) if t is None or s < t]
-                exact_min = [(i, int(s), t) for i, (s, t) in enumerate(zip(sizes, tabsz))
-                             if t is not None and _least_size(pairs, t) is not None and s != _least_size(pairs, t)[1]]
-                if coarse or exact_min:
-                    i, s, t = (coarse or exact_min)[0]
-                    ctx.fail("oracle", key, f"from_preset({z}, {p!r}, method={m}): shell {i} has {s} points, tabulated {t}", snippet=snip)
-                elif not fits:
-                    unused = npt[len(rad):].tolist() if shell_count else npt[len(rad) + 1:].tolist()
-                    ctx.fail("oracle", key, f"table of ({p}, Z={z}) is inconsistent: {len(rad)} " + ("shell counts" if shell_count else "sector bounds")
-                             + f" but {len(npt)} sizes; from_preset builds a grid from the first {len(rad) if shell_count else len(rad) + 1} sizes and silently "
-                             f"ignores the tabulated sizes {unused}",
-                             witness={"preset": p, "atnum": z, "rad": rad.tolist(), "npt": npt.tolist()}, snippet=snip)
-    ctx.extra["oracle_presets_built"] = built
-    # a preset grid is a product grid too: all clauses on a few of them
-    for _ in range(3 if budget == "small" else 30):
-        p = rng.choice(sorted(tabs))
-        z = rng.choice(sorted(tabs[p][0]))
-        rad, npt, nshell = tabs[p][0][z]
-        if (p, z) == ("sg_3", 14) or len(npt) < len(rad):
-            continue
-        n = int(rad.sum()) if rad.dtype.kind == "i" else (nshell or 20)
-        rp = np.sort(np.array([rng.uniform(0.0, 10.0) for _ in range(n)]))
-        g = AtomGrid.from_preset(z, p, _onedgrid(bg, rp, np.ones(n)))
-        if g.size > 6000:
-            continue
-        _oracle_grid(ctx, ag, ang, bg, "lebedev", rp, np.full(n, 0.37), [int(d) for d in g.degrees], rng.randrange(1, 1000),
-                     np.array([0.3, -1.0, 2.0]), f"atomgrid.AtomGrid.from_preset:{p}")
+                pool = [rng.randrange(0, dmax + 1) for _ in range(rng.randrange(1, 4))]
+                degs = [rng.choice(pool) for _ in range(n)]
+            rotate = 0 if rng.random() < 0.3 else rng.randrange(1, 10 ** 6)
+            center = _rand_center(ctx)
+            try:
+                _oracle_grid(ctx, ag, ang, bg, method, pts, wts, degs, rotate, center, "atomgrid.AtomGrid")
+            except Exception as e:
+                ctx.fail("oracle", "atomgrid.AtomGrid", f"construction raised {type(e).__name__}: {e} [method={method}, degrees={degs}, rotate={rotate}]",
+                         witness={"rgrid_points": pts.tolist(), "degrees": degs, "rotate": rotate, "method": method})
+    parts.run('random grids', _part0)
 
+    # ---- pruned sectors: degree of each shell is the one of its sector, never below the request -----
+    def _part1():
+        for k in range(30 if budget == "small" else 400):
+            method = rng.choice(METHODS)
+            pairs = _supported(ang, method)
+            # radial nodes in every order the API admits: the first ten runs walk through the explicit orders
+            # (ascending, reversed, two rules back to back, unsorted, repeated nodes), then random grids
+            pts, wts = _ordered_rgrid(ctx, ORDERS[k % len(ORDERS)]) if k < 10 or rng.random() < 0.5 else _rand_rgrid(ctx)
+            S = rng.randrange(1, 5)
+            rsect = sorted(rng.uniform(0.05, 4) for _ in range(S))
+            radius = rng.uniform(0.3, 3.0)
+            if rng.random() < 0.4:
+                pts[rng.randrange(len(pts))] = rsect[rng.randrange(S)] * radius
+            dsec = [rng.randrange(0, MAXDEG[method] + 1) for _ in range(S + 1)]
+            g = AtomGrid.from_pruned(_onedgrid(bg, pts, wts), radius, r_sectors=rsect, d_sectors=dsec, method=method)
+            bounds = np.array(rsect) * radius  # same product as documented: radius * r_sectors
+            for i, r in enumerate(pts):
+                ksec = sum(1 for b in bounds if b < r)  # sectors are (b_{k-1}, b_k]
+                want = _least_degree(pairs, dsec[ksec])
+                if int(g.degrees[i]) != want[0] or int(g.degrees[i]) < dsec[ksec]:
+                    ctx.fail("oracle", "atomgrid.AtomGrid.from_pruned",
+                             f"r={r!r} lies in sector {ksec} of bounds {bounds.tolist()} (requested degree {dsec[ksec]}) but the shell has degree {g.degrees[i]}",
+                             witness={"rgrid_points": pts.tolist(), "radius": radius, "r_sectors": rsect, "d_sectors": dsec, "method": method},
+                             snippet=SNIP_PRUNED.format(pts=pts.tolist(), wts=wts.tolist(), radius=radius, rsect=rsect, dsec=dsec, method=method))
+                    break
+    parts.run('pruned sectors: degree of each shell is the one of its sector, never below the request', _part1)
+
+    # ---- every shipped preset x every element it tabulates ---------------------------------------
+    def _part2():
+        tabs = _preset_tables()
+        meths = ["lebedev"] if budget == "small" and not ctx.thorough else METHODS
+        built = 0
+        for p in sorted(tabs):
+            tab, extra = tabs[p]
+            for z in sorted(tab):
+                rad, npt, nshell = tab[z]
+                shell_count = rad.dtype.kind == "i"
+                key = f"prune_grid:{p}:Z={z}"
+                snip = SNIP_PRESET.format(preset=p, atnum=z)
+                fits = len(npt) == (len(rad) if shell_count else len(rad) + 1)
+                if shell_count:
+                    npts_r = int(rad.sum())
+                else:
+                    npts_r = nshell if nshell else 30
+                if "r_points" in extra and shell_count and int(extra["r_points"].sum()) != npts_r:
+                    ctx.fail("oracle", key, f"stored r_points {extra['r_points'].tolist()} differs from the sum of the shell counts {npts_r}", snippet=snip)
+                hi = rng.choice([12.0, 90.0]) if shell_count else float(rad.max()) * 1.3
+                rp = np.sort(np.array([rng.uniform(0, hi) for _ in range(npts_r)]))
+                if shell_count:
+                    rp[-1] = max(rp[-1], 1.5 * float(rad.max()))  # beyond every shell count, should one be read as a radius
+                if not shell_count and npts_r > 2:
+                    rp[rng.randrange(npts_r)] = float(rad[rng.randrange(len(rad))])
+                    rp = np.sort(rp)
+                    # sector form assigns by radius, not by position: any node order must do
+                    od = rng.choice(ORDERS)
+                    if od == "reversed":
+                        rp = rp[::-1].copy()
+                    elif od == "two-rules":
+                        kk = rng.randrange(1, npts_r)
+                        rp = np.concatenate([rp[kk:], rp[:kk]])
+                    elif od in ("unsorted", "repeated"):
+                        rp = np.array(rng.sample(rp.tolist(), npts_r))
+                for m in meths:
+                    pairs = _supported(ang, m)
+                    try:
+                        g = AtomGrid.from_preset(z, p, _onedgrid(bg, rp, np.ones(npts_r)), method=m)
+                    except Exception as e:
+                        ctx.fail("oracle", key, f"from_preset({z}, {p!r}) with the prescribed {npts_r} radial points raises {type(e).__name__} ({e}): "
+                                 f"the table has {len(rad)} " + ("shell counts" if shell_count else "sector bounds") + f" but {len(npt)} sizes",
+                                 witness={"preset": p, "atnum": z, "rad": rad.tolist(), "npt": npt.tolist(), "method": m}, snippet=snip)
+                        continue
+                    built += 1
+                    sizes = np.diff(g.indices)
+                    if len(sizes) != npts_r:
+                        ctx.fail("oracle", key, f"from_preset({z}, {p!r}) built {len(sizes)} shells on {npts_r} radial points", snippet=snip)
+                        continue
+                    tabsz = _tabulated_sizes(rad, npt, rp)
+                    coarse = [(i, int(s), t) for i, (s, t) in enumerate(zip(sizes, tabsz)) if t is None or s < t]
+                    exact_min = [(i, int(s), t) for i, (s, t) in enumerate(zip(sizes, tabsz))
+                                 if t is not None and _least_size(pairs, t) is not None and s != _least_size(pairs, t)[1]]
+                    if coarse or exact_min:
+                        i, s, t = (coarse or exact_min)[0]
+                        ctx.fail("oracle", key, f"from_preset({z}, {p!r}, method={m}): shell {i} has {s} points, tabulated {t}", snippet=snip)
+                    elif not fits:
+                        unused = npt[len(rad):].tolist() if shell_count else npt[len(rad) + 1:].tolist()
+                        ctx.fail("oracle", key, f"table of ({p}, Z={z}) is inconsistent: {len(rad)} " + ("shell counts" if shell_count else "sector bounds")
+                                 + f" but {len(npt)} sizes; from_preset builds a grid from the first {len(rad) if shell_count else len(rad) + 1} sizes and silently "
+                                 f"ignores the tabulated sizes {unused}",
+                                 witness={"preset": p, "atnum": z, "rad": rad.tolist(), "npt": npt.tolist()}, snippet=snip)
+        ctx.extra["oracle_presets_built"] = built
+        # a preset grid is a product grid too: all clauses on a few of them
+        for _ in range(3 if budget == "small" else 30):
+            p = rng.choice(sorted(tabs))
+            z = rng.choice(sorted(tabs[p][0]))
+            rad, npt, nshell = tabs[p][0][z]
+            if (p, z) == ("sg_3", 14) or len(npt) < len(rad):
+                continue
+            n = int(rad.sum()) if rad.dtype.kind == "i" else (nshell or 20)
+            rp = np.sort(np.array([rng.uniform(0.0, 10.0) for _ in range(n)]))
+            g = AtomGrid.from_preset(z, p, _onedgrid(bg, rp, np.ones(n)))
+            if g.size > 6000:
+                continue
+            _oracle_grid(ctx, ag, ang, bg, "lebedev", rp, np.full(n, 0.37), [int(d) for d in g.degrees], rng.randrange(1, 1000),
+                         np.array([0.3, -1.0, 2.0]), f"atomgrid.AtomGrid.from_preset:{p}")
+    parts.run('every shipped preset x every element it tabulates', _part2)
+
+    parts.finish()
 
 # ----------------------------------------------------------------------------
 # round 3 (AGENT_ROUND3 classes 8 - 12), implementation side
@@ -1625,207 +1723,223 @@ def _oracle_round3(ctx: Ctx, ag, ang, bg, budget):
     large = budget != "small"
     import warnings as _w
 
+    parts = _Parts(ctx, 'oracle', 'atomgrid.oracle-round3')
     # ---- classes 9, 10, 11: one object, its public methods in random orders, everything it hands out used by the caller
-    # as its own (edited in place and through the setters), non-default options first; after every step the grid must
-    # still be the product grid (compared with a twin that is only read)
-    for k in range(10 if not large else 150):
-        method = METHODS[k % 4]
-        pts, wts = _ordered_rgrid(ctx, ORDERS[k % len(ORDERS)])
-        n = len(pts)
-        degs = [rng.randrange(0, MAXDEG[method] + 1) for _ in range(n)]
-        rotate = rng.choice([0, rng.randrange(1, 10 ** 5)])
-        center = [float(rng.choice([0, rng.randrange(-4, 5), rng.choice([-1, 1]) * 2 ** rng.randrange(10, 21)])) for _ in range(3)]
-        ops = []
-        for _ in range(rng.randrange(6, 12)):
-            kind = rng.choice(["points-edit", "shell", "shell", "shell", "integrate", "spherical", "reads"])
-            if kind == "shell":
-                ops.append(("shell", rng.randrange(n), rng.choice([True, False, None]), rng.random() < 0.7))
-            else:
-                ops.append((kind,))
-        if k % 3 == 0:  # the very first request of the fresh object uses the non-default option, then the default on the same index
-            i0 = rng.randrange(n)
-            ops = [("shell", i0, False, True), ("shell", i0, None, True), ("shell", i0, False, False)] + ops
-        code = SNIP_HISTORY.format(pts=pts.tolist(), wts=wts.tolist(), degs=degs, rotate=rotate, center=center, method=method, ops=ops)
-        ctx.count(["history", method, degs, rotate, center, ops], nontrivial=True, tag="oracle:history:" + ("first-non-default" if k % 3 == 0 else "random"))
-        try:
-            exec(compile(code, "<c05-history>", "exec"), {"__name__": "c05_history"})
-        except AssertionError as e:
-            ctx.fail("oracle", "atomgrid.AtomGrid:history", f"{str(e)[:300]} [method={method}, degrees={degs}, rotate={rotate}, center={center}]",
-                     witness={"method": method, "rgrid_points": pts.tolist(), "rgrid_weights": wts.tolist(), "degrees": degs, "rotate": rotate,
-                              "center": center, "ops": [list(o) for o in ops]}, snippet=code)
-        except Exception as e:  # noqa: BLE001
-            ctx.fail("oracle", "atomgrid.AtomGrid:history", f"history raised {type(e).__name__}: {e} [method={method}, degrees={degs}, rotate={rotate}]",
-                     witness={"method": method, "rgrid_points": pts.tolist(), "degrees": degs, "rotate": rotate, "ops": [list(o) for o in ops]}, snippet=code)
+    def _part0():
+        # as its own (edited in place and through the setters), non-default options first; after every step the grid must
+        # still be the product grid (compared with a twin that is only read)
+        for k in range(10 if not large else 150):
+            method = METHODS[k % 4]
+            pts, wts = _ordered_rgrid(ctx, ORDERS[k % len(ORDERS)])
+            n = len(pts)
+            degs = [rng.randrange(0, MAXDEG[method] + 1) for _ in range(n)]
+            rotate = rng.choice([0, rng.randrange(1, 10 ** 5)])
+            center = [float(rng.choice([0, rng.randrange(-4, 5), rng.choice([-1, 1]) * 2 ** rng.randrange(10, 21)])) for _ in range(3)]
+            ops = []
+            for _ in range(rng.randrange(6, 12)):
+                kind = rng.choice(["points-edit", "shell", "shell", "shell", "integrate", "spherical", "reads"])
+                if kind == "shell":
+                    ops.append(("shell", rng.randrange(n), rng.choice([True, False, None]), rng.random() < 0.7))
+                else:
+                    ops.append((kind,))
+            if k % 3 == 0:  # the very first request of the fresh object uses the non-default option, then the default on the same index
+                i0 = rng.randrange(n)
+                ops = [("shell", i0, False, True), ("shell", i0, None, True), ("shell", i0, False, False)] + ops
+            code = SNIP_HISTORY.format(pts=pts.tolist(), wts=wts.tolist(), degs=degs, rotate=rotate, center=center, method=method, ops=ops)
+            ctx.count(["history", method, degs, rotate, center, ops], nontrivial=True, tag="oracle:history:" + ("first-non-default" if k % 3 == 0 else "random"))
+            try:
+                exec(compile(code, "<c05-history>", "exec"), {"__name__": "c05_history"})
+            except AssertionError as e:
+                ctx.fail("oracle", "atomgrid.AtomGrid:history", f"{str(e)[:300]} [method={method}, degrees={degs}, rotate={rotate}, center={center}]",
+                         witness={"method": method, "rgrid_points": pts.tolist(), "rgrid_weights": wts.tolist(), "degrees": degs, "rotate": rotate,
+                                  "center": center, "ops": [list(o) for o in ops]}, snippet=code)
+            except Exception as e:  # noqa: BLE001
+                ctx.fail("oracle", "atomgrid.AtomGrid:history", f"history raised {type(e).__name__}: {e} [method={method}, degrees={degs}, rotate={rotate}]",
+                         witness={"method": method, "rgrid_points": pts.tolist(), "degrees": degs, "rotate": rotate, "ops": [list(o) for o in ops]}, snippet=code)
+    parts.run('classes 9, 10, 11: one object, its public methods in random orders, everything it hands ou', _part0)
 
     # ---- class 9, the caller's own inputs after the construction: the arrays it passed for degrees / sizes / sectors and the
-    # list it passed for the centre are reused for the next atom; the first grid must not move
-    for k in range(8 if not large else 100):
-        method = rng.choice(METHODS)
-        pairs = _supported(ang, method)
-        pts, wts = _ordered_rgrid(ctx, rng.choice(ORDERS))
-        n = len(pts)
-        route = ["degrees", "sizes", "pruned-d", "pruned-s"][k % 4]
-        cen = [float(rng.randrange(-3, 4)) for _ in range(3)]
-        smax = max(sz for d, sz in pairs if d <= MAXDEG[method])
-        with _w.catch_warnings():
-            _w.simplefilter("ignore")
-            if route == "degrees":
-                arr = np.array([rng.randrange(0, MAXDEG[method] + 1) for _ in range(n)], dtype=np.int64)
-                mk = lambda a: AtomGrid(_onedgrid(bg, pts, wts), degrees=a, center=cen, method=method)  # noqa: E731
-            elif route == "sizes":
-                arr = np.array([rng.randrange(0, smax + 1) for _ in range(n)], dtype=np.int64)
-                mk = lambda a: AtomGrid(_onedgrid(bg, pts, wts), None, sizes=a, center=cen, method=method)  # noqa: E731
-            else:
-                S = rng.randrange(1, 4)
-                rsect = np.array(sorted(rng.uniform(0.05, 4) for _ in range(S)))
-                hi = MAXDEG[method] if route == "pruned-d" else smax
-                arr = np.array([rng.randrange(0, hi + 1) for _ in range(S + 1)], dtype=np.int64)
-                if route == "pruned-d":
-                    mk = lambda a: AtomGrid.from_pruned(_onedgrid(bg, pts, wts), 1.3, r_sectors=rsect, d_sectors=a, center=cen, method=method)  # noqa: E731
+    def _part1():
+        # list it passed for the centre are reused for the next atom; the first grid must not move
+        for k in range(8 if not large else 100):
+            method = rng.choice(METHODS)
+            pairs = _supported(ang, method)
+            pts, wts = _ordered_rgrid(ctx, rng.choice(ORDERS))
+            n = len(pts)
+            route = ["degrees", "sizes", "pruned-d", "pruned-s"][k % 4]
+            cen = [float(rng.randrange(-3, 4)) for _ in range(3)]
+            smax = max(sz for d, sz in pairs if d <= MAXDEG[method])
+            with _w.catch_warnings():
+                _w.simplefilter("ignore")
+                if route == "degrees":
+                    arr = np.array([rng.randrange(0, MAXDEG[method] + 1) for _ in range(n)], dtype=np.int64)
+                    mk = lambda a: AtomGrid(_onedgrid(bg, pts, wts), degrees=a, center=cen, method=method)  # noqa: E731
+                elif route == "sizes":
+                    arr = np.array([rng.randrange(0, smax + 1) for _ in range(n)], dtype=np.int64)
+                    mk = lambda a: AtomGrid(_onedgrid(bg, pts, wts), None, sizes=a, center=cen, method=method)  # noqa: E731
                 else:
-                    mk = lambda a: AtomGrid.from_pruned(_onedgrid(bg, pts, wts), 1.3, r_sectors=rsect, d_sectors=None, s_sectors=a, center=cen, method=method)  # noqa: E731
-            orig = arr.copy()
-            g = mk(arr)
-            ref = (g.points.copy(), g.weights.copy(), [int(x) for x in g.indices], [int(x) for x in g.degrees])
-            arr[...] = 0            # the caller recycles its array for the next atom
-            cen[0] += 11.0          # ... and its centre list
-            if route.startswith("pruned"):
-                rsect[...] *= 3.0
-            g2 = mk(np.array(orig) if False else arr)  # another construction in between
-            now = (g.points, g.weights, [int(x) for x in g.indices], [int(x) for x in g.degrees])
-            sg = g.get_shell_grid(n - 1, r_sq=True)
-        ctx.count(["inputs-after", route, method, orig.tolist()], nontrivial=True, tag="oracle:inputs-after:" + route)
-        i0, i1 = ref[2][n - 1], ref[2][n]
-        if not (np.array_equal(now[0], ref[0]) and np.array_equal(now[1], ref[1]) and now[2] == ref[2] and now[3] == ref[3]
-                and np.allclose(sg.weights, ref[1][i0:i1], rtol=1e-12, atol=0)):
-            ctx.fail("oracle", "atomgrid.AtomGrid:inputs-after-construction",
-                     f"a grid built through {route} changes when the caller later overwrites the arrays / lists it had passed [method={method}, request={orig.tolist()}]",
-                     witness={"route": route, "method": method, "request": orig.tolist(), "rgrid_points": pts.tolist()})
+                    S = rng.randrange(1, 4)
+                    rsect = np.array(sorted(rng.uniform(0.05, 4) for _ in range(S)))
+                    hi = MAXDEG[method] if route == "pruned-d" else smax
+                    arr = np.array([rng.randrange(0, hi + 1) for _ in range(S + 1)], dtype=np.int64)
+                    if route == "pruned-d":
+                        mk = lambda a: AtomGrid.from_pruned(_onedgrid(bg, pts, wts), 1.3, r_sectors=rsect, d_sectors=a, center=cen, method=method)  # noqa: E731
+                    else:
+                        mk = lambda a: AtomGrid.from_pruned(_onedgrid(bg, pts, wts), 1.3, r_sectors=rsect, d_sectors=None, s_sectors=a, center=cen, method=method)  # noqa: E731
+                orig = arr.copy()
+                g = mk(arr)
+                ref = (g.points.copy(), g.weights.copy(), [int(x) for x in g.indices], [int(x) for x in g.degrees])
+                arr[...] = 0            # the caller recycles its array for the next atom
+                cen[0] += 11.0          # ... and its centre list
+                if route.startswith("pruned"):
+                    rsect[...] *= 3.0
+                g2 = mk(np.array(orig) if False else arr)  # another construction in between
+                now = (g.points, g.weights, [int(x) for x in g.indices], [int(x) for x in g.degrees])
+                sg = g.get_shell_grid(n - 1, r_sq=True)
+            ctx.count(["inputs-after", route, method, orig.tolist()], nontrivial=True, tag="oracle:inputs-after:" + route)
+            i0, i1 = ref[2][n - 1], ref[2][n]
+            if not (np.array_equal(now[0], ref[0]) and np.array_equal(now[1], ref[1]) and now[2] == ref[2] and now[3] == ref[3]
+                    and np.allclose(sg.weights, ref[1][i0:i1], rtol=1e-12, atol=0)):
+                ctx.fail("oracle", "atomgrid.AtomGrid:inputs-after-construction",
+                         f"a grid built through {route} changes when the caller later overwrites the arrays / lists it had passed [method={method}, request={orig.tolist()}]",
+                         witness={"route": route, "method": method, "request": orig.tolist(), "rgrid_points": pts.tolist()})
+    parts.run("class 9, the caller's own inputs after the construction: the arrays it passed for degrees ", _part1)
 
     # ---- class 11: the same constructions as the *first* calls of a fresh interpreter (non-default options first) ---------
-    import json
-    import os
-    import subprocess
-    import sys
+    def _part2():
+        import json
+        import os
+        import subprocess
+        import sys
 
-    tabs = _preset_tables()
-    specs = []
-    for k in range(6 if not large else 24):
-        method = [m for m in METHODS if m != "lebedev"][k % 3] if k % 4 != 3 else "lebedev"  # the very first call: a non-default method
-        pairs = _supported(ang, method)
-        pts, wts = _ordered_rgrid(ctx, ORDERS[k % len(ORDERS)])
-        n = len(pts)
-        smax = max(sz for d, sz in pairs if d <= MAXDEG[method])
-        route = ["sizes", "pruned", "degrees", "preset"][k % 4]
-        sp = dict(pts=pts.tolist(), wts=wts.tolist(), method=method, rotate=rng.randrange(1, 10 ** 5), center=[float(rng.randrange(-3, 4)) for _ in range(3)],
-                  route=route, shell=rng.randrange(n))
-        if route == "sizes":
-            sp["req"] = [rng.randrange(0, smax + 1) for _ in range(n)]
-        elif route == "degrees":
-            sp["req"] = [rng.randrange(0, MAXDEG[method] + 1) for _ in range(n)]
-        elif route == "pruned":
-            S = rng.randrange(1, 4)
-            sp.update(radius=rng.uniform(0.5, 2.0), rsect=sorted(rng.uniform(0.05, 4) for _ in range(S)), req=[rng.randrange(0, smax + 1) for _ in range(S + 1)])
-        else:
-            sp.update(preset=rng.choice(["coarse", "medium"]), atnum=rng.choice([1, 6, 8]))
-            nsh = tabs[sp["preset"]][0][sp["atnum"]][2] or 12
-            rp = np.sort(np.array([rng.uniform(0, 6.0) for _ in range(min(nsh, 12))]))
-            sp.update(pts=rp.tolist(), wts=[1.0] * len(rp), shell=rng.randrange(len(rp)))
-        specs.append(sp)
-    env = dict(os.environ)
-    if os.environ.get("GRID_REPO"):
-        env["PYTHONPATH"] = os.path.join(os.environ["GRID_REPO"], "src") + os.pathsep + env.get("PYTHONPATH", "")
-    try:
-        p = subprocess.run([sys.executable, "-c", FRESH_MAIN, json.dumps(specs)], env=env, cwd="/", capture_output=True, text=True, timeout=600)
-        res = next(json.loads(ln[2:]) for ln in p.stdout.splitlines() if ln.startswith("@@"))
-    except Exception as e:  # noqa: BLE001
-        ctx.fail("corr", "oracle-crash", f"fresh interpreter run failed: {type(e).__name__}: {e}")
-        res = []
-    for sp, dig in zip(specs, res):
-        ctx.count(["fresh", sp], nontrivial=True, tag="oracle:fresh-process:" + sp["route"])
-        here = _fresh_digest(sp)
-        if here != dig:
-            what = (f"as the first call of a fresh interpreter the construction {sp['route']} / method {sp['method']} {dig}" if dig.startswith("raised")
-                    else f"construction {sp['route']} / method {sp['method']} as the first call of a fresh interpreter (get_shell_grid(r_sq=False) first) gives "
-                         "another grid or another get_shell_grid answer than in the running process")
-            ctx.fail("oracle", "atomgrid.AtomGrid:fresh-process", what + (f"; in the running process: {here}" if here.startswith("raised") else ""),
-                     witness=sp, snippet=FRESH_SNIP.format(spec=json.dumps(sp)))
+        tabs = _preset_tables()
+        specs = []
+        for k in range(6 if not large else 24):
+            method = [m for m in METHODS if m != "lebedev"][k % 3] if k % 4 != 3 else "lebedev"  # the very first call: a non-default method
+            pairs = _supported(ang, method)
+            pts, wts = _ordered_rgrid(ctx, ORDERS[k % len(ORDERS)])
+            n = len(pts)
+            smax = max(sz for d, sz in pairs if d <= MAXDEG[method])
+            route = ["sizes", "pruned", "degrees", "preset"][k % 4]
+            sp = dict(pts=pts.tolist(), wts=wts.tolist(), method=method, rotate=rng.randrange(1, 10 ** 5), center=[float(rng.randrange(-3, 4)) for _ in range(3)],
+                      route=route, shell=rng.randrange(n))
+            if route == "sizes":
+                sp["req"] = [rng.randrange(0, smax + 1) for _ in range(n)]
+            elif route == "degrees":
+                sp["req"] = [rng.randrange(0, MAXDEG[method] + 1) for _ in range(n)]
+            elif route == "pruned":
+                S = rng.randrange(1, 4)
+                sp.update(radius=rng.uniform(0.5, 2.0), rsect=sorted(rng.uniform(0.05, 4) for _ in range(S)), req=[rng.randrange(0, smax + 1) for _ in range(S + 1)])
+            else:
+                sp.update(preset=rng.choice(["coarse", "medium"]), atnum=rng.choice([1, 6, 8]))
+                nsh = tabs[sp["preset"]][0][sp["atnum"]][2] or 12
+                rp = np.sort(np.array([rng.uniform(0, 6.0) for _ in range(min(nsh, 12))]))
+                sp.update(pts=rp.tolist(), wts=[1.0] * len(rp), shell=rng.randrange(len(rp)))
+            specs.append(sp)
+        env = dict(os.environ)
+        if os.environ.get("GRID_REPO"):
+            env["PYTHONPATH"] = os.path.join(os.environ["GRID_REPO"], "src") + os.pathsep + env.get("PYTHONPATH", "")
+        try:
+            p = subprocess.run([sys.executable, "-c", FRESH_MAIN, json.dumps(specs)], env=env, cwd="/", capture_output=True, text=True, timeout=600)
+            res = next(json.loads(ln[2:]) for ln in p.stdout.splitlines() if ln.startswith("@@"))
+        except Exception as e:  # noqa: BLE001
+            ctx.fail("corr", "oracle-crash", f"fresh interpreter run failed: {type(e).__name__}: {e}")
+            res = []
+        for sp, dig in zip(specs, res):
+            ctx.count(["fresh", sp], nontrivial=True, tag="oracle:fresh-process:" + sp["route"])
+            here = _fresh_digest(sp)
+            if here != dig:
+                what = (f"as the first call of a fresh interpreter the construction {sp['route']} / method {sp['method']} {dig}" if dig.startswith("raised")
+                        else f"construction {sp['route']} / method {sp['method']} as the first call of a fresh interpreter (get_shell_grid(r_sq=False) first) gives "
+                             "another grid or another get_shell_grid answer than in the running process")
+                ctx.fail("oracle", "atomgrid.AtomGrid:fresh-process", what + (f"; in the running process: {here}" if here.startswith("raised") else ""),
+                         witness=sp, snippet=FRESH_SNIP.format(spec=json.dumps(sp)))
+    parts.run('class 11: the same constructions as the *first* calls of a fresh interpreter (non-default ', _part2)
 
     # ---- classes 8, 12: special and extreme but legal grids through all clauses of the property --------------------------------
-    special = []
-    for method in (METHODS if large else [rng.choice(METHODS), "lebedev"]):
-        d = rng.randrange(1, MAXDEG[method] + 1)
-        special += [
-            (method, np.array([0.0]), np.array([1.0]), [d], "single r=0 shell"),
-            (method, np.array([0.7]), np.array([0.3]), [d], "single shell"),
-            (method, np.array([0.0, 0.0, 1.0]), np.array([1.0, 2.0, 0.5]), [d, d, 3], "two r=0 shells"),
-            (method, np.array([1e-160, 1e-50, 1.0]), np.array([1.0, 1e12, 1e-12]), [d, 3, d], "tiny radii"),
-            (method, np.array([1e150, 3e100, 2.0]), np.array([1e-12, 1.0, 1e12]), [3, d, d], "huge radii"),
-            (method, np.array([2.0 ** 20, 1.0]), np.array([1.0, 1.0]), [d, d], "shell through the origin"),
-        ]
-    for (method, pts, wts, degs, what) in special:
-        for center in (None, np.array([2.0 ** 20, -(2.0 ** 14), 2.0 ** 10 + 1.0])):
-            if what == "shell through the origin" and center is None:
-                center = np.array([2.0 ** 20, 0.0, 0.0])
-            rotate = rng.choice([0, rng.randrange(1, 10 ** 5)])
-            ctx.count(["special", what, method, degs, rotate, None if center is None else center.tolist()], nontrivial=True, tag="oracle:special:" + what)
-            try:
-                _oracle_grid(ctx, ag, ang, bg, method, pts, wts, degs, rotate, center, "atomgrid.AtomGrid")
-            except Exception as e:  # noqa: BLE001
-                ctx.fail("oracle", "atomgrid.AtomGrid", f"{what}: construction / evaluation raised {type(e).__name__}: {e} [method={method}, degrees={degs}, rotate={rotate}]",
-                         witness={"rgrid_points": pts.tolist(), "rgrid_weights": wts.tolist(), "degrees": degs, "rotate": rotate, "method": method})
+    def _part3():
+        special = []
+        for method in (METHODS if large else [rng.choice(METHODS), "lebedev"]):
+            d = rng.randrange(1, MAXDEG[method] + 1)
+            special += [
+                (method, np.array([0.0]), np.array([1.0]), [d], "single r=0 shell"),
+                (method, np.array([0.7]), np.array([0.3]), [d], "single shell"),
+                (method, np.array([0.0, 0.0, 1.0]), np.array([1.0, 2.0, 0.5]), [d, d, 3], "two r=0 shells"),
+                (method, np.array([1e-160, 1e-50, 1.0]), np.array([1.0, 1e12, 1e-12]), [d, 3, d], "tiny radii"),
+                (method, np.array([1e150, 3e100, 2.0]), np.array([1e-12, 1.0, 1e12]), [3, d, d], "huge radii"),
+                (method, np.array([1e-200, 1e-310, 5e-324, 0.0, 1.0]), np.array([1.0, 2.0, 1e300, 3.0, 0.5]), [d, 3, d, d, 3], "r^2 underflows / denormal r"),
+                (method, np.array([2.0 ** 20, 1.0]), np.array([1.0, 1.0]), [d, d], "shell through the origin"),
+            ]
+        for (method, pts, wts, degs, what) in special:
+            for center in (None, np.array([2.0 ** 20, -(2.0 ** 14), 2.0 ** 10 + 1.0])):
+                if what == "shell through the origin" and center is None:
+                    center = np.array([2.0 ** 20, 0.0, 0.0])
+                rotate = rng.choice([0, rng.randrange(1, 10 ** 5)])
+                ctx.count(["special", what, method, degs, rotate, None if center is None else center.tolist()], nontrivial=True, tag="oracle:special:" + what)
+                try:
+                    _oracle_grid(ctx, ag, ang, bg, method, pts, wts, degs, rotate, center, "atomgrid.AtomGrid")
+                except Exception as e:  # noqa: BLE001
+                    ctx.fail("oracle", "atomgrid.AtomGrid", f"{what}: construction / evaluation raised {type(e).__name__}: {e} [method={method}, degrees={degs}, rotate={rotate}]",
+                             witness={"rgrid_points": pts.tolist(), "rgrid_weights": wts.tolist(), "degrees": degs, "rotate": rotate, "method": method})
+    parts.run('classes 8, 12: special and extreme but legal grids through all clauses of the property', _part3)
 
     # ---- class 12 / 8 for from_pruned: nodes exactly on radius*r_sector, r = 0 with a bound at 0, radii over 20 orders of magnitude
-    for k in range(12 if not large else 200):
-        method = rng.choice(METHODS)
-        pairs = _supported(ang, method)
-        mag = 10.0 ** rng.choice([-10, -5, 0, 0, 5, 10])
-        S = rng.randrange(1, 5)
-        rsect = sorted(rng.uniform(0.05, 4) for _ in range(S))
-        if rng.random() < 0.3:
-            rsect[0] = 0.0
-        radius = mag * rng.uniform(0.3, 3.0)
-        bounds = np.array(rsect) * radius
-        pts = [float(b) for b in bounds]                       # every bound is a node
-        pts += [float(np.nextafter(b, np.inf)) for b in bounds[:2]] + [float(np.nextafter(b, -np.inf)) for b in bounds[:2] if b > 0]
-        # class 7: both sides of every bound within the factors 1.01 and 100
-        pts += [float(b * f) for b in bounds[:3] for f in (1.01, 1 / 1.01, 100.0, 0.01)]
-        pts += [0.0, mag * rng.uniform(0, 5)]
-        rng.shuffle(pts)
-        pts = np.array(pts)
-        wts = np.ones(len(pts))
-        dsec = [rng.randrange(0, MAXDEG[method] + 1) for _ in range(S + 1)]
-        ctx.count(["pruned-special", method, rsect, radius, dsec], nontrivial=True, tag="oracle:pruned-on-bounds")
-        code = SNIP_PRUNED.format(pts=pts.tolist(), wts=wts.tolist(), radius=radius, rsect=rsect, dsec=dsec, method=method)
-        try:
-            exec(compile(code, "<c05-pruned>", "exec"), {"__name__": "c05_pruned"})
-        except AssertionError as e:
-            ctx.fail("oracle", "atomgrid.AtomGrid.from_pruned", str(e)[:300] + f" [radius={radius!r}, r_sectors={rsect}]",
-                     witness={"rgrid_points": pts.tolist(), "radius": radius, "r_sectors": rsect, "d_sectors": dsec, "method": method}, snippet=code)
-    # ---- from_preset(rgrid=None): the radial grid it builds for the element runs from rmin to rmax of the element's default
-    # parameters (tabulated in angstrom) *in bohr*, with the tabulated number of nodes; conversion factor typed here from CODATA
-    # (1 angstrom = 1e-10 m, a0 = 5.29177210903e-11 m; CODATA revisions differ by 1e-9 relative, tolerance 1e-6)
-    utils = importlib.import_module("grid.utils")
-    bohr_per_angstrom = 1.0e-10 / 5.29177210903e-11
-    tabs = _preset_tables()
-    zs = sorted(set(utils._DEFAULT_POWER_RTRANSFORM_PARAMS) & set(tabs["coarse"][0]))
-    for z in rng.sample(zs, 3 if not large else min(30, len(zs))):
-        rmin, rmax, npt = utils._DEFAULT_POWER_RTRANSFORM_PARAMS[z]
-        ctx.count(["default-rgrid", z], nontrivial=True, tag="oracle:preset-default-rgrid")
-        code = SNIP_HEAD + (f"from grid.utils import _DEFAULT_POWER_RTRANSFORM_PARAMS as P\nz = {z}\nrmin, rmax, npt = P[z]\nb = 1.0e-10 / 5.29177210903e-11\n"
-                            "r = AtomGrid.from_preset(z, 'coarse').rgrid.points\n"
-                            "assert len(r) == npt and abs(r.min() / (rmin * b) - 1) < 1e-6 and abs(r.max() / (rmax * b) - 1) < 1e-6, "
-                            "f'default radial grid of Z={z}: {len(r)} nodes from {r.min()!r} to {r.max()!r} bohr, parameters say {npt} nodes from {rmin * b!r} to {rmax * b!r} bohr'\n")
-        try:
-            exec(compile(code, "<c05-default-rgrid>", "exec"), {"__name__": "c05_default_rgrid"})
-        except AssertionError as e:
-            ctx.fail("oracle", "atomgrid.AtomGrid.from_preset:default-rgrid", str(e)[:300], witness={"atnum": z, "preset": "coarse", "rgrid": None}, snippet=code)
-    # information: what AtomGrid hands out by reference on the unchanged tree (class 9 audit; not asserted)
-    g = AtomGrid(_onedgrid(bg, np.array([0.5, 1.0]), np.ones(2)), degrees=[3, 5])
-    byref = [nm for nm in ("weights", "indices", "degrees", "center", "rgrid") if getattr(g, nm) is getattr(g, nm)]
-    ctx.info("AtomGrid hands out by reference (same object on every read; an in-place edit by the caller edits the grid): " + ", ".join(byref)
-             + "; fresh on every read: points; fresh object on every call: get_shell_grid")
+    def _part4():
+        for k in range(12 if not large else 200):
+            method = rng.choice(METHODS)
+            pairs = _supported(ang, method)
+            mag = 10.0 ** rng.choice([-10, -5, 0, 0, 5, 10])
+            S = rng.randrange(1, 5)
+            rsect = sorted(rng.uniform(0.05, 4) for _ in range(S))
+            if rng.random() < 0.3:
+                rsect[0] = 0.0
+            radius = mag * rng.uniform(0.3, 3.0)
+            bounds = np.array(rsect) * radius
+            pts = [float(b) for b in bounds]                       # every bound is a node
+            pts += [float(np.nextafter(b, np.inf)) for b in bounds[:2]] + [float(np.nextafter(b, -np.inf)) for b in bounds[:2] if b > 0]
+            # class 7: both sides of every bound within the factors 1.01 and 100
+            pts += [float(b * f) for b in bounds[:3] for f in (1.01, 1 / 1.01, 100.0, 0.01)]
+            pts += [0.0, mag * rng.uniform(0, 5)]
+            rng.shuffle(pts)
+            pts = np.array(pts)
+            wts = np.ones(len(pts))
+            dsec = [rng.randrange(0, MAXDEG[method] + 1) for _ in range(S + 1)]
+            ctx.count(["pruned-special", method, rsect, radius, dsec], nontrivial=True, tag="oracle:pruned-on-bounds")
+            code = SNIP_PRUNED.format(pts=pts.tolist(), wts=wts.tolist(), radius=radius, rsect=rsect, dsec=dsec, method=method)
+            try:
+                exec(compile(code, "<c05-pruned>", "exec"), {"__name__": "c05_pruned"})
+            except AssertionError as e:
+                ctx.fail("oracle", "atomgrid.AtomGrid.from_pruned", str(e)[:300] + f" [radius={radius!r}, r_sectors={rsect}]",
+                         witness={"rgrid_points": pts.tolist(), "radius": radius, "r_sectors": rsect, "d_sectors": dsec, "method": method}, snippet=code)
+    parts.run('class 12 / 8 for from_pruned: nodes exactly on radius*r_sector, r = 0 with a bound at 0, r', _part4)
 
+    # ---- from_preset(rgrid=None): the radial grid it builds for the element runs from rmin to rmax of the element's default
+    def _part5():
+        # parameters (tabulated in angstrom) *in bohr*, with the tabulated number of nodes; conversion factor typed here from CODATA
+        # (1 angstrom = 1e-10 m, a0 = 5.29177210903e-11 m; CODATA revisions differ by 1e-9 relative, tolerance 1e-6)
+        utils = importlib.import_module("grid.utils")
+        bohr_per_angstrom = 1.0e-10 / 5.29177210903e-11
+        tabs = _preset_tables()
+        zs = sorted(set(utils._DEFAULT_POWER_RTRANSFORM_PARAMS) & set(tabs["coarse"][0]))
+        for z in rng.sample(zs, 3 if not large else min(30, len(zs))):
+            rmin, rmax, npt = utils._DEFAULT_POWER_RTRANSFORM_PARAMS[z]
+            ctx.count(["default-rgrid", z], nontrivial=True, tag="oracle:preset-default-rgrid")
+            code = SNIP_HEAD + (f"from grid.utils import _DEFAULT_POWER_RTRANSFORM_PARAMS as P\nz = {z}\nrmin, rmax, npt = P[z]\nb = 1.0e-10 / 5.29177210903e-11\n"
+                                "r = AtomGrid.from_preset(z, 'coarse').rgrid.points\n"
+                                "assert len(r) == npt and abs(r.min() / (rmin * b) - 1) < 1e-6 and abs(r.max() / (rmax * b) - 1) < 1e-6, "
+                                "f'default radial grid of Z={z}: {len(r)} nodes from {r.min()!r} to {r.max()!r} bohr, parameters say {npt} nodes from {rmin * b!r} to {rmax * b!r} bohr'\n")
+            try:
+                exec(compile(code, "<c05-default-rgrid>", "exec"), {"__name__": "c05_default_rgrid"})
+            except AssertionError as e:
+                ctx.fail("oracle", "atomgrid.AtomGrid.from_preset:default-rgrid", str(e)[:300], witness={"atnum": z, "preset": "coarse", "rgrid": None}, snippet=code)
+        # information: what AtomGrid hands out by reference on the unchanged tree (class 9 audit; not asserted)
+        g = AtomGrid(_onedgrid(bg, np.array([0.5, 1.0]), np.ones(2)), degrees=[3, 5])
+        byref = [nm for nm in ("weights", "indices", "degrees", "center", "rgrid") if getattr(g, nm) is getattr(g, nm)]
+        ctx.info("AtomGrid hands out by reference (same object on every read; an in-place edit by the caller edits the grid): " + ", ".join(byref)
+                 + "; fresh on every read: points; fresh object on every call: get_shell_grid")
+    parts.run('from_preset(rgrid=None): the radial grid it builds for the element runs from rmin to rmax ', _part5)
+
+    parts.finish()
 
 # ----------------------------------------------------------------------------
 # every documented argument combination of the constructors, each against the shell-by-shell reference
@@ -1887,114 +2001,488 @@ def _oracle_combinations(ctx: Ctx, ag, ang, bg, budget):
     rng = ctx.rng
     large = budget != "small"
     tabs = _preset_tables()
-    for k in range(12 if not large else 160):
-        method = METHODS[k % 4]
-        pairs = _supported(ang, method)
-        dmax = MAXDEG[method]
-        smax = max(sz for d, sz in pairs if d <= dmax)
-        pts, wts = _ordered_rgrid(ctx, ORDERS[k % len(ORDERS)])
-        n = len(pts)
-        cen = [float(rng.randrange(-4, 5)) for _ in range(3)]
-        zero = [0.0, 0.0, 0.0]
-        rot_src, seed, may_reject = rng.choice(_rot_variants(rng, n))
-        wit = {"method": method, "rgrid_points": pts.tolist(), "rgrid_weights": wts.tolist(), "rotate": rot_src, "center": cen}
+    parts = _Parts(ctx, 'oracle', 'atomgrid.oracle-arguments')
+    # ---- from_pruned and the constructor: every documented argument combination --------------------------------------------
+    def _part0():
+        for k in range(12 if not large else 160):
+            method = METHODS[k % 4]
+            pairs = _supported(ang, method)
+            dmax = MAXDEG[method]
+            smax = max(sz for d, sz in pairs if d <= dmax)
+            pts, wts = _ordered_rgrid(ctx, ORDERS[k % len(ORDERS)])
+            n = len(pts)
+            cen = [float(rng.randrange(-4, 5)) for _ in range(3)]
+            zero = [0.0, 0.0, 0.0]
+            rot_src, seed, may_reject = rng.choice(_rot_variants(rng, n))
+            wit = {"method": method, "rgrid_points": pts.tolist(), "rgrid_weights": wts.tolist(), "rotate": rot_src, "center": cen}
 
-        # ---- from_pruned: d_sectors only / s_sectors only / both (the sizes win, d_sectors is ignored) ---------------------------
-        S = rng.randrange(1, 4)
-        rsect = sorted(rng.uniform(0.05, 4) for _ in range(S))
-        radius = rng.choice([1.0, rng.uniform(0.3, 3.0)])
-        bounds = np.array(rsect) * radius
-        if rng.random() < 0.5:
-            pts[rng.randrange(n)] = bounds[rng.randrange(S)]
-        sector = [sum(1 for b in bounds if b < r) for r in pts]
-        dsec = [rng.randrange(0, dmax + 1) for _ in range(S + 1)]
-        ssec = [rng.randrange(0, smax + 1) for _ in range(S + 1)]
-        # make sure "both" can tell which one was used: the two requests resolve differently in at least one occupied sector
-        for kk in set(sector):
-            if _least_degree(pairs, dsec[kk]) == _least_size(pairs, ssec[kk]):
-                dsec[kk] = (dsec[kk] + 7) % (dmax + 1)
-        want_d = [_least_degree(pairs, dsec[kk]) for kk in sector]
-        want_s = [_least_size(pairs, ssec[kk]) for kk in sector]
-        w2 = dict(wit, radius=radius, r_sectors=rsect, d_sectors=dsec, s_sectors=ssec, rgrid_points=pts.tolist())
-        key = "atomgrid.AtomGrid.from_pruned:arguments"
-        cen_src = rng.choice([("center=None, ", zero), (f"center=np.array({cen!r}), ", cen), (f"center={cen!r}, ", cen), ("", zero)])
-        tail = f"{cen_src[0]}rotate={rot_src}, method=method)"
-        variants = [
-            ("from_pruned(d_sectors only, by keyword)", f"AtomGrid.from_pruned(rgrid, {radius!r}, r_sectors={rsect!r}, d_sectors={dsec!r}, {tail}", want_d),
-            ("from_pruned(d_sectors only, positional)", f"AtomGrid.from_pruned(rgrid, {radius!r}, {rsect!r}, {dsec!r}, {tail}", want_d),
-            ("from_pruned(s_sectors only, d_sectors=None)", f"AtomGrid.from_pruned(rgrid, {radius!r}, {rsect!r}, None, s_sectors={ssec!r}, {tail}", want_s),
-            ("from_pruned(s_sectors only, d_sectors omitted)", f"AtomGrid.from_pruned(rgrid, {radius!r}, r_sectors={rsect!r}, s_sectors=np.array({ssec!r}), {tail}", want_s),
-            ("from_pruned(d_sectors and s_sectors: the documentation says s_sectors is used)",
-             f"AtomGrid.from_pruned(rgrid, {radius!r}, {rsect!r}, {dsec!r}, s_sectors={ssec!r}, {tail}", want_s),
-            ("from_pruned(d_sectors and s_sectors as arrays: the documentation says s_sectors is used)",
-             f"AtomGrid.from_pruned(rgrid, radius={radius!r}, r_sectors=np.array({rsect!r}), d_sectors=np.array({dsec!r}), s_sectors=np.array({ssec!r}), {tail}", want_s),
-        ]
-        for what, call, want in (variants if large or k < 4 else rng.sample(variants[:4], 2) + variants[4:]):
-            _run_combo(ctx, key, what, call, want, method, seed, cen_src[1], pts, wts, may_reject, dict(w2, call=call))
+            # ---- from_pruned: d_sectors only / s_sectors only / both (the sizes win, d_sectors is ignored) ---------------------------
+            S = rng.randrange(1, 4)
+            rsect = sorted(rng.uniform(0.05, 4) for _ in range(S))
+            radius = rng.choice([1.0, rng.uniform(0.3, 3.0)])
+            bounds = np.array(rsect) * radius
+            if rng.random() < 0.5:
+                pts[rng.randrange(n)] = bounds[rng.randrange(S)]
+            sector = [sum(1 for b in bounds if b < r) for r in pts]
+            dsec = [rng.randrange(0, dmax + 1) for _ in range(S + 1)]
+            ssec = [rng.randrange(0, smax + 1) for _ in range(S + 1)]
+            # make sure "both" can tell which one was used: the two requests resolve differently in at least one occupied sector
+            for kk in set(sector):
+                if _least_degree(pairs, dsec[kk]) == _least_size(pairs, ssec[kk]):
+                    dsec[kk] = (dsec[kk] + 7) % (dmax + 1)
+            want_d = [_least_degree(pairs, dsec[kk]) for kk in sector]
+            want_s = [_least_size(pairs, ssec[kk]) for kk in sector]
+            w2 = dict(wit, radius=radius, r_sectors=rsect, d_sectors=dsec, s_sectors=ssec, rgrid_points=pts.tolist())
+            key = "atomgrid.AtomGrid.from_pruned:arguments"
+            cen_src = rng.choice([("center=None, ", zero), (f"center=np.array({cen!r}), ", cen), (f"center={cen!r}, ", cen), ("", zero)])
+            tail = f"{cen_src[0]}rotate={rot_src}, method=method)"
+            variants = [
+                ("from_pruned(d_sectors only, by keyword)", f"AtomGrid.from_pruned(rgrid, {radius!r}, r_sectors={rsect!r}, d_sectors={dsec!r}, {tail}", want_d),
+                ("from_pruned(d_sectors only, positional)", f"AtomGrid.from_pruned(rgrid, {radius!r}, {rsect!r}, {dsec!r}, {tail}", want_d),
+                ("from_pruned(s_sectors only, d_sectors=None)", f"AtomGrid.from_pruned(rgrid, {radius!r}, {rsect!r}, None, s_sectors={ssec!r}, {tail}", want_s),
+                ("from_pruned(s_sectors only, d_sectors omitted)", f"AtomGrid.from_pruned(rgrid, {radius!r}, r_sectors={rsect!r}, s_sectors=np.array({ssec!r}), {tail}", want_s),
+                ("from_pruned(d_sectors and s_sectors: the documentation says s_sectors is used)",
+                 f"AtomGrid.from_pruned(rgrid, {radius!r}, {rsect!r}, {dsec!r}, s_sectors={ssec!r}, {tail}", want_s),
+                ("from_pruned(d_sectors and s_sectors as arrays: the documentation says s_sectors is used)",
+                 f"AtomGrid.from_pruned(rgrid, radius={radius!r}, r_sectors=np.array({rsect!r}), d_sectors=np.array({dsec!r}), s_sectors=np.array({ssec!r}), {tail}", want_s),
+            ]
+            for what, call, want in (variants if large or k < 4 else rng.sample(variants[:4], 2) + variants[4:]):
+                _run_combo(ctx, key, what, call, want, method, seed, cen_src[1], pts, wts, may_reject, dict(w2, call=call))
 
-        # ---- AtomGrid(...): degrees only / sizes only / both (the sizes win, degrees are ignored) ------------------------------------
-        degs = [rng.randrange(0, dmax + 1) for _ in range(n)]
-        sizes = [rng.randrange(0, smax + 1) for _ in range(n)]
-        for i in range(n):
-            if _least_degree(pairs, degs[i]) == _least_size(pairs, sizes[i]):
-                degs[i] = (degs[i] + 7) % (dmax + 1)
-        d1, s1 = degs[0], sizes[0]
-        key = "atomgrid.AtomGrid:arguments"
-        w3 = dict(wit, degrees=degs, sizes=sizes)
-        variants = [
-            ("AtomGrid(degrees only, positional)", f"AtomGrid(rgrid, {degs!r}, {tail}", [_least_degree(pairs, d) for d in degs]),
-            ("AtomGrid(one degree for all shells)", f"AtomGrid(rgrid, degrees=[{d1}], {tail}", [_least_degree(pairs, d1)] * n),
-            ("AtomGrid(sizes only, degrees=None)", f"AtomGrid(rgrid, None, sizes={sizes!r}, {tail}", [_least_size(pairs, x) for x in sizes]),
-            ("AtomGrid(sizes only, degrees left at the default)", f"AtomGrid(rgrid, sizes=np.array({sizes!r}), {tail}", [_least_size(pairs, x) for x in sizes]),
-            ("AtomGrid(one size for all shells)", f"AtomGrid(rgrid, None, sizes=[{s1}], {tail}", [_least_size(pairs, s1)] * n),
-            ("AtomGrid(degrees and sizes: the documentation says sizes are used)", f"AtomGrid(rgrid, {degs!r}, sizes={sizes!r}, {tail}", [_least_size(pairs, x) for x in sizes]),
-            ("AtomGrid(degrees and sizes as arrays: the documentation says sizes are used)",
-             f"AtomGrid(rgrid, degrees=np.array({degs!r}), sizes=np.array({sizes!r}), {tail}", [_least_size(pairs, x) for x in sizes]),
-        ]
-        for what, call, want in (variants if large or k < 4 else rng.sample(variants[:5], 2) + variants[5:]):
-            _run_combo(ctx, key, what, call, want, method, seed, cen_src[1], pts, wts, may_reject, dict(w3, call=call))
+            # ---- AtomGrid(...): degrees only / sizes only / both (the sizes win, degrees are ignored) ------------------------------------
+            degs = [rng.randrange(0, dmax + 1) for _ in range(n)]
+            sizes = [rng.randrange(0, smax + 1) for _ in range(n)]
+            for i in range(n):
+                if _least_degree(pairs, degs[i]) == _least_size(pairs, sizes[i]):
+                    degs[i] = (degs[i] + 7) % (dmax + 1)
+            d1, s1 = degs[0], sizes[0]
+            key = "atomgrid.AtomGrid:arguments"
+            w3 = dict(wit, degrees=degs, sizes=sizes)
+            variants = [
+                ("AtomGrid(degrees only, positional)", f"AtomGrid(rgrid, {degs!r}, {tail}", [_least_degree(pairs, d) for d in degs]),
+                ("AtomGrid(one degree for all shells)", f"AtomGrid(rgrid, degrees=[{d1}], {tail}", [_least_degree(pairs, d1)] * n),
+                ("AtomGrid(sizes only, degrees=None)", f"AtomGrid(rgrid, None, sizes={sizes!r}, {tail}", [_least_size(pairs, x) for x in sizes]),
+                ("AtomGrid(sizes only, degrees left at the default)", f"AtomGrid(rgrid, sizes=np.array({sizes!r}), {tail}", [_least_size(pairs, x) for x in sizes]),
+                ("AtomGrid(one size for all shells)", f"AtomGrid(rgrid, None, sizes=[{s1}], {tail}", [_least_size(pairs, s1)] * n),
+                ("AtomGrid(degrees and sizes: the documentation says sizes are used)", f"AtomGrid(rgrid, {degs!r}, sizes={sizes!r}, {tail}", [_least_size(pairs, x) for x in sizes]),
+                ("AtomGrid(degrees and sizes as arrays: the documentation says sizes are used)",
+                 f"AtomGrid(rgrid, degrees=np.array({degs!r}), sizes=np.array({sizes!r}), {tail}", [_least_size(pairs, x) for x in sizes]),
+            ]
+            for what, call, want in (variants if large or k < 4 else rng.sample(variants[:5], 2) + variants[5:]):
+                _run_combo(ctx, key, what, call, want, method, seed, cen_src[1], pts, wts, may_reject, dict(w3, call=call))
+    parts.run('from_pruned and the constructor: every documented argument combination', _part0)
 
     # ---- from_preset: with / without rgrid, centre None / given / omitted, rotate int / bool / NumPy integer, method positional / keyword
-    utils = importlib.import_module("grid.utils")
-    small = [(p, z) for p in ("coarse", "medium", "sg_0", "g1") for z in sorted(tabs[p][0]) if z <= 18 and (p, z) not in (("sg_0", 7), ("sg_0", 15))]
-    for k in range(8 if not large else 80):
-        p, z = rng.choice(small)
-        method = METHODS[k % 4] if k % 2 else "lebedev"
+    def _part1():
+        utils = importlib.import_module("grid.utils")
+        small = [(p, z) for p in ("coarse", "medium", "sg_0", "g1") for z in sorted(tabs[p][0]) if z <= 18 and (p, z) not in (("sg_0", 7), ("sg_0", 15))]
+        for k in range(8 if not large else 80):
+            p, z = rng.choice(small)
+            method = METHODS[k % 4] if k % 2 else "lebedev"
+            pairs = _supported(ang, method)
+            rad, npt, nshell = tabs[p][0][z]
+            with_rgrid = k % 4 != 3 or z not in utils._DEFAULT_POWER_RTRANSFORM_PARAMS or rad.dtype.kind == "i"
+            if with_rgrid:
+                nr = int(rad.sum()) if rad.dtype.kind == "i" else rng.randrange(3, 9)
+                pts = np.array([rng.uniform(0, float(rad.max()) * 1.3 if rad.dtype.kind != "i" else 12.0) for _ in range(nr)])
+                wts = np.array([rng.uniform(0.1, 1.0) for _ in range(nr)])
+                rp = pts
+            else:  # the element's default radial grid: its nodes are read back from the grid (their range is checked by `default-rgrid`)
+                pts = wts = None
+                rmin, rmax, nr = utils._DEFAULT_POWER_RTRANSFORM_PARAMS[z]
+                rt, od = importlib.import_module("grid.rtransform"), importlib.import_module("grid.onedgrid")
+                b = 1.0e-10 / 5.29177210903e-11
+                rp = rt.PowerRTransform(rmin * b, rmax * b).transform_1d_grid(od.UniformInteger(nr)).points
+                if any(abs(float(bb) / float(r) - 1) < 1e-6 for bb in rad for r in rp):
+                    continue  # a default node within the CODATA uncertainty of a sector bound: the reference cannot place it
+            want = [_least_size(pairs, t) if t is not None else None for t in _tabulated_sizes(rad, npt, rp)]
+            if any(x is None for x in want) or sum(x[1] for x in want) > 12000:
+                continue
+            cen = [float(rng.randrange(-4, 5)) for _ in range(3)]
+            rot_src, seed, may_reject = rng.choice(_rot_variants(rng, nr))
+            rg_src = "rgrid" if with_rgrid else rng.choice(["None", ""])
+            style = rng.choice(["positional", "keyword", "mixed"])
+            cchoice = rng.choice(["None", "given", "omitted"])
+            if style == "positional" or (rg_src == "" and False):
+                call = f"AtomGrid.from_preset({z}, {p!r}, {rg_src or 'None'}, {'None' if cchoice != 'given' else 'np.array(' + repr(cen) + ')'}, {rot_src}, method)"
+            elif style == "keyword":
+                call = (f"AtomGrid.from_preset(atnum={z}, preset={p!r}, " + (f"rgrid={rg_src}, " if rg_src else "")
+                        + ("center=None, " if cchoice == "None" else f"center={cen!r}, " if cchoice == "given" else "") + f"rotate={rot_src}, method=method)")
+            else:
+                call = (f"AtomGrid.from_preset({z}, {p!r}, " + (f"{rg_src}, " if rg_src else "rgrid=None, ")
+                        + ("center=None, " if cchoice == "None" else f"center=np.array({cen!r}), " if cchoice == "given" else "") + f"rotate={rot_src}, method=method)")
+            what = f"from_preset({'with' if with_rgrid else 'without'} rgrid, center {cchoice}, {style} arguments) [{p}, Z={z}]"
+            _run_combo(ctx, "atomgrid.AtomGrid.from_preset:arguments", what, call, want, method, seed, cen if cchoice == "given" else [0.0, 0.0, 0.0], pts, wts, may_reject,
+                       {"preset": p, "atnum": z, "method": method, "call": call, "rgrid_points": None if pts is None else pts.tolist()})
+    parts.run('from_preset: with / without rgrid, centre None / given / omitted, rotate int / bool / NumP', _part1)
+
+    parts.finish()
+
+# ----------------------------------------------------------------------------
+# round 4 (AGENT_ROUND4 classes 14 - 20), implementation side; every scenario is a self-contained source text that is
+# executed here and stored as the replay snippet
+# ----------------------------------------------------------------------------
+SCEN_HEAD = SNIP_HEAD + """def tup(g):
+    out = [g.points, g.weights, np.asarray(g.indices), np.asarray(g.degrees)]
+    for i in range(len(g.degrees)):
+        for b in (True, False):
+            sg = g.get_shell_grid(i, r_sq=b)
+            out += [sg.points, sg.weights]
+    return out
+def same(a, b):
+    return len(a) == len(b) and all(np.asarray(x).shape == np.asarray(y).shape and np.array_equal(np.asarray(x, dtype=float), np.asarray(y, dtype=float), equal_nan=True)
+                                    for x, y in zip(a, b))
+"""
+
+# class 14: dtype / layout of the arrays held by the radial grid object (and of the other array arguments)
+SCEN_DTYPES = SCEN_HEAD + """pts, wts = np.array({pts!r}), np.array({wts!r})          # exactly representable in the narrow kinds used below
+degs, sizes, cen, rotate, method = {degs!r}, {sizes!r}, {cen!r}, {rotate}, {method!r}
+radius, rsect, dsec = {radius!r}, {rsect!r}, {dsec!r}
+def conv(a, kind, integer=False):
+    a = np.array(a, dtype=np.int64 if integer else float)
+    if kind == 'float32': return a.astype(np.int32 if integer else np.float32)
+    if kind == 'narrow-int': return a.astype(np.int16 if integer else np.int32)
+    if kind == 'uint8': return a.astype(np.uint8)
+    if kind == 'bool': return a.astype(bool)
+    if kind == 'readonly': a.flags.writeable = False; return a
+    if kind == 'strided': return np.repeat(a, 3)[::3]
+    if kind == 'negative-stride': return a[::-1].copy()[::-1]
+    if kind == 'view-2d-column': return np.asfortranarray(np.stack([a, a + 1], axis=1))[:, 0]
+    return a
+def build(kind, akind):
+    rg = OneDGrid(conv(pts, kind), conv(wts, 'bool' if kind == 'bool-weights' else kind), (0, np.inf))
+    return [
+        tup(AtomGrid(rg, degrees=conv(degs, akind, True), center=conv(cen, akind), rotate=rotate, method=method)),
+        tup(AtomGrid(rg, None, sizes=conv(sizes, akind, True), center=conv(cen, akind), rotate=rotate, method=method)),
+        tup(AtomGrid.from_pruned(rg, radius, conv(rsect, akind), conv(dsec, akind, True), center=conv(cen, akind), rotate=rotate, method=method)),
+        list(AtomGrid._generate_atomic_grid(rg, conv(degs, akind, True), rotate=rotate, method=method)),
+        tup(AtomGrid.from_preset({atnum}, {preset!r}, rg, conv(cen, akind), rotate, method)) if {with_preset} else [],
+    ]
+ref = build('float64', 'float64')
+for kind, akind in {kinds!r}:
+    got = build(kind, akind)
+    for name, a, b in zip(('AtomGrid(degrees=)', 'AtomGrid(sizes=)', 'from_pruned', '_generate_atomic_grid', 'from_preset'), got, ref):
+        assert all(np.asarray(x).dtype == np.float64 for x in a[:2]), f'{{name}}: points / weights are not float64 when the radial grid holds {{kind}} arrays'
+        assert same(a, b), f'{{name}}: the grid (or a shell grid, r_sq True / False) built on a radial grid holding {{kind}} arrays with {{akind}} array arguments differs from the float64 computation'
+"""
+
+# class 16: one argument object used for several requests, as views into larger caller arrays
+SCEN_SHARED = SCEN_HEAD + """pts0, wts0 = np.array({pts!r}), np.array({wts!r})
+degs0, sizes0, cen0, rotate, method = {degs!r}, {sizes!r}, {cen!r}, {rotate}, {method!r}
+radius, rsect0, dsec0, ssec0 = {radius!r}, {rsect!r}, {dsec!r}, {ssec!r}
+def embed(a, dtype):   # the caller's larger array; the argument is a view into it
+    big = np.arange(100, 100 + len(a) + 9).astype(dtype)
+    big[4:4 + len(a)] = a
+    return big, big[4:4 + len(a)]
+bigs = dict()
+for nm, a, dt in (('pts', pts0, float), ('wts', wts0, float), ('degs', degs0, np.int64), ('sizes', sizes0, np.int64), ('cen', cen0, float),
+                  ('rsect', rsect0, float), ('dsec', dsec0, np.int64), ('ssec', ssec0, np.int64)):
+    bigs[nm] = embed(a, dt)
+guard = dict((k, v[0].copy()) for k, v in bigs.items())
+V = dict((k, v[1]) for k, v in bigs.items())
+rg = OneDGrid(V['pts'], V['wts'], (0, np.inf))     # one radial grid object for every request
+def fresh():   # pristine copies of everything
+    return OneDGrid(pts0.copy(), wts0.copy(), (0, np.inf))
+calls = [
+    ('AtomGrid(degrees=)', lambda: AtomGrid(rg, degrees=V['degs'], center=V['cen'], rotate=rotate, method=method),
+     lambda: AtomGrid(fresh(), degrees=list(degs0), center=list(cen0), rotate=rotate, method=method)),
+    ('AtomGrid(sizes=)', lambda: AtomGrid(rg, None, sizes=V['sizes'], center=V['cen'], rotate=rotate, method=method),
+     lambda: AtomGrid(fresh(), None, sizes=list(sizes0), center=list(cen0), rotate=rotate, method=method)),
+    ('AtomGrid(degrees=the sizes array)', lambda: AtomGrid(rg, degrees=V['sizes'] % 20, center=V['cen'], rotate=rotate, method=method),
+     lambda: AtomGrid(fresh(), degrees=[int(x) % 20 for x in sizes0], center=list(cen0), rotate=rotate, method=method)),
+    ('from_pruned(d_sectors=)', lambda: AtomGrid.from_pruned(rg, radius, V['rsect'], V['dsec'], center=V['cen'], rotate=rotate, method=method),
+     lambda: AtomGrid.from_pruned(fresh(), radius, list(rsect0), list(dsec0), center=list(cen0), rotate=rotate, method=method)),
+    ('from_pruned(s_sectors=)', lambda: AtomGrid.from_pruned(rg, radius, V['rsect'], None, s_sectors=V['ssec'], center=V['cen'], rotate=rotate, method=method),
+     lambda: AtomGrid.from_pruned(fresh(), radius, list(rsect0), None, s_sectors=list(ssec0), center=list(cen0), rotate=rotate, method=method)),
+    ('from_pruned(d_sectors=the s_sectors array, other method)', lambda: AtomGrid.from_pruned(rg, radius, V['rsect'], V['ssec'] % 15, center=V['cen'], rotate=rotate, method={method2!r}),
+     lambda: AtomGrid.from_pruned(fresh(), radius, list(rsect0), [int(x) % 15 for x in ssec0], center=list(cen0), rotate=rotate, method={method2!r})),
+    ('_generate_atomic_grid', lambda: AtomGrid._generate_atomic_grid(rg, V['degs'], rotate=rotate, method=method),
+     lambda: AtomGrid._generate_atomic_grid(fresh(), list(degs0), rotate=rotate, method=method)),
+]
+refs = dict((nm, (list(r()) if nm == '_generate_atomic_grid' else tup(r()))) for nm, c, r in calls)   # before anything touched the shared objects
+done = []
+for k in {order!r}:
+    nm, call, _ = calls[k]
+    got = call()
+    got = list(got) if nm == '_generate_atomic_grid' else tup(got)
+    done.append(nm)
+    assert same(got, refs[nm]), f'after the requests {{done}} on the same argument objects: {{nm}} differs from the grid built from pristine copies of the arguments'
+    for key in bigs:
+        assert bigs[key][0].tobytes() == guard[key].tobytes(), f'after the requests {{done}}: the caller array holding `{{key}}` was modified (the argument is a view into it)'
+"""
+
+# class 18: a call that raises leaves no trace
+SCEN_RAISES = SCEN_HEAD + """pts, wts = np.array({pts!r}), np.array({wts!r})
+degs, cen, rotate, method = {degs!r}, {cen!r}, {rotate}, {method!r}
+def rgrid(): return OneDGrid(pts.copy(), wts.copy(), (0, np.inf))
+def build(): return AtomGrid(rgrid(), degrees=list(degs), center=list(cen), rotate=rotate, method=method)
+ref = tup(build())
+ref_int = build().integrate(np.arange(build().size) * 0.5)
+g = build()
+n = len(degs)
+rejected = [
+    ('get_shell_grid(-1)', lambda: g.get_shell_grid(-1)),
+    ('get_shell_grid(n)', lambda: g.get_shell_grid(n)),
+    ('get_shell_grid(n, r_sq=False)', lambda: g.get_shell_grid(n, r_sq=False)),
+    ('get_shell_grid(-n-1)', lambda: g.get_shell_grid(-n - 1)),
+    ('integrate(array of another size)', lambda: g.integrate(np.ones(g.size + 1))),
+    ('integrate()', lambda: g.integrate()),
+    ('assignment to points', lambda: setattr(g, 'points', np.zeros((g.size, 3)))),
+    ('AtomGrid(unsupported degree) on the same radial grid', lambda: AtomGrid(g.rgrid, degrees=[100000] * n, method=method)),
+    ('AtomGrid(one shell unsupported)', lambda: AtomGrid(g.rgrid, degrees=list(degs[:-1]) + [100000], center=list(cen), rotate=rotate, method=method)),
+    ('AtomGrid(too many degrees)', lambda: AtomGrid(g.rgrid, degrees=list(degs) + [3, 3], method=method)),
+    ('AtomGrid(rotate=-1)', lambda: AtomGrid(g.rgrid, degrees=list(degs), rotate=-1, method=method)),
+    ('AtomGrid(rotate=2**32)', lambda: AtomGrid(g.rgrid, degrees=list(degs), rotate=2 ** 32, method=method)),
+    ('AtomGrid(rotate=1.5)', lambda: AtomGrid(g.rgrid, degrees=list(degs), rotate=1.5, method=method)),
+    ('AtomGrid(rotate=np.int64(3))', lambda: AtomGrid(g.rgrid, degrees=list(degs), rotate=np.int64(3), method=method)),
+    ('AtomGrid(center of shape (2,))', lambda: AtomGrid(g.rgrid, degrees=list(degs), center=[0.0, 1.0], method=method)),
+    ('AtomGrid(degrees as tuple)', lambda: AtomGrid(g.rgrid, degrees=tuple(degs), method=method)),
+    ('AtomGrid(sizes too large)', lambda: AtomGrid(g.rgrid, None, sizes=[10 ** 7] * n, method=method)),
+    ('AtomGrid(unknown method)', lambda: AtomGrid(g.rgrid, degrees=list(degs), method='lebedew')),
+    ('from_pruned(sector lists do not match)', lambda: AtomGrid.from_pruned(g.rgrid, 1.0, [0.5, 1.0], [3, 5], method=method)),
+    ('from_pruned(neither d_sectors nor s_sectors)', lambda: AtomGrid.from_pruned(g.rgrid, 1.0, [0.5], None, method=method)),
+    ('from_preset(sg_3, Z=14)', lambda: AtomGrid.from_preset(14, 'sg_3', OneDGrid(np.linspace(0.1, 9, 99), np.ones(99), (0, np.inf)), method=method)),
+    ('from_preset(element not tabulated)', lambda: AtomGrid.from_preset(85, 'sg_1', g.rgrid, method=method)),
+    ('from_preset(unknown preset)', lambda: AtomGrid.from_preset(1, 'no_such_preset', g.rgrid, method=method)),
+    ('from_preset(wrong radial size)', lambda: AtomGrid.from_preset(1, 'g1', g.rgrid, method=method)),
+    ('radial grid with a negative node', lambda: AtomGrid(OneDGrid(np.array([-0.5, 1.0]), np.ones(2)), degrees=[3, 3], method=method)),
+    ('_generate_atomic_grid(rotate=2.0)', lambda: AtomGrid._generate_atomic_grid(g.rgrid, list(degs), rotate=2.0, method=method)),
+]
+done = []
+for k in {order!r}:
+    nm, call = rejected[k]
+    try:
+        call()
+        continue          # accepted by this tree: not a rejected call, nothing to check
+    except Exception:
+        pass
+    done.append(nm)
+    assert same(tup(g), ref), f'after the rejected calls {{done}}: the grid object they were made on (or with whose radial grid they were made) changed'
+    v = g.integrate(np.arange(g.size) * 0.5)
+    assert v == ref_int, f'after the rejected calls {{done}}: integrate on the same object gives {{v!r}}, before {{ref_int!r}}'
+    assert same(tup(build()), ref), f'after the rejected calls {{done}}: a new construction in the same process differs from the one made before them'
+"""
+
+# class 17: kinds of function-value arrays (the quadrature is linear: complex data integrate component-wise)
+SCEN_VALUES = SCEN_HEAD + """pts, wts = np.array({pts!r}), np.array({wts!r})
+g = AtomGrid(OneDGrid(pts, wts, (0, np.inf)), degrees={degs!r}, center={cen!r}, rotate={rotate}, method={method!r})
+rs = np.random.RandomState({seed})
+f = np.round(rs.uniform(-4, 4, g.size) * 8) / 8           # exactly representable in float32 / float16
+h = np.round(rs.uniform(-4, 4, g.size) * 8) / 8
+W = g.weights
+scale = np.sum(np.abs(W)) * 16 + 1e-300
+def close(a, b): return abs(a - b) <= 1e-12 * scale
+ref = np.sum(W * f)
+for name, v in (('float32', f.astype(np.float32)), ('float16', f.astype(np.float16)), ('longdouble', f.astype(np.longdouble)), ('list', f.tolist()),
+                ('read-only', np.frombuffer(f.tobytes(), dtype=float)), ('negative stride', f[::-1].copy()[::-1]), ('strided', np.repeat(f, 2)[::2])):
+    assert close(g.integrate(np.asarray(v) if name == 'list' else v), ref), f'integrate of {{name}} function values differs from sum(w f)'
+fi = np.round(f).astype(np.int64)
+assert close(g.integrate(fi), np.sum(W * fi.astype(float))) and close(g.integrate(fi.astype(np.int32)), np.sum(W * fi.astype(float))), 'integrate of integer function values'
+fb = f > 0
+assert close(g.integrate(fb), np.sum(W[fb])), 'integrate of boolean function values (a mask) is not the sum of the weights inside the mask'
+for name, z in (('complex128', f + 1j * h), ('complex64', (f + 1j * h).astype(np.complex64)), ('purely imaginary', 1j * h)):
+    got = g.integrate(z)
+    assert close(np.real(got), np.sum(W * np.real(z).astype(float))) and close(np.imag(got), np.sum(W * np.imag(z).astype(float))), (
+        f'integrate of {{name}} function values is not integrate(real part) + i integrate(imaginary part): {{got!r}}')
+got = g.integrate(f.astype(np.float32), h + 0j, fb)
+assert close(got, np.sum(W * f * h * fb)), 'integrate of a product of arrays of different kinds (float32, complex, bool)'
+# the factorisation clause with a complex angular factor: g(r) (x + i y)^m / r^m integrates to 0 for 1 <= m <= smallest shell degree
+c = np.array({cen!r}); D = g.points - c; r = np.sqrt((D ** 2).sum(axis=1))
+m = min({mmax}, int(min(g.degrees)))
+if m >= 1 and np.all(pts > 0.05) and abs(c).max() == 0:
+    z = np.exp(-0.3 * r) * ((D[:, 0] + 1j * D[:, 1]) / r) ** m
+    assert abs(g.integrate(z)) <= 1e-9 * np.sum(np.abs(W) * np.exp(-0.3 * r)) + 1e-300, f'integral of g(r) e^(i m phi) sin^m(theta), m = {{m}}, is {{g.integrate(z)!r}}, not 0'
+"""
+
+
+def _exec_scenario(ctx: Ctx, key, code, what, witness, tag):
+    ctx.count(["scenario", tag, witness], nontrivial=True, tag="oracle:" + tag)
+    try:
+        exec(compile(code, "<c05-" + tag + ">", "exec"), {"__name__": "c05_scenario"})
+    except AssertionError as e:
+        ctx.fail("oracle", key, f"{str(e)[:400]} [{what}]", witness=witness, snippet=code)
+    except Exception as e:  # noqa: BLE001   the library raised inside the envelope of the scenario
+        import traceback
+
+        ctx.fail("oracle", key + ":raises", f"{type(e).__name__}: {str(e)[:300]} [{what}]",
+                 witness=dict(witness, traceback="".join(traceback.format_exception(type(e), e, e.__traceback__))[-1500:]), snippet=code)
+
+
+def _exact_rgrid(ctx: Ctx, integer=False):
+    """radial nodes / weights exactly representable in float32 (multiples of 1/64 below 8) or small integers"""
+    rng = ctx.rng
+    n = rng.choice([1, 2, 3, 4, 5])
+    if integer:
+        pts = rng.sample(range(0, 13), n) if rng.random() < 0.5 else sorted(rng.sample(range(1, 13), n))
+        wts = [rng.randrange(1, 4) for _ in range(n)]
+        return [float(v) for v in pts], [float(v) for v in wts]
+    pts = [rng.randrange(0 if rng.random() < 0.2 else 1, 512) / 64 for _ in range(n)]
+    if rng.random() < 0.5:
+        pts.sort()
+    return pts, [rng.randrange(1, 256) / 64 for _ in range(n)]
+
+
+def _oracle_round4(ctx: Ctx, ag, ang, bg, budget):
+    rng = ctx.rng
+    large = budget != "small"
+    tabs = _preset_tables()
+    parts = _Parts(ctx, "oracle", "atomgrid.oracle-round4")
+
+    def common(method, integer=False):
         pairs = _supported(ang, method)
-        rad, npt, nshell = tabs[p][0][z]
-        with_rgrid = k % 4 != 3 or z not in utils._DEFAULT_POWER_RTRANSFORM_PARAMS or rad.dtype.kind == "i"
-        if with_rgrid:
-            nr = int(rad.sum()) if rad.dtype.kind == "i" else rng.randrange(3, 9)
-            pts = np.array([rng.uniform(0, float(rad.max()) * 1.3 if rad.dtype.kind != "i" else 12.0) for _ in range(nr)])
-            wts = np.array([rng.uniform(0.1, 1.0) for _ in range(nr)])
-            rp = pts
-        else:  # the element's default radial grid: its nodes are read back from the grid (their range is checked by `default-rgrid`)
-            pts = wts = None
-            rmin, rmax, nr = utils._DEFAULT_POWER_RTRANSFORM_PARAMS[z]
-            rt, od = importlib.import_module("grid.rtransform"), importlib.import_module("grid.onedgrid")
-            b = 1.0e-10 / 5.29177210903e-11
-            rp = rt.PowerRTransform(rmin * b, rmax * b).transform_1d_grid(od.UniformInteger(nr)).points
-            if any(abs(float(bb) / float(r) - 1) < 1e-6 for bb in rad for r in rp):
-                continue  # a default node within the CODATA uncertainty of a sector bound: the reference cannot place it
-        want = [_least_size(pairs, t) if t is not None else None for t in _tabulated_sizes(rad, npt, rp)]
-        if any(x is None for x in want) or sum(x[1] for x in want) > 12000:
-            continue
-        cen = [float(rng.randrange(-4, 5)) for _ in range(3)]
-        rot_src, seed, may_reject = rng.choice(_rot_variants(rng, nr))
-        rg_src = "rgrid" if with_rgrid else rng.choice(["None", ""])
-        style = rng.choice(["positional", "keyword", "mixed"])
-        cchoice = rng.choice(["None", "given", "omitted"])
-        if style == "positional" or (rg_src == "" and False):
-            call = f"AtomGrid.from_preset({z}, {p!r}, {rg_src or 'None'}, {'None' if cchoice != 'given' else 'np.array(' + repr(cen) + ')'}, {rot_src}, method)"
-        elif style == "keyword":
-            call = (f"AtomGrid.from_preset(atnum={z}, preset={p!r}, " + (f"rgrid={rg_src}, " if rg_src else "")
-                    + ("center=None, " if cchoice == "None" else f"center={cen!r}, " if cchoice == "given" else "") + f"rotate={rot_src}, method=method)")
-        else:
-            call = (f"AtomGrid.from_preset({z}, {p!r}, " + (f"{rg_src}, " if rg_src else "rgrid=None, ")
-                    + ("center=None, " if cchoice == "None" else f"center=np.array({cen!r}), " if cchoice == "given" else "") + f"rotate={rot_src}, method=method)")
-        what = f"from_preset({'with' if with_rgrid else 'without'} rgrid, center {cchoice}, {style} arguments) [{p}, Z={z}]"
-        _run_combo(ctx, "atomgrid.AtomGrid.from_preset:arguments", what, call, want, method, seed, cen if cchoice == "given" else [0.0, 0.0, 0.0], pts, wts, may_reject,
-                   {"preset": p, "atnum": z, "method": method, "call": call, "rgrid_points": None if pts is None else pts.tolist()})
+        pts, wts = _exact_rgrid(ctx, integer)
+        n = len(pts)
+        dmax = MAXDEG[method]
+        smax = max(sz for d, sz in pairs if d <= dmax)
+        S = rng.randrange(1, 4)
+        rsect = sorted(rng.sample(range(1, 7), S)) if integer else sorted(rng.sample(range(8, 400), S))
+        rsect = [float(v) for v in rsect] if integer else [v / 64 for v in rsect]
+        return dict(pts=pts, wts=wts, degs=[rng.randrange(0, dmax + 1) for _ in range(n)], sizes=[rng.randrange(0, min(smax, 255) + 1) for _ in range(n)],
+                    cen=[float(rng.randrange(-4, 5)) for _ in range(3)], rotate=rng.choice([0, rng.randrange(1, 10 ** 5)]), method=method,
+                    radius=2.0 if integer else rng.choice([1.0, 1.5, 0.75]), rsect=rsect, dsec=[rng.randrange(0, dmax + 1) for _ in range(S + 1)],
+                    ssec=[rng.randrange(0, min(smax, 255) + 1) for _ in range(S + 1)])
+
+    # ---- class 14 --------------------------------------------------------------------------------------------------------------
+    def dtypes():
+        for k in range(6 if not large else 80):
+            method = METHODS[k % 4]
+            integer = k % 2 == 1
+            a = common(method, integer)
+            if integer:
+                a["cen"] = [float(rng.randrange(0, 5)) for _ in range(3)]   # unsigned kinds below
+                kinds = [("narrow-int", "narrow-int"), ("uint8", "uint8"), ("float32", "float32"), ("bool-weights", "float64")]
+                a["wts"] = [1.0] * len(a["pts"]) if k % 4 == 3 else a["wts"]
+                if k % 4 != 3:
+                    kinds = kinds[:3]
+            else:
+                kinds = [("float32", "float32"), ("readonly", "readonly"), ("strided", "strided"), ("negative-stride", "negative-stride"),
+                         ("view-2d-column", "view-2d-column"), ("float64", "negative-stride"), ("negative-stride", "float64")]
+            # a preset route on the same radial grid object (sector form: any radial size)
+            p, z = rng.choice([("coarse", 1), ("medium", 6), ("coarse", 8)])
+            code = SCEN_DTYPES.format(kinds=kinds, atnum=z, preset=p, with_preset=True, **{k2: v for k2, v in a.items() if k2 != "ssec"})
+            _exec_scenario(ctx, "atomgrid.AtomGrid:array-kinds-inside-objects", code,
+                           f"method={method}, radial nodes {a['pts']}, kinds {[kk for kk, _ in kinds]}", {"method": method, "rgrid_points": a["pts"], "kinds": kinds}, "array-kinds-inside-objects")
+    parts.run("class 14: dtype / layout of the arrays inside the radial grid object", dtypes)
+
+    # ---- class 16 --------------------------------------------------------------------------------------------------------------
+    def shared():
+        for k in range(6 if not large else 80):
+            method = METHODS[k % 4]
+            a = common(method)
+            order = [rng.randrange(7) for _ in range(rng.randrange(5, 10))]
+            order = [0, 0, 0, 1, 1, 3, 4] + order if k % 3 == 0 else order   # the same entry point two and three times in a row
+            code = SCEN_SHARED.format(order=order, method2=METHODS[(k + 1) % 4], **a)
+            _exec_scenario(ctx, "atomgrid.AtomGrid:shared-argument-objects", code, f"method={method}, order={order}",
+                           {"method": method, "rgrid_points": a["pts"], "order": order}, "shared-argument-objects")
+    parts.run("class 16: the same argument objects (views into larger arrays) for several requests", shared)
+
+    # ---- class 18 --------------------------------------------------------------------------------------------------------------
+    def raises():
+        for k in range(5 if not large else 60):
+            method = METHODS[k % 4]
+            a = common(method)
+            order = list(range(26))
+            rng.shuffle(order)
+            order = order[:rng.randrange(8, 16)] if not large else order
+            code = SCEN_RAISES.format(order=order, **{k2: a[k2] for k2 in ("pts", "wts", "degs", "cen", "rotate", "method")})
+            _exec_scenario(ctx, "atomgrid.AtomGrid:rejected-call-leaves-no-trace", code, f"method={method}, degrees={a['degs']}",
+                           {"method": method, "rgrid_points": a["pts"], "degrees": a["degs"], "order": order}, "rejected-call-leaves-no-trace")
+    parts.run("class 18: a rejected call leaves no trace", raises)
+
+    # ---- class 17 --------------------------------------------------------------------------------------------------------------
+    def values():
+        for k in range(6 if not large else 60):
+            method = METHODS[k % 4]
+            a = common(method)
+            if k % 2 == 0:
+                a["cen"] = [0.0, 0.0, 0.0]
+                a["pts"] = [max(v, 0.125) for v in a["pts"]]
+            code = SCEN_VALUES.format(seed=rng.randrange(10 ** 6), mmax=rng.randrange(1, 9), **{k2: a[k2] for k2 in ("pts", "wts", "degs", "cen", "rotate", "method")})
+            _exec_scenario(ctx, "atomgrid.AtomGrid.integrate:value-kinds", code, f"method={method}, degrees={a['degs']}",
+                           {"method": method, "rgrid_points": a["pts"], "degrees": a["degs"]}, "integrate-value-kinds")
+    parts.run("class 17: kinds of the function values handed to integrate", values)
+
+    # ---- class 19: where the layers below are extreme -------------------------------------------------------------------------------
+    def lower_layers():
+        rt, od = importlib.import_module("grid.rtransform"), importlib.import_module("grid.onedgrid")
+        # radial layer (C01 / C03 / C04): transforms with trimmed ends (r = 1e16), weights up to 1e14, zero end weights, negative
+        # weights (MultiExp), nodes at 1e-8 and exactly at 0. Envelope (measured on the unchanged tree): all nodes and weights finite
+        # and r**2 finite; MultiExp on a closed rule has a weight of -inf and is left out.
+        radial = [
+            ("Becke o GaussChebyshev", lambda: rt.BeckeRTransform(1e-4, 1.5).transform_1d_grid(od.GaussChebyshev(7))),
+            ("Becke o ClenshawCurtis (node trimmed to 1e16)", lambda: rt.BeckeRTransform(1e-4, 1.5).transform_1d_grid(od.ClenshawCurtis(6))),
+            ("Knowles o ClenshawCurtis (1e16, weight 1e14, weight 0)", lambda: rt.KnowlesRTransform(1e-4, 1.5, 2).transform_1d_grid(od.ClenshawCurtis(7))),
+            ("Handy o TanhSinh (end clustering)", lambda: rt.HandyRTransform(1e-4, 1.5, 3).transform_1d_grid(od.TanhSinh(7, 0.5))),
+            ("MultiExp o GaussChebyshev (negative weights)", lambda: rt.MultiExpRTransform(1e-4, 1.5).transform_1d_grid(od.GaussChebyshev(6))),
+            ("HandyMod o ClenshawCurtis (finite interval, zero end weights)", lambda: rt.HandyModRTransform(1e-4, 30.0, 2).transform_1d_grid(od.ClenshawCurtis(6))),
+            ("LinearFinite o ClenshawCurtis (node exactly at 0)", lambda: rt.LinearFiniteRTransform(0.0, 10.0).transform_1d_grid(od.ClenshawCurtis(5))),
+            ("Power o UniformInteger (rmin 1e-8)", lambda: rt.PowerRTransform(1e-8, 20.0).transform_1d_grid(od.UniformInteger(7))),
+            ("Exp o UniformInteger", lambda: rt.ExpRTransform(1e-5, 50.0).transform_1d_grid(od.UniformInteger(6))),
+            ("Hyperbolic o UniformInteger (domain end nan)", lambda: rt.HyperbolicRTransform(0.1, 0.05).transform_1d_grid(od.UniformInteger(6))),
+        ]
+        # angular layer (C02 / C12): the Lebedev grids with negative weights (13, 25, 27), the smallest grid of every method, a large one
+        special_deg = {"lebedev": [13, 25, 27, 3, 65], "spherical": [1, 2, 3, 60], "maxdet": [1, 2, 50], "ahrens_beylkin": [14, 19, 70]}
+        pick = radial if large else rng.sample(radial, 4)
+        for name, mk in pick:
+            rg0 = mk()
+            P, Wt = np.array(rg0.points, dtype=float), np.array(rg0.weights, dtype=float)
+            if not (np.all(np.isfinite(P)) and np.all(np.isfinite(Wt)) and np.all(P <= 1e150) and np.all(P >= 0)):
+                ctx.info(f"radial grid {name} is outside the envelope (non-finite node / weight) and is skipped")
+                continue
+            method = rng.choice(METHODS)
+            degs = [rng.choice(special_deg[method]) if rng.random() < 0.6 else rng.randrange(0, MAXDEG[method] + 1) for _ in P]
+            ctx.count(["lower-layers", name, method, degs], nontrivial=True, tag="oracle:lower-layers:" + name.split(" (")[0])
+            _oracle_grid(ctx, ag, ang, bg, method, P, Wt, degs, rng.choice([0, rng.randrange(1, 10 ** 5)]), _rand_center(ctx), "atomgrid.AtomGrid", mk_rgrid=mk)
+    parts.run("class 19: extreme radial / angular layers", lower_layers)
+
+    # ---- class 20: sizes 1 and 2, every pair of shell sizes different, first / last shell special -----------------------------------
+    def shapes():
+        cases = [
+            ("spherical", [0.5], [1]), ("spherical", [0.5, 1.25], [1, 1]), ("spherical", [0.5, 1.25], [1, 3]), ("spherical", [1.25, 0.5], [3, 1]),
+            ("spherical", [0.25, 0.5, 2.0], [1, 3, 5]), ("spherical", [0.25, 0.5, 2.0], [5, 3, 1]), ("maxdet", [0.5], [1]), ("maxdet", [0.5, 1.0], [1, 2]),
+            ("maxdet", [0.5, 1.0, 3.0], [2, 1, 3]), ("lebedev", [2.0], [3]), ("lebedev", [2.0, 0.0], [3, 5]), ("lebedev", [0.0, 2.0, 1.0], [7, 5, 3]),
+            ("lebedev", [0.3, 0.6, 0.9], [3, 3, 3]),      # 3 shells x 6 points: neither dimension can be told from 3
+            ("ahrens_beylkin", [1.0], [14]), ("ahrens_beylkin", [1.0, 2.0], [19, 14]),
+        ]
+        for method, pts, degs in (cases if large else rng.sample(cases, 8)):
+            wts = [rng.randrange(1, 9) / 4 for _ in pts]
+            ctx.count(["shapes", method, pts, degs], nontrivial=True, tag="oracle:shapes-1-2")
+            for rotate in (0, rng.randrange(1, 10 ** 5)):
+                _oracle_grid(ctx, ag, ang, bg, method, np.array(pts), np.array(wts), degs, rotate, rng.choice([None, np.array([1.0, -2.0, 0.5])]), "atomgrid.AtomGrid")
+    parts.run("class 20: one and two shells, 2-point spheres, unequal shell sizes", shapes)
+
+    # ---- class 15 (rest): omitted vs explicitly None vs explicitly the declared default -----------------------------------------------
+    def explicit_defaults():
+        import inspect
+
+        for k in range(4 if not large else 40):
+            method = "lebedev"   # the declared default method
+            a = common(method)
+            pairs = _supported(ang, method)
+            sig = {f: {n: p.default for n, p in inspect.signature(getattr(ag.AtomGrid, f)).parameters.items() if p.default is not inspect.Parameter.empty}
+                   for f in ("__init__", "from_pruned", "from_preset")}
+            d0 = sig["__init__"]["degrees"]
+            n = len(a["pts"])
+            want0 = [_least_degree(pairs, int(d0[0]))] * n
+            zero = [0.0, 0.0, 0.0]
+            bounds = np.array(a["rsect"]) * a["radius"]
+            wantp = [_least_degree(pairs, a["dsec"][sum(1 for b in bounds if b < r)]) for r in a["pts"]]
+            seed0 = int(sig["__init__"]["rotate"])
+            exp_i = ", ".join(f"{nm}={v!r}" for nm, v in sig["__init__"].items())
+            exp_p = ", ".join(f"{nm}={v!r}" for nm, v in sig["from_pruned"].items() if nm != "d_sectors")
+            wit = {"method": method, "rgrid_points": a["pts"], "rgrid_weights": a["wts"]}
+            for what, call, want in [
+                ("AtomGrid(rgrid): everything omitted", "AtomGrid(rgrid)", want0),
+                ("AtomGrid(rgrid, every optional argument explicitly at its declared default)", f"AtomGrid(rgrid, {exp_i})", want0),
+                ("AtomGrid(rgrid, sizes=None, center=None) explicitly None", "AtomGrid(rgrid, sizes=None, center=None)", want0),
+                ("from_pruned(d_sectors, everything else omitted)", f"AtomGrid.from_pruned(rgrid, {a['radius']!r}, {a['rsect']!r}, {a['dsec']!r})", wantp),
+                ("from_pruned(d_sectors, every optional argument explicitly at its declared default)",
+                 f"AtomGrid.from_pruned(rgrid, {a['radius']!r}, {a['rsect']!r}, {a['dsec']!r}, {exp_p})", wantp),
+            ]:
+                if sum(x[1] for x in want) <= 9000:
+                    _run_combo(ctx, "atomgrid.AtomGrid:arguments", what, call, want, sig["__init__"]["method"], seed0, zero, a["pts"], a["wts"], False, dict(wit, call=call))
+    parts.run("class 15: omitted / None / explicit default", explicit_defaults)
+    parts.finish()
 
 
 def _oracle_kinds(ctx: Ctx, ag, ang, bg, budget):
@@ -2002,85 +2490,93 @@ def _oracle_kinds(ctx: Ctx, ag, ang, bg, budget):
     are the seeds 1 / 0, rebuilding gives the same grid, and a permutation of the radial nodes permutes the shells."""
     AtomGrid = ag.AtomGrid
     rng = ctx.rng
-    for k in range(12 if budget == "small" else 150):
-        method = METHODS[k % 4]
-        pts, wts = _ordered_rgrid(ctx, ORDERS[k % len(ORDERS)])
-        pts = np.array([round(v * 64) / 64 for v in pts])
-        wts = np.array([max(1, round(v * 64)) / 64 for v in wts])
-        n = len(pts)
-        degs = [rng.randrange(0, MAXDEG[method] + 1) for _ in range(n)]
-        cen = [float(rng.randrange(-3, 4)) for _ in range(3)]
-        rot = rng.choice([0, 1, rng.randrange(2, 10 ** 5)])
-        wit = {"method": method, "rgrid_points": pts.tolist(), "rgrid_weights": wts.tolist(), "degrees": degs, "center": cen, "rotate": rot}
-        ref = AtomGrid(_onedgrid(bg, pts, wts), degrees=list(degs), center=np.array(cen), rotate=rot, method=method)
+    parts = _Parts(ctx, 'oracle', 'atomgrid.oracle-kinds')
+    # ---- container / dtype of the arguments, rebuild, permutation of the radial nodes ----------------------------------------
+    def _part0():
+        for k in range(12 if budget == "small" else 150):
+            method = METHODS[k % 4]
+            pts, wts = _ordered_rgrid(ctx, ORDERS[k % len(ORDERS)])
+            pts = np.array([round(v * 64) / 64 for v in pts])
+            wts = np.array([max(1, round(v * 64)) / 64 for v in wts])
+            n = len(pts)
+            degs = [rng.randrange(0, MAXDEG[method] + 1) for _ in range(n)]
+            cen = [float(rng.randrange(-3, 4)) for _ in range(3)]
+            rot = rng.choice([0, 1, rng.randrange(2, 10 ** 5)])
+            wit = {"method": method, "rgrid_points": pts.tolist(), "rgrid_weights": wts.tolist(), "degrees": degs, "center": cen, "rotate": rot}
+            ref = AtomGrid(_onedgrid(bg, pts, wts), degrees=list(degs), center=np.array(cen), rotate=rot, method=method)
 
-        def same(g, what):
-            ok = (np.array_equal(g.points, ref.points) and np.array_equal(g.weights, ref.weights)
-                  and list(map(int, g.indices)) == list(map(int, ref.indices)) and list(map(int, g.degrees)) == list(map(int, ref.degrees)))
-            ctx.count(["oracle-kinds", what, wit["method"], degs, rot], nontrivial=True, tag="oracle:kinds:" + what)
-            if not ok:
-                ctx.fail("oracle", "atomgrid.AtomGrid:argument-kind", f"the grid depends on {what} [method={method}, degrees={degs}, rotate={rot}]",
-                         witness=dict(wit, variant=what))
+            def same(g, what):
+                ok = (np.array_equal(g.points, ref.points) and np.array_equal(g.weights, ref.weights)
+                      and list(map(int, g.indices)) == list(map(int, ref.indices)) and list(map(int, g.degrees)) == list(map(int, ref.degrees)))
+                ctx.count(["oracle-kinds", what, wit["method"], degs, rot], nontrivial=True, tag="oracle:kinds:" + what)
+                if not ok:
+                    ctx.fail("oracle", "atomgrid.AtomGrid:argument-kind", f"the grid depends on {what} [method={method}, degrees={degs}, rotate={rot}]",
+                             witness=dict(wit, variant=what))
 
-        same(AtomGrid(_onedgrid(bg, pts, wts), degrees=np.array(degs, dtype=np.int64), center=cen, rotate=rot, method=method), "degrees as int64 array, centre as list")
-        same(AtomGrid(_onedgrid(bg, pts, wts), degrees=np.array(degs, dtype=np.int32), center=tuple(cen), rotate=rot, method=method), "degrees as int32 array, centre as tuple")
-        same(AtomGrid(_onedgrid(bg, pts, wts), degrees=list(degs), center=np.array(cen, dtype=np.int64), rotate=rot, method=method), "centre as int array")
-        same(AtomGrid(_py_rgrid(ctx, bg, pts, wts, "float32", (0, np.inf)), degrees=list(degs), center=np.array(cen, dtype=np.float32), rotate=rot, method=method),
-             "radial grid and centre as float32 arrays")
-        same(AtomGrid(_py_rgrid(ctx, bg, pts, wts, "noncontig", (0, np.inf)), degrees=_readonly(np.array(degs)), center=_readonly(np.array(cen)), rotate=rot, method=method),
-             "non-contiguous / read-only arrays")
-        same(AtomGrid(_onedgrid(bg, pts, wts), degrees=list(degs), center=np.array(cen), rotate=rot, method=method), "a second construction")
-        if rot in (0, 1):
-            same(AtomGrid(_onedgrid(bg, pts, wts), degrees=list(degs), center=np.array(cen), rotate=bool(rot), method=method), "rotate given as bool")
-        # sizes win over degrees: the sizes of the reference grid's shells give the same grid whatever `degrees` says
-        shell_sizes = [int(x) for x in np.diff(ref.indices)]
-        import warnings as _w
-        with _w.catch_warnings():
-            _w.simplefilter("ignore")
-            same(AtomGrid(_onedgrid(bg, pts, wts), degrees=[rng.randrange(0, 10)] * rng.choice([1, n]), sizes=shell_sizes, center=np.array(cen), rotate=rot, method=method),
-                 "sizes given together with other degrees")
-        # a permutation of the radial nodes permutes the shells (seed 0: no rotation involved)
-        perm = list(range(n))
-        rng.shuffle(perm)
-        r0 = AtomGrid(_onedgrid(bg, pts, wts), degrees=list(degs), center=np.array(cen), rotate=0, method=method)
-        rp = AtomGrid(_onedgrid(bg, pts[perm], wts[perm]), degrees=[degs[j] for j in perm], center=np.array(cen), rotate=0, method=method)
-        ctx.count(["oracle-kinds", "perm", method, degs, perm], nontrivial=True, tag="oracle:kinds:permutation")
-        for newpos, j in enumerate(perm):
-            a = r0.points[r0.indices[j]:r0.indices[j + 1]]
-            b = rp.points[rp.indices[newpos]:rp.indices[newpos + 1]]
-            wa = r0.weights[r0.indices[j]:r0.indices[j + 1]]
-            wb = rp.weights[rp.indices[newpos]:rp.indices[newpos + 1]]
-            if not (np.array_equal(a, b) and np.array_equal(wa, wb)):
-                ctx.fail("oracle", "atomgrid.AtomGrid:radial-order", f"shell of r={pts[j]!r} changes when the radial nodes are permuted [method={method}, degrees={degs}]",
-                         witness=dict(wit, permutation=perm))
-                break
-    # information: consistent rejections found by the round-2 audit (not violations: nothing wrong is built)
-    rg = _onedgrid(bg, np.array([0.5, 1.0]), np.ones(2))
-    try:
-        AtomGrid(rg, [5], rotate=np.int64(3))
-        ctx.info("AtomGrid(rotate=np.int64(3)) is accepted")
-    except ValueError:
-        ctx.info("AtomGrid(rotate=np.int64(3)) raises ValueError: __init__ accepts (int, np.integer) but _generate_atomic_grid insists on "
-                 "isinstance(rotate, int) — a NumPy-integer seed is always rejected (Lean: gen_init_npInt_rejected); rejection, not a wrong grid")
-    for name in ("COARSE", "Fine", "SG_0"):
+            same(AtomGrid(_onedgrid(bg, pts, wts), degrees=np.array(degs, dtype=np.int64), center=cen, rotate=rot, method=method), "degrees as int64 array, centre as list")
+            same(AtomGrid(_onedgrid(bg, pts, wts), degrees=np.array(degs, dtype=np.int32), center=tuple(cen), rotate=rot, method=method), "degrees as int32 array, centre as tuple")
+            same(AtomGrid(_onedgrid(bg, pts, wts), degrees=list(degs), center=np.array(cen, dtype=np.int64), rotate=rot, method=method), "centre as int array")
+            same(AtomGrid(_py_rgrid(ctx, bg, pts, wts, "float32", (0, np.inf)), degrees=list(degs), center=np.array(cen, dtype=np.float32), rotate=rot, method=method),
+                 "radial grid and centre as float32 arrays")
+            same(AtomGrid(_py_rgrid(ctx, bg, pts, wts, "noncontig", (0, np.inf)), degrees=_readonly(np.array(degs)), center=_readonly(np.array(cen)), rotate=rot, method=method),
+                 "non-contiguous / read-only arrays")
+            same(AtomGrid(_onedgrid(bg, pts, wts), degrees=list(degs), center=np.array(cen), rotate=rot, method=method), "a second construction")
+            if rot in (0, 1):
+                same(AtomGrid(_onedgrid(bg, pts, wts), degrees=list(degs), center=np.array(cen), rotate=bool(rot), method=method), "rotate given as bool")
+            # sizes win over degrees: the sizes of the reference grid's shells give the same grid whatever `degrees` says
+            shell_sizes = [int(x) for x in np.diff(ref.indices)]
+            import warnings as _w
+            with _w.catch_warnings():
+                _w.simplefilter("ignore")
+                same(AtomGrid(_onedgrid(bg, pts, wts), degrees=[rng.randrange(0, 10)] * rng.choice([1, n]), sizes=shell_sizes, center=np.array(cen), rotate=rot, method=method),
+                     "sizes given together with other degrees")
+            # a permutation of the radial nodes permutes the shells (seed 0: no rotation involved)
+            perm = list(range(n))
+            rng.shuffle(perm)
+            r0 = AtomGrid(_onedgrid(bg, pts, wts), degrees=list(degs), center=np.array(cen), rotate=0, method=method)
+            rp = AtomGrid(_onedgrid(bg, pts[perm], wts[perm]), degrees=[degs[j] for j in perm], center=np.array(cen), rotate=0, method=method)
+            ctx.count(["oracle-kinds", "perm", method, degs, perm], nontrivial=True, tag="oracle:kinds:permutation")
+            for newpos, j in enumerate(perm):
+                a = r0.points[r0.indices[j]:r0.indices[j + 1]]
+                b = rp.points[rp.indices[newpos]:rp.indices[newpos + 1]]
+                wa = r0.weights[r0.indices[j]:r0.indices[j + 1]]
+                wb = rp.weights[rp.indices[newpos]:rp.indices[newpos + 1]]
+                if not (np.array_equal(a, b) and np.array_equal(wa, wb)):
+                    ctx.fail("oracle", "atomgrid.AtomGrid:radial-order", f"shell of r={pts[j]!r} changes when the radial nodes are permuted [method={method}, degrees={degs}]",
+                             witness=dict(wit, permutation=perm))
+                    break
+    parts.run('container / dtype of the arguments, rebuild, permutation of the radial nodes', _part0)
+
+    # ---- information: consistent rejections found by the round-2 audit (not violations: nothing wrong is built)
+    def _part1():
+        rg = _onedgrid(bg, np.array([0.5, 1.0]), np.ones(2))
         try:
-            g = AtomGrid.from_preset(1, name, _onedgrid(bg, np.linspace(0.1, 5, 23), np.ones(23)))
-            low = AtomGrid.from_preset(1, name.lower(), _onedgrid(bg, np.linspace(0.1, 5, 23), np.ones(23)))
-            if not np.array_equal(g.points, low.points):
-                ctx.fail("oracle", "atomgrid.AtomGrid.from_preset:name-case", f"preset {name!r} is accepted but builds another grid than {name.lower()!r}")
-        except Exception as e:  # noqa: BLE001
-            ctx.info(f"from_preset(1, {name!r}) is rejected ({type(e).__name__}): preset names are case-sensitive")
-            break
-    try:
-        import warnings as _w
-        with _w.catch_warnings():
-            _w.simplefilter("ignore")
-            AtomGrid(rg, None, sizes=[6], method="LEBEDEV")
-    except ValueError:
-        ctx.info("AtomGrid(sizes=[6], method='LEBEDEV') raises ValueError although AtomGrid(degrees=[3], method='LEBEDEV') is accepted "
-                 "(the method is lower-cased for _generate_atomic_grid but not for convert_angular_sizes_to_degrees); outside the typing "
-                 "context of the translator (the four lower-case method names); rejection, not a wrong grid")
+            AtomGrid(rg, [5], rotate=np.int64(3))
+            ctx.info("AtomGrid(rotate=np.int64(3)) is accepted")
+        except ValueError:
+            ctx.info("AtomGrid(rotate=np.int64(3)) raises ValueError: __init__ accepts (int, np.integer) but _generate_atomic_grid insists on "
+                     "isinstance(rotate, int) — a NumPy-integer seed is always rejected (Lean: gen_init_npInt_rejected); rejection, not a wrong grid")
+        for name in ("COARSE", "Fine", "SG_0"):
+            try:
+                g = AtomGrid.from_preset(1, name, _onedgrid(bg, np.linspace(0.1, 5, 23), np.ones(23)))
+                low = AtomGrid.from_preset(1, name.lower(), _onedgrid(bg, np.linspace(0.1, 5, 23), np.ones(23)))
+                if not np.array_equal(g.points, low.points):
+                    ctx.fail("oracle", "atomgrid.AtomGrid.from_preset:name-case", f"preset {name!r} is accepted but builds another grid than {name.lower()!r}")
+            except Exception as e:  # noqa: BLE001
+                ctx.info(f"from_preset(1, {name!r}) is rejected ({type(e).__name__}): preset names are case-sensitive")
+                break
+        try:
+            import warnings as _w
+            with _w.catch_warnings():
+                _w.simplefilter("ignore")
+                AtomGrid(rg, None, sizes=[6], method="LEBEDEV")
+        except ValueError:
+            ctx.info("AtomGrid(sizes=[6], method='LEBEDEV') raises ValueError although AtomGrid(degrees=[3], method='LEBEDEV') is accepted "
+                     "(the method is lower-cased for _generate_atomic_grid but not for convert_angular_sizes_to_degrees); outside the typing "
+                     "context of the translator (the four lower-case method names); rejection, not a wrong grid")
+    parts.run('information: consistent rejections found by the round-2 audit (not violations: nothing wro', _part1)
 
+    parts.finish()
 
 def oracle_at(ctx: Ctx, failure):
     """A correspondence disagreement -> the property itself at that input (per-point reconstruction / sector rule)."""
